@@ -1,848 +1,661 @@
-import AioslskVerif.Model.Search
-/-! Helper lemmas for C18 (model: `Model/Search.lean`). -/
+import AioslskVerif.Proofs.SearchBase
+/-! Helper lemmas for C18, part 2: set-ups in progress, single loop iterations, `step`, histories.
+(Part 1, the sub-operations on the registry and the timer tasks: `Proofs/SearchBase.lean`; part 3, the removal
+report: `Proofs/SearchReport.lean`.) -/
 namespace AioslskVerif.Search
 open AioslskVerif.Generated.Search
 
-/-! ### generic induction over op lists -/
+/-! ### set-ups in progress and timer phases: the second half of the invariant -/
 
-theorem run_nil (s : State) : run s [] = (s, []) := rfl
-theorem run_cons (s : State) (op : Op) (ops : List Op) :
-    run s (op :: ops) = ((run (step s op).1 ops).1, (step s op).2 ++ (run (step s op).1 ops).2) := rfl
+structure PInv (s : State) : Prop where
+  /-- a set-up holds a ticket that was drawn for it -/
+  pend_tk : ∀ p ∈ s.pending, p.ticket = s.cfg.initial + p.rid ∧ 1 ≤ p.rid ∧ p.rid ≤ s.draws
+  pend_nodup : s.pending.Pairwise (fun a b => a.rid ≠ b.rid)
+  /-- a request that is being set up is not registered -/
+  pend_fresh : ∀ p ∈ s.pending, ∀ r ∈ s.requests, r.rid ≠ p.rid
+  /-- a timer task is only woken once its sleep is over -/
+  woken_due : ∀ t ∈ s.tasks, t.woken = true → ∃ d, t.deadline = some d ∧ d ≤ s.now
 
-theorem run_append (s : State) (a b : List Op) :
-    run s (a ++ b) = ((run (run s a).1 b).1, (run s a).2 ++ (run (run s a).1 b).2) := by
-  induction a generalizing s with
-  | nil => simp [run_nil]
-  | cons op ops ih => simp [run_cons, ih, List.append_assoc]
+/-- the invariant of the reachable states -/
+structure SInv (s : State) : Prop where
+  inv : Inv s
+  pinv : PInv s
 
-/-- Induction principle: `P` relates the state and the trace so far; `G` is a guard on the *final* state that is
-inherited by every earlier state (`hG`). -/
-theorem run_ind {P : State → List Obs → Prop} {G : State → Prop}
-    (hG : ∀ s op, G (step s op).1 → G s)
-    (hstep : ∀ s tr op, P s tr → G (step s op).1 → P (step s op).1 (tr ++ (step s op).2)) :
-    ∀ ops s tr, P s tr → G (run s ops).1 → P (run s ops).1 (tr ++ (run s ops).2) := by
-  intro ops
-  induction ops with
-  | nil => intro s tr h _; simpa [run_nil] using h
-  | cons op ops ih =>
-    intro s tr h hg
-    rw [run_cons] at hg ⊢
-    have hgs : G (step s op).1 := by
-      clear ih h
-      generalize (step s op).1 = s' at hg
-      induction ops generalizing s' with
-      | nil => simpa [run_nil] using hg
-      | cons op' ops' ih' => rw [run_cons] at hg; exact hG _ _ (ih' _ hg)
-    have := ih _ _ (hstep s tr op h hgs) hg
-    simpa [List.append_assoc] using this
+theorem SInv.req_tk {s : State} (h : SInv s) :
+    ∀ r ∈ s.requests, r.ticket = s.cfg.initial + r.rid ∧ 1 ≤ r.rid ∧ r.rid ≤ s.draws := h.inv.req_tk
+theorem SInv.req_uniq {s : State} (h : SInv s) :
+    ∀ r1 ∈ s.requests, ∀ r2 ∈ s.requests, r1.rid = r2.rid → r1 = r2 := h.inv.req_uniq
+theorem SInv.task_id {s : State} (h : SInv s) : ∀ t ∈ s.tasks, t.id < s.nextTask := h.inv.task_id
+theorem SInv.task_nodup {s : State} (h : SInv s) : s.tasks.Pairwise (fun a b => a.id ≠ b.id) := h.inv.task_nodup
+theorem SInv.task_live {s : State} (h : SInv s) : ∀ t ∈ s.tasks, t.cancelled = false →
+    ∃ r ∈ s.requests, r.rid = t.rid ∧ r.ticket = t.ticket ∧ r.handle = some t.id := h.inv.task_live
+theorem SInv.handle_task {s : State} (h : SInv s) : ∀ r ∈ s.requests, ∀ id, r.handle = some id →
+    ∃ t ∈ s.tasks, t.id = id ∧ t.rid = r.rid ∧ t.cancelled = false := h.inv.handle_task
+theorem SInv.handle_timeout {s : State} (h : SInv s) : ∀ r ∈ s.requests, r.timeout = none → r.handle = none :=
+  h.inv.handle_timeout
+theorem SInv.ticket_inj {s : State} (h : SInv s) :
+    ∀ r1 ∈ s.requests, ∀ r2 ∈ s.requests, r1.ticket = r2.ticket → r1 = r2 := h.inv.ticket_inj
+theorem SInv.gen_eq {s : State} (h : SInv s) : s.gen = s.cfg.initial + s.draws := h.inv.gen_eq
 
-/-! ### fireAll -/
-
-theorem fireTask_requests (s : State) (t : TTask) :
-    (fireTask s t).1 = { s with requests := s.requests.filter (fun r => r.ticket ≠ t.ticket) } := by
-  unfold fireTask
-  split
-  · rfl
-  · rename_i h
-    have : s.requests.filter (fun r => r.ticket ≠ t.ticket) = s.requests := by
-      apply List.filter_eq_self.2
-      intro r hr
-      simp only [List.any_eq_true, not_exists, not_and, decide_eq_true_eq] at h
-      simpa using h r hr
-    rw [this]
-
-theorem fireAll_state (F : List TTask) (s : State) (o : List Obs) :
-    (fireAll F s o).1 = { s with requests := s.requests.filter (fun r => F.all (fun t => r.ticket ≠ t.ticket)) } := by
-  induction F generalizing s o with
-  | nil => cases s; simp only [fireAll, List.all_nil]; congr 1; exact (List.filter_eq_self.2 (fun _ _ => rfl)).symm
-  | cons t ts ih =>
-    simp only [fireAll, ih, fireTask_requests, List.filter_filter, List.all_cons]
-    congr 1
-    apply List.filter_congr
-    intro r _
-    simp [Bool.and_comm]
-
-theorem fireAll_obs_mem (F : List TTask) (s : State) (o : List Obs) (x : Obs) (hx : x ∈ (fireAll F s o).2) :
-    x ∈ o ∨ ∃ t ∈ F, x = Obs.removed s.now t.rid t.ticket (t.deadline.getD 0) t.id ∨
-                      x = Obs.loopErr s.now t.rid t.ticket t.id := by
-  induction F generalizing s o with
-  | nil => left; simpa [fireAll] using hx
-  | cons t ts ih =>
-    simp only [fireAll] at hx
-    rcases ih _ _ hx with h | ⟨t', ht', h⟩
-    · rcases List.mem_append.1 h with h | h
-      · exact .inl h
-      · right; refine ⟨t, by simp, ?_⟩
-        unfold fireTask at h; split at h <;> simp_all
-    · right; refine ⟨t', by simp [ht'], ?_⟩
-      simpa [fireTask_requests] using h
-
-/-! ### the invariant -/
-
-/-- the ticket generator has not wrapped yet -/
-def NoWrap (s : State) : Prop := s.cfg.initial + s.draws ≤ maxTicket
-
-structure Inv (s : State) : Prop where
-  gen_eq : s.gen = s.cfg.initial + s.draws
-  req_tk : ∀ r ∈ s.requests, r.ticket = s.cfg.initial + r.rid ∧ 1 ≤ r.rid ∧ r.rid ≤ s.draws
-  req_uniq : ∀ r1 ∈ s.requests, ∀ r2 ∈ s.requests, r1.rid = r2.rid → r1 = r2
-  task_id : ∀ t ∈ s.tasks, t.id < s.nextTask
-  task_nodup : s.tasks.Pairwise (fun a b => a.id ≠ b.id)
-  /-- an un-cancelled pending timer task is the current handle of a registered request -/
-  task_live : ∀ t ∈ s.tasks, t.cancelled = false →
-    ∃ r ∈ s.requests, r.rid = t.rid ∧ r.ticket = t.ticket ∧ r.handle = some t.id
-  /-- the handle of a registered request is an un-cancelled pending task of its Timer -/
-  handle_task : ∀ r ∈ s.requests, ∀ id, r.handle = some id →
-    ∃ t ∈ s.tasks, t.id = id ∧ t.rid = r.rid ∧ t.cancelled = false
-  handle_timeout : ∀ r ∈ s.requests, r.timeout = none → r.handle = none
-
-theorem inv_congr {s s' : State} (h : Inv s) (h1 : s'.cfg = s.cfg) (h2 : s'.gen = s.gen) (h3 : s'.draws = s.draws)
-    (h4 : s'.nextTask = s.nextTask) (h5 : s'.requests = s.requests) (h6 : s'.tasks = s.tasks) : Inv s' := by
-  obtain ⟨a, b, c, d, e, f, g, i⟩ := h
+theorem pinv_congr {s s' : State} (h : PInv s) (h1 : s'.cfg = s.cfg) (h2 : s'.draws = s.draws) (h3 : s'.now = s.now)
+    (h4 : s'.requests = s.requests) (h5 : s'.tasks = s.tasks) (h6 : s'.pending = s.pending) : PInv s' := by
+  obtain ⟨a, b, c, d⟩ := h
   constructor <;> simp only [h1, h2, h3, h4, h5, h6] <;> assumption
 
-@[simp] theorem startTask_id (n : Nat) (t : TTask) : (startTask n t).id = t.id := by unfold startTask; split <;> rfl
-@[simp] theorem startTask_rid (n : Nat) (t : TTask) : (startTask n t).rid = t.rid := by unfold startTask; split <;> rfl
-@[simp] theorem startTask_ticket (n : Nat) (t : TTask) : (startTask n t).ticket = t.ticket := by
-  unfold startTask; split <;> rfl
-@[simp] theorem startTask_cancelled (n : Nat) (t : TTask) : (startTask n t).cancelled = t.cancelled := by
-  unfold startTask; split <;> rfl
-@[simp] theorem startTask_timeout (n : Nat) (t : TTask) : (startTask n t).timeout = t.timeout := by
-  unfold startTask; split <;> rfl
+theorem sinv_congr {s s' : State} (h : SInv s) (h1 : s'.cfg = s.cfg) (h2 : s'.gen = s.gen) (h3 : s'.draws = s.draws)
+    (h4 : s'.nextTask = s.nextTask) (h5 : s'.requests = s.requests) (h6 : s'.tasks = s.tasks)
+    (h7 : s'.now = s.now) (h8 : s'.pending = s.pending) : SInv s' :=
+  ⟨inv_congr h.inv h1 h2 h3 h4 h5 h6, pinv_congr h.pinv h1 h3 h7 h5 h6 h8⟩
 
-theorem inv_mapStart {s : State} (n : Nat) (h : Inv s) : Inv { s with tasks := s.tasks.map (startTask n) } := by
-  obtain ⟨a, b, c, d, e, f, g, i⟩ := h
-  constructor <;> simp only [] <;> try assumption
+/-- the registry part of `PInv` only looks at the `rid`s -/
+theorem pinv_of_rids {s s' : State} (h : PInv s) (h1 : s'.cfg = s.cfg) (h2 : s.draws ≤ s'.draws) (h6 : s'.pending = s.pending)
+    (hr : ∀ r' ∈ s'.requests, (∃ r ∈ s.requests, r.rid = r'.rid) ∨ s.draws < r'.rid)
+    (hw : ∀ t ∈ s'.tasks, t.woken = true → ∃ d, t.deadline = some d ∧ d ≤ s'.now) : PInv s' := by
+  obtain ⟨a, b, c, d⟩ := h
+  constructor
+  · intro p hp
+    rw [h6] at hp
+    have := a p hp
+    rw [h1]; omega
+  · rw [h6]; exact b
+  · intro p hp r' hr'
+    rw [h6] at hp
+    rcases hr r' hr' with ⟨r, hrm, he⟩ | hlt
+    · have := c p hp r hrm; omega
+    · have := (a p hp).2.2; omega
+  · exact hw
+
+/-! ### steps that only add: tickets are drawn, set-ups go on, requests are registered -/
+
+/-- `s'` comes from `s` by drawing tickets, finishing / dropping set-ups and registering requests -/
+structure Adds (s s' : State) : Prop where
+  cfg : s'.cfg = s.cfg
+  now : s'.now = s.now
+  draws : s.draws ≤ s'.draws
+  reqs : ∀ r' ∈ s'.requests, (∃ r ∈ s.requests, r.rid = r'.rid) ∨ (∃ p ∈ s.pending, p.rid = r'.rid) ∨ s.draws < r'.rid
+  pend : ∀ p' ∈ s'.pending, (∃ p ∈ s.pending, p.rid = p'.rid) ∨ s.draws < p'.rid
+  nextTask : s.nextTask ≤ s'.nextTask
+  tasks : ∀ t ∈ s'.tasks, t ∈ s.tasks ∨
+    (s.nextTask ≤ t.id ∧ t.cancelled = false ∧ t.deadline = none ∧ t.woken = false ∧ 1 ≤ t.timeout)
+
+theorem Adds.refl (s : State) : Adds s s :=
+  ⟨rfl, rfl, Nat.le_refl _, fun r h => .inl ⟨r, h, rfl⟩, fun p h => .inl ⟨p, h, rfl⟩, Nat.le_refl _, fun t h => .inl h⟩
+
+theorem Adds.trans {a b c : State} (h1 : Adds a b) (h2 : Adds b c) : Adds a c := by
+  refine ⟨h2.cfg.trans h1.cfg, h2.now.trans h1.now, Nat.le_trans h1.draws h2.draws, ?_, ?_,
+    Nat.le_trans h1.nextTask h2.nextTask, ?_⟩
+  · intro r' hr'
+    rcases h2.reqs r' hr' with ⟨r, hr, he⟩ | ⟨p, hp, he⟩ | hlt
+    · rcases h1.reqs r hr with ⟨r0, hr0, he0⟩ | ⟨p0, hp0, he0⟩ | hlt
+      · exact .inl ⟨r0, hr0, by omega⟩
+      · exact .inr (.inl ⟨p0, hp0, by omega⟩)
+      · exact .inr (.inr (by omega))
+    · rcases h1.pend p hp with ⟨p0, hp0, he0⟩ | hlt
+      · exact .inr (.inl ⟨p0, hp0, by omega⟩)
+      · exact .inr (.inr (by omega))
+    · exact .inr (.inr (by have := h1.draws; omega))
+  · intro p' hp'
+    rcases h2.pend p' hp' with ⟨p, hp, he⟩ | hlt
+    · rcases h1.pend p hp with ⟨p0, hp0, he0⟩ | hlt
+      · exact .inl ⟨p0, hp0, by omega⟩
+      · exact .inr (by omega)
+    · exact .inr (by have := h1.draws; omega)
   · intro t ht
-    obtain ⟨t0, ht0, rfl⟩ := List.mem_map.1 ht
-    simpa using d t0 ht0
-  · rw [List.pairwise_map]
-    simpa using e
-  · intro t ht hc
-    obtain ⟨t0, ht0, rfl⟩ := List.mem_map.1 ht
-    simpa using f t0 ht0 (by simpa using hc)
-  · intro r hr id hid
-    obtain ⟨t, ht, h1, h2, h3⟩ := g r hr id hid
-    exact ⟨startTask n t, List.mem_map.2 ⟨t, ht, rfl⟩, by simpa using h1, by simpa using h2, by simpa using h3⟩
+    rcases h2.tasks t ht with h | ⟨k1, k2⟩
+    · exact h1.tasks t h
+    · exact .inr ⟨by have := h1.nextTask; omega, k2⟩
 
-theorem inv_reply {s : State} (tk : Nat) (h : Inv s) :
-    Inv { s with requests := s.requests.map (fun q => if q.ticket = tk then { q with results := q.results + 1 } else q) } := by
-  obtain ⟨a, b, c, d, e, f, g, i⟩ := h
-  constructor <;> simp only [] <;> try assumption
-  · intro r hr
-    obtain ⟨r0, hr0, rfl⟩ := List.mem_map.1 hr
-    have := b r0 hr0
-    split <;> simpa using this
-  · intro r1 hr1 r2 hr2 heq
-    obtain ⟨q1, hq1, rfl⟩ := List.mem_map.1 hr1
-    obtain ⟨q2, hq2, rfl⟩ := List.mem_map.1 hr2
-    have : q1 = q2 := c q1 hq1 q2 hq2 (by grind)
-    subst this; rfl
-  · intro t ht hc
-    obtain ⟨r, hr, h1, h2, h3⟩ := f t ht hc
-    refine ⟨_, List.mem_map.2 ⟨r, hr, rfl⟩, ?_⟩
-    split <;> simp_all
-  · intro r hr id hid
-    obtain ⟨r0, hr0, rfl⟩ := List.mem_map.1 hr
-    have := g r0 hr0 id (by grind)
-    grind
-  · intro r hr hto
-    obtain ⟨r0, hr0, rfl⟩ := List.mem_map.1 hr
-    have := i r0 hr0
-    grind
+/-- nothing but the wishlist task's own fields / the gate changed -/
+theorem adds_of_eq {s s' : State} (h1 : s'.cfg = s.cfg) (h2 : s'.now = s.now) (h3 : s'.draws = s.draws)
+    (h4 : s'.requests = s.requests) (h5 : s'.pending = s.pending) (h6 : s'.nextTask = s.nextTask)
+    (h7 : s'.tasks = s.tasks) : Adds s s' := by
+  refine ⟨h1, h2, by omega, ?_, ?_, by omega, ?_⟩
+  · intro r hr; rw [h4] at hr; exact .inl ⟨r, hr, rfl⟩
+  · intro p hp; rw [h5] at hp; exact .inl ⟨p, hp, rfl⟩
+  · intro t ht; rw [h7] at ht; exact .inl ht
 
-/-! ### Timer.cancel / remove_request -/
+theorem requestTimeout_pos {c : Cfg} {T : Nat} (h : requestTimeout c = some T) : 1 ≤ T := by
+  unfold requestTimeout at h
+  split at h
+  · simp at h; omega
+  · cases h
 
-theorem pairwise_id_inj {l : List TTask} (h : l.Pairwise (fun a b => a.id ≠ b.id)) :
-    ∀ a ∈ l, ∀ b ∈ l, a.id = b.id → a = b := by
-  induction l with
-  | nil => intro a ha; cases ha
-  | cons x xs ih =>
-    rw [List.pairwise_cons] at h
-    intro a ha b hb hab
-    rcases List.mem_cons.1 ha with rfl | ha' <;> rcases List.mem_cons.1 hb with rfl | hb'
-    · rfl
-    · exact absurd hab (h.1 b hb')
-    · exact absurd hab.symm (h.1 a ha')
-    · exact ih h.2 a ha' b hb' hab
+theorem wishlistTimeout_pos {s : State} {T : Nat} (h : wishlistTimeout s = some T) : 1 ≤ T := by
+  unfold wishlistTimeout at h
+  simp only [] at h
+  generalize (if s.cfg.wishlistTimeout < 0 then s.wlInterval.getD defaultWishlistInterval
+    else s.cfg.wishlistTimeout.toNat) = v at h
+  by_cases hv : v = 0
+  · simp [hv] at h
+  · simp [hv] at h; omega
 
-def markCancelled (id : Nat) (t : TTask) : TTask := if t.id = id then { t with cancelled := true } else t
+theorem kindTimeout_pos {s : State} {k : Kind} {T : Nat} (h : kindTimeout s k = some T) : 1 ≤ T := by
+  cases k <;> simp only [kindTimeout] at h
+  · exact requestTimeout_pos h
+  · exact requestTimeout_pos h
+  · exact requestTimeout_pos h
+  · exact wishlistTimeout_pos h
 
-@[simp] theorem markCancelled_id (i : Nat) (t : TTask) : (markCancelled i t).id = t.id := by
-  unfold markCancelled; split <;> rfl
-@[simp] theorem markCancelled_rid (i : Nat) (t : TTask) : (markCancelled i t).rid = t.rid := by
-  unfold markCancelled; split <;> rfl
-@[simp] theorem markCancelled_ticket (i : Nat) (t : TTask) : (markCancelled i t).ticket = t.ticket := by
-  unfold markCancelled; split <;> rfl
-theorem markCancelled_cancelled (i : Nat) (t : TTask) :
-    (markCancelled i t).cancelled = (t.cancelled || decide (t.id = i)) := by
-  unfold markCancelled; split <;> simp_all
+theorem newRequest_tasks (s : State) (k : Kind) (to : Option Nat) :
+    ∀ t ∈ (newRequest s k to).1.tasks, t ∈ s.tasks ∨
+      (t.id = s.nextTask ∧ t.cancelled = false ∧ t.deadline = none ∧ t.woken = false ∧ to = some t.timeout) := by
+  intro t ht
+  rw [newRequest_state] at ht
+  cases to with
+  | none => exact .inl ht
+  | some T =>
+    simp only [timerStart, registered] at ht
+    rcases List.mem_append.1 ht with h | h
+    · exact .inl h
+    · simp at h; subst h; exact .inr ⟨rfl, rfl, rfl, rfl, rfl⟩
 
-theorem timerCancel_some (s : State) (rid id : Nat) :
-    timerCancel s rid (some id) =
-      { s with tasks := s.tasks.map (markCancelled id), requests := setHandle s.requests rid none } := rfl
-
-/-- `Timer.cancel` on the Timer of a registered request. -/
-theorem inv_timerCancel {s : State} (h : Inv s) (r : Req) (hr : r ∈ s.requests) :
-    Inv (timerCancel s r.rid r.handle) := by
-  cases hh : r.handle with
-  | none => simpa [timerCancel] using h
-  | some id =>
-    rw [timerCancel_some]
-    obtain ⟨a, b, c, d, e, f, g, i⟩ := h
-    constructor <;> simp only [setHandle] <;> try assumption
-    · intro q hq
-      obtain ⟨q0, hq0, rfl⟩ := List.mem_map.1 hq
-      have := b q0 hq0
-      split <;> simpa using this
-    · intro r1 hr1 r2 hr2 heq
-      obtain ⟨q1, hq1, rfl⟩ := List.mem_map.1 hr1
-      obtain ⟨q2, hq2, rfl⟩ := List.mem_map.1 hr2
-      have : q1 = q2 := c q1 hq1 q2 hq2 (by grind)
-      subst this; rfl
-    · intro t ht
-      obtain ⟨t0, ht0, rfl⟩ := List.mem_map.1 ht
-      simpa using d t0 ht0
-    · rw [List.pairwise_map]; simpa using e
-    · intro t ht hc
-      obtain ⟨t0, ht0, rfl⟩ := List.mem_map.1 ht
-      rw [markCancelled_cancelled] at hc
-      have hc0 : t0.cancelled = false := by grind
-      have hne : t0.id ≠ id := by grind
-      obtain ⟨q, hq, h1, h2, h3⟩ := f t0 ht0 hc0
-      have hqr : q.rid ≠ r.rid := by
-        intro heq
-        have := c q hq r hr heq
-        grind
-      refine ⟨q, List.mem_map.2 ⟨q, hq, by simp [hqr]⟩, by simpa using h1, by simpa using h2, by simpa using h3⟩
-    · intro q hq id' hid'
-      obtain ⟨q0, hq0, rfl⟩ := List.mem_map.1 hq
-      by_cases hqr : q0.rid = r.rid
-      · simp [hqr] at hid'
-      · simp only [hqr, if_false] at hid'
-        obtain ⟨t, ht, h1, h2, h3⟩ := g q0 hq0 id' hid'
-        refine ⟨markCancelled id t, List.mem_map.2 ⟨t, ht, rfl⟩, by simpa using h1, by simpa [hqr] using h2, ?_⟩
-        rw [markCancelled_cancelled]
-        have : t.id ≠ id := by
-          intro heq
-          obtain ⟨t', ht', h1', h2', _⟩ := g r hr id hh
-          have : t = t' := pairwise_id_inj e t ht t' ht' (by omega)
-          grind
-        simp [h3, this]
-    · intro q hq hto
-      obtain ⟨q0, hq0, rfl⟩ := List.mem_map.1 hq
-      have := i q0 hq0
-      grind
-
-theorem Inv.ticket_inj {s : State} (h : Inv s) : ∀ r1 ∈ s.requests, ∀ r2 ∈ s.requests, r1.ticket = r2.ticket → r1 = r2 := by
-  intro r1 h1 r2 h2 heq
-  have a := h.req_tk r1 h1
-  have b := h.req_tk r2 h2
-  exact h.req_uniq r1 h1 r2 h2 (by omega)
-
-/-- dropping a registered request whose Timer holds no task -/
-theorem inv_dropDisarmed {s : State} (h : Inv s) (r : Req) (hr : r ∈ s.requests) (hh : r.handle = none) :
-    Inv { s with requests := s.requests.filter (fun q => q.ticket ≠ r.ticket) } := by
-  have hinj := h.ticket_inj
-  obtain ⟨a, b, c, d, e, f, g, i⟩ := h
-  constructor <;> simp only [] <;> try assumption
-  · intro q hq; exact b q (List.mem_filter.1 hq).1
-  · intro r1 h1 r2 h2; exact c r1 (List.mem_filter.1 h1).1 r2 (List.mem_filter.1 h2).1
-  · intro t ht hc
-    obtain ⟨q, hq, h1, h2, h3⟩ := f t ht hc
-    refine ⟨q, List.mem_filter.2 ⟨hq, ?_⟩, h1, h2, h3⟩
-    have : q.ticket ≠ r.ticket := by
-      intro heq
-      have := hinj q hq r hr heq
-      grind
-    simpa using this
-  · intro q hq; exact g q (List.mem_filter.1 hq).1
-  · intro q hq; exact i q (List.mem_filter.1 hq).1
-
-theorem lookup_some {s : State} {tk : Nat} {r : Req} (h : lookup s tk = some r) : r ∈ s.requests ∧ r.ticket = tk := by
-  unfold lookup at h
-  exact ⟨List.mem_of_find?_eq_some h, by simpa using List.find?_some h⟩
-
-theorem lookup_none {s : State} {tk : Nat} (h : lookup s tk = none) : ∀ r ∈ s.requests, r.ticket ≠ tk := by
-  unfold lookup at h
-  intro r hr
-  simpa using List.find?_eq_none.1 h r hr
-
-theorem setHandle_filter (rs : List Req) (rid tk : Nat) (h : Option Nat) :
-    setHandle (rs.filter (fun q => q.ticket ≠ tk)) rid h = (setHandle rs rid h).filter (fun q => q.ticket ≠ tk) := by
-  unfold setHandle
-  rw [List.filter_map]
-  congr 1
-  apply List.filter_congr
-  intro q _
-  simp only [Function.comp]
-  split <;> rfl
-
-/-- state after `remove_request(tk)` for a registered `r` -/
-theorem inv_remove {s : State} (h : Inv s) (tk : Nat) (r : Req) (hl : lookup s tk = some r) :
-    Inv (step s (.remove tk)).1 := by
-  obtain ⟨hr, htk⟩ := lookup_some hl
-  have hc := inv_timerCancel h r hr
-  simp only [step, hl]
-  cases hh : r.handle with
-  | none =>
-    have key := inv_dropDisarmed h r hr hh
-    rw [htk] at key
-    cases hto : r.timeout <;> simpa [hh, timerCancel] using key
-  | some id =>
-    have hto : r.timeout ≠ none := fun h0 => by have := h.handle_timeout r hr h0; simp [hh] at this
-    obtain ⟨T, hT⟩ := Option.ne_none_iff_exists'.1 hto
-    simp only [hT, timerCancel_some]
-    rw [hh, timerCancel_some] at hc
-    rw [setHandle_filter]
-    have hmem : ({ r with handle := none } : Req) ∈ setHandle s.requests r.rid none := by
-      unfold setHandle
-      exact List.mem_map.2 ⟨r, hr, by simp⟩
-    have := inv_dropDisarmed hc _ hmem rfl
-    simpa [htk] using this
-
-/-! ### Timer.start / reschedule -/
-
-theorem inv_setTimeout {s : State} (h : Inv s) (rid n : Nat) :
-    Inv { s with requests := setTimeout s.requests rid n } := by
-  obtain ⟨a, b, c, d, e, f, g, i⟩ := h
-  constructor <;> simp only [setTimeout] <;> try assumption
-  · intro r hr
-    obtain ⟨r0, hr0, rfl⟩ := List.mem_map.1 hr
-    have := b r0 hr0
-    split <;> simpa using this
-  · intro r1 hr1 r2 hr2 heq
-    obtain ⟨q1, hq1, rfl⟩ := List.mem_map.1 hr1
-    obtain ⟨q2, hq2, rfl⟩ := List.mem_map.1 hr2
-    have : q1 = q2 := c q1 hq1 q2 hq2 (by grind)
-    subst this; rfl
-  · intro t ht hc
-    obtain ⟨r, hr, h1, h2, h3⟩ := f t ht hc
-    refine ⟨_, List.mem_map.2 ⟨r, hr, rfl⟩, ?_⟩
-    split <;> simp_all
-  · intro r hr id hid
-    obtain ⟨r0, hr0, rfl⟩ := List.mem_map.1 hr
-    have := g r0 hr0 id (by grind)
-    grind
-  · intro r hr hto
-    obtain ⟨r0, hr0, rfl⟩ := List.mem_map.1 hr
-    have := i r0 hr0
-    grind
-
-theorem inv_timerStart {s : State} (h : Inv s) (rid tk T : Nat)
-    (hq : ∃ q ∈ s.requests, q.rid = rid ∧ q.ticket = tk ∧ q.handle = none ∧ q.timeout ≠ none) :
-    Inv (timerStart s rid tk T) := by
-  obtain ⟨q, hqm, hq1, hq2, hq3, hq4⟩ := hq
-  obtain ⟨a, b, c, d, e, f, g, i⟩ := h
-  unfold timerStart
-  constructor <;> simp only [setHandle] <;> try assumption
-  · intro r hr
-    obtain ⟨r0, hr0, rfl⟩ := List.mem_map.1 hr
-    have := b r0 hr0
-    split <;> simpa using this
-  · intro r1 hr1 r2 hr2 heq
-    obtain ⟨q1, hq1, rfl⟩ := List.mem_map.1 hr1
-    obtain ⟨q2, hq2, rfl⟩ := List.mem_map.1 hr2
-    have : q1 = q2 := c q1 hq1 q2 hq2 (by grind)
-    subst this; rfl
-  · intro t ht
-    rcases List.mem_append.1 ht with ht | ht
-    · have := d t ht; omega
-    · simp at ht; subst ht; simp
-  · rw [List.pairwise_append]
-    refine ⟨e, by simp, ?_⟩
-    intro x hx y hy
-    simp at hy; subst hy
-    have := d x hx
-    simp; omega
-  · intro t ht hc
-    rcases List.mem_append.1 ht with ht | ht
-    · obtain ⟨r, hr, h1, h2, h3⟩ := f t ht hc
-      have hne : r.rid ≠ rid := by
-        intro heq
-        have := c r hr q hqm (by omega)
-        grind
-      exact ⟨r, List.mem_map.2 ⟨r, hr, by simp [hne]⟩, h1, h2, h3⟩
-    · simp at ht; subst ht
-      exact ⟨{ q with handle := some s.nextTask }, List.mem_map.2 ⟨q, hqm, by simp [hq1]⟩, by simpa using hq1,
-        by simpa using hq2, rfl⟩
-  · intro r hr id hid
-    obtain ⟨r0, hr0, rfl⟩ := List.mem_map.1 hr
-    by_cases hr : r0.rid = rid
-    · simp only [hr, if_true] at hid ⊢
-      refine ⟨_, List.mem_append.2 (.inr (List.mem_singleton.2 rfl)), ?_⟩
-      simp at hid; simp [hid]
-    · simp only [hr, if_false] at hid ⊢
-      obtain ⟨t, ht, h1⟩ := g r0 hr0 id hid
-      exact ⟨t, List.mem_append.2 (.inl ht), h1⟩
-  · intro r hr hto
-    obtain ⟨r0, hr0, rfl⟩ := List.mem_map.1 hr
-    by_cases hr : r0.rid = rid
-    · have := c r0 hr0 q hqm (by omega)
-      subst this
-      simp [hr] at hto
-      exact absurd hto hq4
-    · simp only [hr, if_false] at hto ⊢
-      exact i r0 hr0 hto
-
-/-- `requests[tk].timer.reschedule(n)` -/
-theorem inv_reschedule {s : State} (h : Inv s) (tk n : Nat) : Inv (step s (.timerReschedule tk n)).1 := by
-  simp only [step]
-  cases hl : lookup s tk with
-  | none => simpa using h
-  | some r =>
-    obtain ⟨hr, htk⟩ := lookup_some hl
-    cases hto : r.timeout with
-    | none => simpa [hto] using h
-    | some T0 =>
-      simp only [hto]
-      have hc := inv_timerCancel h r hr
-      have hst := inv_setTimeout hc r.rid n
-      apply inv_timerStart hst
-      -- the request, with its handle cleared by `cancel` and its new timeout
-      refine ⟨{ r with handle := none, timeout := some n }, ?_, rfl, rfl, rfl, by simp⟩
-      cases hh : r.handle with
-      | none =>
-        simp only [timerCancel, setTimeout]
-        exact List.mem_map.2 ⟨r, hr, by simp [hh]⟩
-      | some id =>
-        simp only [timerCancel_some, setTimeout, setHandle, List.map_map]
-        exact List.mem_map.2 ⟨r, hr, by simp⟩
-
-/-! ### new requests -/
-
-theorem nextTicket_nowrap (initial d : Nat) (h : initial + d + 1 ≤ maxTicket) :
-    nextTicket initial (initial + d) = initial + d + 1 := by
-  unfold nextTicket
-  have : ¬ (initial + d + 1 > maxTicket) := by omega
-  simp [this]
-
-theorem newRequest_draws (s : State) (k : Kind) (to : Option Nat) : (newRequest s k to).1.draws = s.draws + 1 := by
-  unfold newRequest; cases to <;> simp [timerStart]
-
-theorem newRequest_cfg (s : State) (k : Kind) (to : Option Nat) : (newRequest s k to).1.cfg = s.cfg := by
-  unfold newRequest; cases to <;> simp [timerStart]
-
-theorem newRequest_now (s : State) (k : Kind) (to : Option Nat) : (newRequest s k to).1.now = s.now := by
-  unfold newRequest; cases to <;> simp [timerStart]
-
-/-- the registration part of `newRequest` (before `Timer.start`) -/
-def registered (s : State) (k : Kind) (to : Option Nat) : State :=
-  { s with gen := nextTicket s.cfg.initial s.gen, draws := s.draws + 1,
-           requests := s.requests.filter (fun r => r.ticket ≠ nextTicket s.cfg.initial s.gen) ++
-             [{ rid := s.draws + 1, ticket := nextTicket s.cfg.initial s.gen, kind := k, timeout := to,
-                handle := none, results := 0 }] }
-
-theorem newRequest_state (s : State) (k : Kind) (to : Option Nat) :
-    (newRequest s k to).1 = match to with
-      | none => registered s k none
-      | some T => timerStart (registered s k (some T)) (s.draws + 1) (nextTicket s.cfg.initial s.gen) T := by
-  unfold newRequest registered; cases to <;> rfl
-
-theorem inv_registered {s : State} (h : Inv s) (k : Kind) (to : Option Nat)
-    (hw : s.cfg.initial + s.draws + 1 ≤ maxTicket) : Inv (registered s k to) := by
-  obtain ⟨a, b, c, d, e, f, g, i⟩ := h
-  have htk : nextTicket s.cfg.initial s.gen = s.cfg.initial + s.draws + 1 := by
-    rw [a]; exact nextTicket_nowrap _ _ hw
-  unfold registered
-  rw [htk]
-  constructor <;> simp only [] <;> try assumption
-  · omega
-  · intro r hr
-    rcases List.mem_append.1 hr with hr | hr
-    · have := b r (List.mem_filter.1 hr).1; omega
-    · simp at hr; subst hr; simp; omega
-  · intro r1 h1 r2 h2 heq
-    rcases List.mem_append.1 h1 with h1 | h1 <;> rcases List.mem_append.1 h2 with h2 | h2
-    · exact c r1 (List.mem_filter.1 h1).1 r2 (List.mem_filter.1 h2).1 heq
-    · have := b r1 (List.mem_filter.1 h1).1
-      simp at h2; subst h2; simp at heq; omega
-    · have := b r2 (List.mem_filter.1 h2).1
-      simp at h1; subst h1; simp at heq; omega
-    · simp at h1 h2; rw [h1, h2]
-  · intro t ht hc
-    obtain ⟨q, hq, h1, h2, h3⟩ := f t ht hc
-    refine ⟨q, List.mem_append.2 (.inl (List.mem_filter.2 ⟨hq, ?_⟩)), h1, h2, h3⟩
-    have := b q hq
-    simp; omega
-  · intro r hr id hid
-    rcases List.mem_append.1 hr with hr | hr
-    · exact g r (List.mem_filter.1 hr).1 id hid
-    · simp at hr; subst hr; simp at hid
-  · intro r hr hto
-    rcases List.mem_append.1 hr with hr | hr
-    · exact i r (List.mem_filter.1 hr).1 hto
-    · simp at hr; subst hr; rfl
-
-theorem inv_newRequest {s : State} (h : Inv s) (k : Kind) (to : Option Nat)
-    (hw : NoWrap (newRequest s k to).1) : Inv (newRequest s k to).1 := by
-  have hw' : s.cfg.initial + s.draws + 1 ≤ maxTicket := by
-    unfold NoWrap at hw; rw [newRequest_draws, newRequest_cfg] at hw; omega
+theorem newRequest_nextTask (s : State) (k : Kind) (to : Option Nat) : s.nextTask ≤ (newRequest s k to).1.nextTask := by
   rw [newRequest_state]
   cases to with
-  | none => exact inv_registered h k none hw'
-  | some T =>
-    apply inv_timerStart (inv_registered h k (some T) hw')
-    refine ⟨_, List.mem_append.2 (.inr (List.mem_singleton.2 rfl)), rfl, rfl, rfl, by simp⟩
+  | none => exact Nat.le_refl _
+  | some T => simp only [timerStart, registered]; omega
 
-/-- without a wrap no registered request is overwritten, and the only observation is the `sent` event -/
-theorem newRequest_obs {s : State} (h : Inv s) (k : Kind) (to : Option Nat)
-    (hw : NoWrap (newRequest s k to).1) :
-    (newRequest s k to).2 = [Obs.sent s.now (s.draws + 1) (s.cfg.initial + s.draws + 1)] := by
-  have hw' : s.cfg.initial + s.draws + 1 ≤ maxTicket := by
-    unfold NoWrap at hw; rw [newRequest_draws, newRequest_cfg] at hw; omega
+theorem newRequest_pending (s : State) (k : Kind) (to : Option Nat) : (newRequest s k to).1.pending = s.pending := by
+  rw [newRequest_state]
+  cases to <;> rfl
+
+theorem newRequest_reqs (s : State) (k : Kind) (to : Option Nat) :
+    ∀ r' ∈ (newRequest s k to).1.requests, (∃ r ∈ s.requests, r.rid = r'.rid) ∨ s.draws < r'.rid := by
+  have hreg : ∀ r' ∈ (registered s k to).requests, (∃ r ∈ s.requests, r.rid = r'.rid) ∨ s.draws < r'.rid := by
+    intro r' hr'
+    rcases List.mem_append.1 hr' with h | h
+    · exact .inl ⟨r', (List.mem_filter.1 h).1, rfl⟩
+    · simp at h; subst h; right; simp
+  rw [newRequest_state]
+  cases to with
+  | none => exact hreg
+  | some T =>
+    intro r' hr'
+    simp only [timerStart, setHandle] at hr'
+    obtain ⟨q, hq, rfl⟩ := List.mem_map.1 hr'
+    have := hreg q hq
+    split <;> exact this
+
+theorem adds_newRequest (s : State) (k : Kind) (to : Option Nat) (hto : ∀ T, to = some T → 1 ≤ T) :
+    Adds s (newRequest s k to).1 := by
+  refine ⟨newRequest_cfg s k to, newRequest_now s k to, by rw [newRequest_draws]; omega, ?_, ?_,
+    newRequest_nextTask s k to, ?_⟩
+  · intro r' hr'
+    rcases newRequest_reqs s k to r' hr' with h | h
+    · exact .inl h
+    · exact .inr (.inr h)
+  · intro p hp; rw [newRequest_pending] at hp; exact .inl ⟨p, hp, rfl⟩
+  · intro t ht
+    rcases newRequest_tasks s k to t ht with h | ⟨h1, h2, h3, h4, h5⟩
+    · exact .inl h
+    · exact .inr ⟨by omega, h2, h3, h4, hto _ h5⟩
+
+theorem wishlistRound_wl (n : Nat) (s : State) (o : List Obs) : (wishlistRound n s o).1.wlInterval = s.wlInterval := by
+  induction n generalizing s o with
+  | zero => rfl
+  | succ n ih =>
+    simp only [wishlistRound, ih]
+    rw [newRequest_state]; cases wishlistTimeout s <;> rfl
+
+theorem adds_wishlistRound (n : Nat) (s : State) (o : List Obs) : Adds s (wishlistRound n s o).1 := by
+  induction n generalizing s o with
+  | zero => exact Adds.refl s
+  | succ n ih =>
+    simp only [wishlistRound]
+    exact (adds_newRequest s .wishlist _ (fun T h => wishlistTimeout_pos h)).trans (ih _ _)
+
+theorem adds_beginSetup (s : State) (k : Kind) : Adds s (beginSetup s k) := by
+  refine ⟨rfl, rfl, by simp [beginSetup], fun r h => .inl ⟨r, h, rfl⟩, ?_, Nat.le_refl _, fun t h => .inl h⟩
+  intro p hp
+  simp only [beginSetup] at hp
+  rcases List.mem_append.1 hp with h | h
+  · exact .inl ⟨p, h, rfl⟩
+  · simp at h; subst h; right; simp
+
+theorem adds_roundEnd (s : State) : Adds s (roundEnd s) := adds_of_eq rfl rfl rfl rfl rfl rfl rfl
+
+theorem adds_roundGo (m : Nat) (s : State) (o : List Obs) : Adds s (roundGo m s o).1 := by
+  unfold roundGo
+  split
+  · cases m with
+    | zero => exact adds_roundEnd s
+    | succ m => exact (adds_beginSetup s .wishlist).trans (adds_of_eq rfl rfl rfl rfl rfl rfl rfl)
+  · exact (adds_wishlistRound m s o).trans (adds_roundEnd _)
+
+theorem register_cfg (s : State) (p : Setup) : (register s p).1.cfg = s.cfg := by
+  unfold register; cases kindTimeout s p.kind <;> rfl
+theorem register_now (s : State) (p : Setup) : (register s p).1.now = s.now := by
+  unfold register; cases kindTimeout s p.kind <;> rfl
+theorem register_draws (s : State) (p : Setup) : (register s p).1.draws = s.draws := by
+  unfold register; cases kindTimeout s p.kind <;> rfl
+theorem register_gen (s : State) (p : Setup) : (register s p).1.gen = s.gen := by
+  unfold register; cases kindTimeout s p.kind <;> rfl
+theorem register_pending (s : State) (p : Setup) : (register s p).1.pending = s.pending := by
+  unfold register; cases kindTimeout s p.kind <;> rfl
+theorem register_wlRound (s : State) (p : Setup) : (register s p).1.wlRound = s.wlRound := by
+  unfold register; cases kindTimeout s p.kind <;> rfl
+theorem register_nextTask (s : State) (p : Setup) : s.nextTask ≤ (register s p).1.nextTask := by
+  unfold register; cases kindTimeout s p.kind <;> simp [timerStart]
+
+theorem register_reqs (s : State) (p : Setup) :
+    ∀ r' ∈ (register s p).1.requests, (∃ r ∈ s.requests, r.rid = r'.rid) ∨ r'.rid = p.rid := by
+  have hreg : ∀ r' ∈ s.requests.filter (fun r => decide (r.ticket ≠ p.ticket)) ++
+      [({ rid := p.rid, ticket := p.ticket, kind := p.kind, timeout := kindTimeout s p.kind, handle := none,
+          results := 0 } : Req)], (∃ r ∈ s.requests, r.rid = r'.rid) ∨ r'.rid = p.rid := by
+    intro r' hr'
+    rcases List.mem_append.1 hr' with h | h
+    · exact .inl ⟨r', (List.mem_filter.1 h).1, rfl⟩
+    · simp at h; subst h; right; rfl
+  intro r' hr'
+  unfold register at hr'
+  cases hk : kindTimeout s p.kind with
+  | none => simp only [hk] at hr' hreg; exact hreg r' hr'
+  | some T =>
+    simp only [hk, timerStart, setHandle] at hr' hreg
+    obtain ⟨q, hq, rfl⟩ := List.mem_map.1 hr'
+    have := hreg q hq
+    split <;> exact this
+
+theorem register_tasks (s : State) (p : Setup) :
+    ∀ t ∈ (register s p).1.tasks, t ∈ s.tasks ∨
+      (t.id = s.nextTask ∧ t.cancelled = false ∧ t.deadline = none ∧ t.woken = false ∧ 1 ≤ t.timeout) := by
+  intro t ht
+  unfold register at ht
+  cases hk : kindTimeout s p.kind with
+  | none => simp only [hk] at ht; exact .inl ht
+  | some T =>
+    simp only [hk, timerStart] at ht
+    rcases List.mem_append.1 ht with h | h
+    · exact .inl h
+    · simp at h; subst h; exact .inr ⟨rfl, rfl, rfl, rfl, kindTimeout_pos hk⟩
+
+/-- a set-up leaves `pending` and is registered -/
+theorem adds_register_drop (s : State) (p : Setup) (hpm : p ∈ s.pending) :
+    Adds s (register { s with pending := s.pending.filter (fun q => decide (q.rid ≠ p.rid)) } p).1 := by
+    generalize hs0 : ({ s with pending := s.pending.filter (fun q => decide (q.rid ≠ p.rid)) } : State) = s0
+    have e1 : s0.cfg = s.cfg := by rw [← hs0]
+    have e2 : s0.now = s.now := by rw [← hs0]
+    have e3 : s0.draws = s.draws := by rw [← hs0]
+    have e4 : s0.requests = s.requests := by rw [← hs0]
+    have e5 : s0.pending = s.pending.filter (fun q => decide (q.rid ≠ p.rid)) := by rw [← hs0]
+    have e6 : s0.nextTask = s.nextTask := by rw [← hs0]
+    have e7 : s0.tasks = s.tasks := by rw [← hs0]
+    refine ⟨(register_cfg _ _).trans e1, (register_now _ _).trans e2, by rw [register_draws, e3]; exact Nat.le_refl _,
+      ?_, ?_, by have := register_nextTask s0 p; omega, ?_⟩
+    · intro r' hr'
+      rcases register_reqs _ _ r' hr' with h | h
+      · rw [e4] at h; exact .inl h
+      · exact .inr (.inl ⟨p, hpm, h.symm⟩)
+    · intro p' hp'
+      rw [register_pending] at hp'
+      rw [e5] at hp'
+      exact .inl ⟨p', (List.mem_filter.1 hp').1, rfl⟩
+    · intro t ht
+      rcases register_tasks _ _ t ht with h | ⟨h1, h2⟩
+      · rw [e7] at h; exact .inl h
+      · exact .inr ⟨by omega, h2⟩
+
+theorem adds_completeOne (s : State) (rid : Nat) (o : List Obs) : Adds s (completeOne s rid o).1 := by
+  unfold completeOne
+  cases hf : s.pending.find? (fun p => decide (p.rid = rid)) with
+  | none => exact Adds.refl s
+  | some p =>
+    have hpm : p ∈ s.pending := List.mem_of_find?_eq_some hf
+    simp only []
+    cases ho : p.outcome with
+    | none => exact Adds.refl s
+    | some ok =>
+      simp only []
+      -- the set-up leaves `pending`
+      have hdrop : ∀ (s0 : State), s0.pending = s.pending.filter (fun q => decide (q.rid ≠ p.rid)) →
+          ∀ p' ∈ s0.pending, (∃ q ∈ s.pending, q.rid = p'.rid) ∨ s.draws < p'.rid := by
+        intro s0 h0 p' hp'
+        rw [h0] at hp'
+        exact .inl ⟨p', (List.mem_filter.1 hp').1, rfl⟩
+      have hreg := adds_register_drop s p hpm
+      have hfail : ∀ (s0 : State), s0.cfg = s.cfg → s0.now = s.now → s0.draws = s.draws → s0.requests = s.requests →
+          s0.pending = s.pending.filter (fun q => decide (q.rid ≠ p.rid)) → s0.nextTask = s.nextTask →
+          s0.tasks = s.tasks → Adds s s0 := by
+        intro s0 h1 h2 h3 h4 h5 h6 h7
+        refine ⟨h1, h2, by omega, ?_, hdrop s0 h5, by omega, ?_⟩
+        · intro r hr; rw [h4] at hr; exact .inl ⟨r, hr, rfl⟩
+        · intro t ht; rw [h7] at ht; exact .inl ht
+      cases ok with
+      | true =>
+        simp only [if_true]
+        split
+        · exact hreg.trans (adds_roundGo _ _ _)
+        · exact hreg
+      | false =>
+        simp only [Bool.false_eq_true, if_false]
+        split
+        · exact hfail _ rfl rfl rfl rfl rfl rfl rfl
+        · exact hfail _ rfl rfl rfl rfl rfl rfl rfl
+
+theorem adds_completeAll (rids : List Nat) (s : State) (o : List Obs) : Adds s (completeAll rids s o).1 := by
+  induction rids generalizing s o with
+  | nil => exact Adds.refl s
+  | cons rid rids ih =>
+    simp only [completeAll]
+    exact (adds_completeOne s rid o).trans (ih _ _)
+
+theorem adds_completeSetups (s : State) (o : List Obs) : Adds s (completeSetups s o).1 := adds_completeAll _ s o
+
+theorem adds_settleWishlist (s : State) (o : List Obs) : Adds s (settleWishlist s o).1 := by
+  unfold settleWishlist
+  split
+  · exact Adds.refl s
+  · split
+    · exact adds_roundGo _ _ _
+    · exact Adds.refl s
+
+theorem adds_tickWishlist (s : State) (o : List Obs) : Adds s (tickWishlist s o).1 := by
+  unfold tickWishlist
+  split
+  · exact Adds.refl s
+  · split
+    · exact adds_roundGo _ _ _
+    · split
+      · exact adds_of_eq rfl rfl rfl rfl rfl rfl rfl
+      · exact Adds.refl s
+
+
+/-! ### … keep the invariant, and announce only requests that did not exist before -/
+
+theorem noWrap_of_adds {s s' : State} (h : Adds s s') (hw : NoWrap s') : NoWrap s := by
+  unfold NoWrap at hw ⊢
+  rw [h.cfg] at hw
+  have := h.draws
+  omega
+
+/-- a `SearchRequestSentEvent` for a request object that did not exist before this step: its ticket is drawn in the
+step, or it was being set up -/
+def SentOk (s : State) (x : Obs) : Prop :=
+  ∃ rid, x = Obs.sent s.now rid (s.cfg.initial + rid) ∧ (s.draws < rid ∨ ∃ p ∈ s.pending, p.rid = rid)
+
+theorem SentOk.mono {s s1 : State} {x : Obs} (h : Adds s s1) (hx : SentOk s1 x) : SentOk s x := by
+  obtain ⟨rid, he, hr⟩ := hx
+  refine ⟨rid, by rw [he, h.now, h.cfg], ?_⟩
+  rcases hr with hlt | ⟨p, hp, hpr⟩
+  · exact .inl (by have := h.draws; omega)
+  · rcases h.pend p hp with ⟨p0, hp0, he0⟩ | hlt
+    · exact .inr ⟨p0, hp0, by omega⟩
+    · exact .inl (by omega)
+
+theorem pinv_newRequest {s : State} (h : PInv s) (k : Kind) (to : Option Nat) : PInv (newRequest s k to).1 := by
+  apply pinv_of_rids h (newRequest_cfg s k to) (by rw [newRequest_draws]; omega) (newRequest_pending s k to)
+    (newRequest_reqs s k to)
+  intro t ht hwk
+  rw [newRequest_now]
+  rcases newRequest_tasks s k to t ht with h0 | ⟨_, _, _, h4, _⟩
+  · exact h.woken_due t h0 hwk
+  · rw [h4] at hwk; cases hwk
+
+theorem sinv_newRequest {s : State} (h : SInv s) (k : Kind) (to : Option Nat) (hw : NoWrap (newRequest s k to).1) :
+    SInv (newRequest s k to).1 := ⟨inv_newRequest h.inv k to hw, pinv_newRequest h.pinv k to⟩
+
+theorem newRequest_sentOk {s : State} (h : SInv s) (k : Kind) (to : Option Nat) (hw : NoWrap (newRequest s k to).1) :
+    ∀ x ∈ (newRequest s k to).2, SentOk s x := by
+  intro x hx
+  rw [newRequest_obs h.inv k to hw] at hx
+  simp at hx; subst hx
+  exact ⟨s.draws + 1, by simp [Nat.add_assoc], .inl (by omega)⟩
+
+theorem ok_wishlistRound (n : Nat) {s : State} (o : List Obs) (h : SInv s) (hw : NoWrap (wishlistRound n s o).1) :
+    SInv (wishlistRound n s o).1 ∧ ∀ x ∈ (wishlistRound n s o).2, x ∈ o ∨ SentOk s x := by
+  induction n generalizing s o with
+  | zero => exact ⟨h, fun x hx => .inl hx⟩
+  | succ n ih =>
+    simp only [wishlistRound] at hw ⊢
+    have hadd := adds_newRequest s .wishlist (wishlistTimeout s) (fun T h => wishlistTimeout_pos h)
+    have hw1 : NoWrap (newRequest s .wishlist (wishlistTimeout s)).1 := noWrap_of_adds (adds_wishlistRound n _ _) hw
+    obtain ⟨h1, h2⟩ := ih _ (sinv_newRequest h _ _ hw1) hw
+    refine ⟨h1, ?_⟩
+    intro x hx
+    rcases h2 x hx with hx | hx
+    · rcases List.mem_append.1 hx with hx | hx
+      · exact .inl hx
+      · exact .inr (newRequest_sentOk h _ _ hw1 x hx)
+    · exact .inr (hx.mono hadd)
+
+theorem sinv_beginSetup {s : State} (h : SInv s) (k : Kind) (hw : NoWrap (beginSetup s k)) : SInv (beginSetup s k) := by
+  have hw' : s.cfg.initial + s.draws + 1 ≤ maxTicket := by unfold NoWrap beginSetup at hw; simpa [Nat.add_assoc] using hw
   have htk : nextTicket s.cfg.initial s.gen = s.cfg.initial + s.draws + 1 := by
     rw [h.gen_eq]; exact nextTicket_nowrap _ _ hw'
-  unfold newRequest
-  simp only [htk]
-  have : s.requests.filter (fun r => r.ticket = s.cfg.initial + s.draws + 1) = [] := by
+  obtain ⟨⟨a, b, c, d, e, f, g, i⟩, ⟨pa, pb, pc, pd⟩⟩ := h
+  unfold beginSetup
+  rw [htk]
+  refine ⟨?_, ?_⟩
+  · constructor <;> simp only [] <;> try assumption
+    · omega
+    · intro r hr; have := b r hr; omega
+  · constructor <;> simp only []
+    · intro p hp
+      rcases List.mem_append.1 hp with hp | hp
+      · have := pa p hp; omega
+      · simp at hp; subst hp; simp; omega
+    · rw [List.pairwise_append]
+      refine ⟨pb, by simp, ?_⟩
+      intro x hx y hy
+      simp at hy; subst hy
+      have := pa x hx
+      simp; omega
+    · intro p hp r hr
+      rcases List.mem_append.1 hp with hp | hp
+      · exact pc p hp r hr
+      · simp at hp; subst hp
+        have := b r hr
+        simp; omega
+    · exact pd
+
+theorem sinv_roundEnd {s : State} (h : SInv s) : SInv (roundEnd s) := sinv_congr h rfl rfl rfl rfl rfl rfl rfl rfl
+
+theorem ok_roundGo (m : Nat) {s : State} (o : List Obs) (h : SInv s) (hw : NoWrap (roundGo m s o).1) :
+    SInv (roundGo m s o).1 ∧ ∀ x ∈ (roundGo m s o).2, x ∈ o ∨ SentOk s x := by
+  unfold roundGo at hw ⊢
+  by_cases hg : s.gated = true
+  · simp only [hg, if_true] at hw ⊢
+    cases m with
+    | zero => exact ⟨sinv_roundEnd h, fun x hx => .inl hx⟩
+    | succ m =>
+      simp only [] at hw ⊢
+      have hw1 : NoWrap (beginSetup s .wishlist) := hw
+      exact ⟨sinv_congr (sinv_beginSetup h .wishlist hw1) rfl rfl rfl rfl rfl rfl rfl rfl, fun x hx => .inl hx⟩
+  · simp only [hg, if_false] at hw ⊢
+    have hw1 : NoWrap (wishlistRound m s o).1 := hw
+    obtain ⟨h1, h2⟩ := ok_wishlistRound m o h hw1
+    exact ⟨sinv_roundEnd h1, h2⟩
+
+/-- the set-up leaves `pending` -/
+theorem sinv_dropSetup {s : State} (h : SInv s) (rid : Nat) :
+    SInv { s with pending := s.pending.filter (fun q => decide (q.rid ≠ rid)) } := by
+  refine ⟨inv_congr h.inv rfl rfl rfl rfl rfl rfl, ?_⟩
+  obtain ⟨pa, pb, pc, pd⟩ := h.pinv
+  constructor <;> simp only []
+  · intro p hp; exact pa p (List.mem_filter.1 hp).1
+  · exact pb.filter _
+  · intro p hp; exact pc p (List.mem_filter.1 hp).1
+  · exact pd
+
+/-- registering a set-up that has left `pending` -/
+theorem ok_register {s : State} (h : SInv s) (p : Setup)
+    (h1 : p.ticket = s.cfg.initial + p.rid) (h2 : 1 ≤ p.rid) (h3 : p.rid ≤ s.draws)
+    (hf : ∀ r ∈ s.requests, r.rid ≠ p.rid) (hq : ∀ q ∈ s.pending, q.rid ≠ p.rid) :
+    SInv (register s p).1 ∧ (register s p).2 = [Obs.sent s.now p.rid (s.cfg.initial + p.rid)] := by
+  have hnone : s.requests.filter (fun r => decide (r.ticket = p.ticket)) = [] := by
     apply List.filter_eq_nil_iff.2
     intro r hr
     have := h.req_tk r hr
+    have := hf r hr
     simp; omega
-  simp [this]
+  have hadd := inv_addReq h.inv p.rid p.kind (kindTimeout s p.kind) h2 h3 hf
+  refine ⟨⟨?_, ?_⟩, ?_⟩
+  · unfold register
+    simp only [h1]
+    cases hk : kindTimeout s p.kind with
+    | none => simpa [hk] using hadd
+    | some T =>
+      simp only []
+      rw [hk] at hadd
+      apply inv_timerStart hadd
+      exact ⟨_, List.mem_append.2 (.inr (List.mem_singleton.2 rfl)), rfl, rfl, rfl, by simp⟩
+  · obtain ⟨pa, pb, pc, pd⟩ := h.pinv
+    constructor
+    · rw [register_pending, register_cfg, register_draws]; exact pa
+    · rw [register_pending]; exact pb
+    · intro q hq' r' hr'
+      rw [register_pending] at hq'
+      rcases register_reqs s p r' hr' with ⟨r, hr, he⟩ | he
+      · have := pc q hq' r hr; omega
+      · have := hq q hq'; omega
+    · intro t ht hwk
+      rw [register_now]
+      rcases register_tasks s p t ht with h0 | ⟨_, _, _, h4, _⟩
+      · exact pd t h0 hwk
+      · rw [h4] at hwk; cases hwk
+  · unfold register
+    rw [h1] at hnone
+    simp only [h1, hnone, List.map_nil, List.nil_append]
 
-/-! ### the loop runs: timer tasks -/
-
-@[simp] theorem unsetDone_rid (fin : List TTask) (r : Req) : (unsetDone fin r).rid = r.rid := by
-  unfold unsetDone; split <;> rfl
-@[simp] theorem unsetDone_ticket (fin : List TTask) (r : Req) : (unsetDone fin r).ticket = r.ticket := by
-  unfold unsetDone; split <;> rfl
-@[simp] theorem unsetDone_timeout (fin : List TTask) (r : Req) : (unsetDone fin r).timeout = r.timeout := by
-  unfold unsetDone; split <;> rfl
-@[simp] theorem unsetDone_results (fin : List TTask) (r : Req) : (unsetDone fin r).results = r.results := by
-  unfold unsetDone; split <;> rfl
-theorem unsetDone_handle (fin : List TTask) (r : Req) :
-    (unsetDone fin r).handle = if fin.any (fun t => t.rid = r.rid && r.handle == some t.id) then none else r.handle := by
-  unfold unsetDone; split <;> rfl
-
-theorem settleTimers_state (s : State) :
-    (settleTimers s).1 =
-      { s with tasks := (s.tasks.map (startTask s.now)).filter (fun t => !isFinishing s.now t),
-               requests := (s.requests.filter (fun r => ((s.tasks.map (startTask s.now)).filter (isDue s.now)).all
-                              (fun t => r.ticket ≠ t.ticket))).map
-                            (unsetDone ((s.tasks.map (startTask s.now)).filter (isFinishing s.now))) } := by
-  simp only [settleTimers, fireAll_state]
-
-theorem isDue_finishing {n : Nat} {t : TTask} (h : isDue n t = true) : isFinishing n t = true := by
-  unfold isDue at h; unfold isFinishing; simp_all
-
-/-- core: finishing / firing the timer tasks of a state whose tasks have all taken their first step -/
-theorem inv_settleCore {s : State} (h : Inv s) (n : Nat) :
-    Inv { s with tasks := s.tasks.filter (fun t => !isFinishing n t),
-                 requests := (s.requests.filter (fun r => (s.tasks.filter (isDue n)).all
-                                (fun t => r.ticket ≠ t.ticket))).map (unsetDone (s.tasks.filter (isFinishing n))) } := by
-  have hinj := h.ticket_inj
-  obtain ⟨a, b, c, d, e, f, g, i⟩ := h
-  constructor <;> simp only [] <;> try assumption
-  · intro r hr
-    obtain ⟨q, hq, rfl⟩ := List.mem_map.1 hr
-    simpa using b q (List.mem_filter.1 hq).1
-  · intro r1 h1 r2 h2 heq
-    obtain ⟨q1, hq1, rfl⟩ := List.mem_map.1 h1
-    obtain ⟨q2, hq2, rfl⟩ := List.mem_map.1 h2
-    have := c q1 (List.mem_filter.1 hq1).1 q2 (List.mem_filter.1 hq2).1 (by simpa using heq)
-    subst this; rfl
-  · intro t ht; exact d t (List.mem_filter.1 ht).1
-  · exact e.filter _
-  · intro t ht hc
-    obtain ⟨htm, hnf⟩ := List.mem_filter.1 ht
-    obtain ⟨q, hq, h1, h2, h3⟩ := f t htm hc
-    have hsurv : (s.tasks.filter (isDue n)).all (fun x => q.ticket ≠ x.ticket) = true := by
-      rw [List.all_eq_true]
-      intro x hx
-      obtain ⟨hxm, hxd⟩ := List.mem_filter.1 hx
-      have hxc : x.cancelled = false := by unfold isDue at hxd; simp_all
-      obtain ⟨qx, hqx, k1, k2, k3⟩ := f x hxm hxc
-      have : q.ticket ≠ x.ticket := by
-        intro heq
-        have hqq := hinj q hq qx hqx (by omega)
-        subst hqq
-        have hid : t.id = x.id := by simpa [h3] using k3
-        have := pairwise_id_inj e t htm x hxm hid
-        subst this
-        have := isDue_finishing hxd
-        simp [this] at hnf
-      simpa using this
-    have hkeep : (unsetDone (s.tasks.filter (isFinishing n)) q).handle = some t.id := by
-      rw [unsetDone_handle]
-      have : (s.tasks.filter (isFinishing n)).any (fun x => x.rid = q.rid && q.handle == some x.id) = false := by
-        rw [List.any_eq_false]
-        intro x hx
-        obtain ⟨hxm, hxf⟩ := List.mem_filter.1 hx
-        intro hcon
-        simp only [Bool.and_eq_true, decide_eq_true_eq, beq_iff_eq] at hcon
-        have hid : t.id = x.id := by simpa [h3] using hcon.2
-        have := pairwise_id_inj e t htm x hxm hid
-        subst this
-        simp [hxf] at hnf
-      rw [if_neg (by rw [this]; simp)]
-      exact h3
-    exact ⟨_, List.mem_map.2 ⟨q, List.mem_filter.2 ⟨hq, hsurv⟩, rfl⟩, by simpa using h1, by simpa using h2, hkeep⟩
-  · intro r hr id hid
-    obtain ⟨q, hq, rfl⟩ := List.mem_map.1 hr
-    rw [unsetDone_handle] at hid
-    split at hid
-    · cases hid
-    · rename_i hany
-      obtain ⟨t, ht, k1, k2, k3⟩ := g q (List.mem_filter.1 hq).1 id hid
-      refine ⟨t, List.mem_filter.2 ⟨ht, ?_⟩, k1, by simpa using k2, k3⟩
-      cases hfin : isFinishing n t with
-      | false => rfl
+theorem ok_completeOne {s : State} (rid : Nat) (o : List Obs) (h : SInv s) (hw : NoWrap (completeOne s rid o).1) :
+    SInv (completeOne s rid o).1 ∧ ∀ x ∈ (completeOne s rid o).2, x ∈ o ∨ SentOk s x := by
+  unfold completeOne at hw ⊢
+  cases hf : s.pending.find? (fun p => decide (p.rid = rid)) with
+  | none => exact ⟨h, fun x hx => .inl hx⟩
+  | some p =>
+    have hpm : p ∈ s.pending := List.mem_of_find?_eq_some hf
+    simp only [hf] at hw ⊢
+    cases ho : p.outcome with
+    | none => exact ⟨h, fun x hx => .inl hx⟩
+    | some ok =>
+      simp only [ho] at hw ⊢
+      have h0 := sinv_dropSetup h p.rid
+      have hptk := h.pinv.pend_tk p hpm
+      cases ok with
+      | false =>
+        simp only [Bool.false_eq_true, if_false] at hw ⊢
+        split
+        · exact ⟨sinv_congr h0 rfl rfl rfl rfl rfl rfl rfl rfl, fun x hx => .inl hx⟩
+        · exact ⟨h0, fun x hx => .inl hx⟩
       | true =>
-        exfalso
-        apply hany
-        rw [List.any_eq_true]
-        refine ⟨t, List.mem_filter.2 ⟨ht, hfin⟩, ?_⟩
-        simp [k2, hid, k1]
-  · intro r hr hto
-    obtain ⟨q, hq, rfl⟩ := List.mem_map.1 hr
-    rw [unsetDone_handle]
-    have := i q (List.mem_filter.1 hq).1 (by simpa using hto)
-    simp [this]
+        simp only [if_true] at hw ⊢
+        obtain ⟨hr1, hr2⟩ := ok_register (s := { s with pending := s.pending.filter (fun q => decide (q.rid ≠ p.rid)) })
+          h0 p hptk.1 hptk.2.1 hptk.2.2 (fun r hr => h.pinv.pend_fresh p hpm r hr)
+          (fun q hq => by simpa using (List.mem_filter.1 hq).2)
+        have hsent : SentOk s (Obs.sent s.now p.rid (s.cfg.initial + p.rid)) := ⟨p.rid, rfl, .inr ⟨p, hpm, rfl⟩⟩
+        have hreg := adds_register_drop s p hpm
+        split
+        · rename_i hk
+          simp only [hk, if_true] at hw
+          obtain ⟨g1, g2⟩ := ok_roundGo (s.wlRound.getD 0) (o ++ (register { s with pending := s.pending.filter (fun q => decide (q.rid ≠ p.rid)) } p).2) hr1 hw
+          refine ⟨g1, ?_⟩
+          intro x hx
+          rcases g2 x hx with hx | hx
+          · rcases List.mem_append.1 hx with hx | hx
+            · exact .inl hx
+            · rw [hr2] at hx; simp at hx; subst hx; exact .inr hsent
+          · exact .inr (hx.mono hreg)
+        · refine ⟨hr1, ?_⟩
+          intro x hx
+          rcases List.mem_append.1 hx with hx | hx
+          · exact .inl hx
+          · rw [hr2] at hx; simp at hx; subst hx; exact .inr hsent
 
-theorem inv_settleTimers {s : State} (h : Inv s) : Inv (settleTimers s).1 := by
-  rw [settleTimers_state]
-  exact inv_settleCore (inv_mapStart s.now h) s.now
 
-/-! ### wishlist rounds, settle, step -/
-
-theorem wishlistRound_cfg (n : Nat) (s : State) (o : List Obs) : (wishlistRound n s o).1.cfg = s.cfg := by
-  induction n generalizing s o with
-  | zero => rfl
-  | succ n ih => simp only [wishlistRound, ih, newRequest_cfg]
-
-theorem wishlistRound_now (n : Nat) (s : State) (o : List Obs) : (wishlistRound n s o).1.now = s.now := by
-  induction n generalizing s o with
-  | zero => rfl
-  | succ n ih => simp only [wishlistRound, ih, newRequest_now]
-
-theorem wishlistRound_draws (n : Nat) (s : State) (o : List Obs) : (wishlistRound n s o).1.draws = s.draws + n := by
-  induction n generalizing s o with
-  | zero => rfl
-  | succ n ih => simp only [wishlistRound, ih, newRequest_draws]; omega
-
-theorem inv_wishlistRound (n : Nat) {s : State} (o : List Obs) (h : Inv s) (hw : NoWrap (wishlistRound n s o).1) :
-    Inv (wishlistRound n s o).1 := by
-  induction n generalizing s o with
-  | zero => exact h
-  | succ n ih =>
-    simp only [wishlistRound] at hw ⊢
-    apply ih _ _ hw
-    apply inv_newRequest h
-    unfold NoWrap at hw ⊢
-    rw [wishlistRound_cfg, wishlistRound_draws] at hw
-    omega
-
-/-- a round only adds `sent` observations, for requests that did not exist before -/
-theorem wishlistRound_obs (n : Nat) {s : State} (o : List Obs) (h : Inv s) (hw : NoWrap (wishlistRound n s o).1) :
-    ∀ x ∈ (wishlistRound n s o).2, x ∈ o ∨ ∃ rid, x = Obs.sent s.now rid (s.cfg.initial + rid) ∧ s.draws < rid := by
-  induction n generalizing s o with
-  | zero => intro x hx; exact .inl hx
-  | succ n ih =>
-    simp only [wishlistRound] at hw ⊢
-    have hw1 : NoWrap (newRequest s .wishlist (wishlistTimeout s)).1 := by
-      unfold NoWrap at hw ⊢
-      rw [wishlistRound_cfg, wishlistRound_draws] at hw
-      omega
+theorem ok_completeAll (rids : List Nat) {s : State} (o : List Obs) (h : SInv s) (hw : NoWrap (completeAll rids s o).1) :
+    SInv (completeAll rids s o).1 ∧ ∀ x ∈ (completeAll rids s o).2, x ∈ o ∨ SentOk s x := by
+  induction rids generalizing s o with
+  | nil => exact ⟨h, fun x hx => .inl hx⟩
+  | cons rid rids ih =>
+    simp only [completeAll] at hw ⊢
+    have hw1 : NoWrap (completeOne s rid o).1 := noWrap_of_adds (adds_completeAll rids _ _) hw
+    obtain ⟨h1, h2⟩ := ok_completeOne rid o h hw1
+    obtain ⟨g1, g2⟩ := ih _ h1 hw
+    refine ⟨g1, ?_⟩
     intro x hx
-    rcases ih _ (inv_newRequest h _ _ hw1) hw x hx with hx | ⟨rid, hx, hlt⟩
-    · rw [newRequest_obs h _ _ hw1] at hx
-      rcases List.mem_append.1 hx with hx | hx
-      · exact .inl hx
-      · right; refine ⟨s.draws + 1, ?_, by omega⟩
-        simp at hx; rw [hx]; simp [Nat.add_assoc]
-    · right
-      rw [newRequest_now, newRequest_cfg] at hx
-      rw [newRequest_draws] at hlt
-      exact ⟨rid, hx, by omega⟩
+    rcases g2 x hx with hx | hx
+    · exact h2 x hx
+    · exact .inr (hx.mono (adds_completeOne s rid o))
+
+theorem ok_completeSetups {s : State} (o : List Obs) (h : SInv s) (hw : NoWrap (completeSetups s o).1) :
+    SInv (completeSetups s o).1 ∧ ∀ x ∈ (completeSetups s o).2, x ∈ o ∨ SentOk s x := ok_completeAll _ o h hw
+
+theorem ok_settleWishlist {s : State} (o : List Obs) (h : SInv s) (hw : NoWrap (settleWishlist s o).1) :
+    SInv (settleWishlist s o).1 ∧ ∀ x ∈ (settleWishlist s o).2, x ∈ o ∨ SentOk s x := by
+  unfold settleWishlist at hw ⊢
+  cases hn : s.wlNext with
+  | none => exact ⟨h, fun x hx => .inl hx⟩
+  | some w =>
+    simp only [hn] at hw ⊢
+    by_cases hle : w ≤ s.now
+    · simp only [hle, if_true] at hw ⊢; exact ok_roundGo _ o h hw
+    · simp only [hle, if_false] at hw ⊢; exact ⟨h, fun x hx => .inl hx⟩
+
+theorem ok_tickWishlist {s : State} (o : List Obs) (h : SInv s) (hw : NoWrap (tickWishlist s o).1) :
+    SInv (tickWishlist s o).1 ∧ ∀ x ∈ (tickWishlist s o).2, x ∈ o ∨ SentOk s x := by
+  unfold tickWishlist at hw ⊢
+  cases hn : s.wlNext with
+  | none => exact ⟨h, fun x hx => .inl hx⟩
+  | some w =>
+    simp only [hn] at hw ⊢
+    by_cases hk : s.wlWoken = true
+    · simp only [hk, if_true] at hw ⊢; exact ok_roundGo _ o h hw
+    · simp only [hk, if_false] at hw ⊢
+      by_cases hle : w ≤ s.now
+      · simp only [hle, if_true] at hw ⊢
+        exact ⟨sinv_congr h rfl rfl rfl rfl rfl rfl rfl rfl, fun x hx => .inl hx⟩
+      · simp only [hle, if_false] at hw ⊢; exact ⟨h, fun x hx => .inl hx⟩
+
+/-! ### the loop runs the timer tasks -/
+
+/-- a timeout removal reported by a loop run from state `s`: at the present instant, not before the deadline `dl`, by
+an un-cancelled pending task that is — at this moment — the handle of a registered request, the one removed -/
+def RemovedOk (s : State) (t rid tk dl tid : Nat) : Prop :=
+  t = s.now ∧ dl ≤ s.now ∧
+  (∃ task ∈ s.tasks, task.id = tid ∧ task.rid = rid ∧ task.cancelled = false ∧
+    (startTask s.now task).deadline = some dl) ∧
+  ∃ r ∈ s.requests, r.rid = rid ∧ r.ticket = tk ∧ r.handle = some tid
+
+theorem startTask_woken (n : Nat) (t : TTask) : (startTask n t).woken = t.woken := by
+  unfold startTask; split <;> rfl
+
+theorem startTask_of_some {n d : Nat} {t : TTask} (h : t.deadline = some d) : startTask n t = t := by
+  unfold startTask; rw [h]
+
+theorem startTask_deadline (n : Nat) (t : TTask) :
+    (startTask n t).deadline = some (match t.deadline with | none => n + t.timeout | some d => d) := by
+  unfold startTask; split <;> simp_all
 
 theorem settleTimers_cfg (s : State) : (settleTimers s).1.cfg = s.cfg := by rw [settleTimers_state]
 theorem settleTimers_draws (s : State) : (settleTimers s).1.draws = s.draws := by rw [settleTimers_state]
 theorem settleTimers_now (s : State) : (settleTimers s).1.now = s.now := by rw [settleTimers_state]
+theorem settleTimers_pending (s : State) : (settleTimers s).1.pending = s.pending := by rw [settleTimers_state]
+theorem settleTimers_nextTask (s : State) : (settleTimers s).1.nextTask = s.nextTask := by rw [settleTimers_state]
+theorem settleTimers_gen (s : State) : (settleTimers s).1.gen = s.gen := by rw [settleTimers_state]
 
-theorem settleWishlist_cfg (s : State) (o : List Obs) : (settleWishlist s o).1.cfg = s.cfg := by
-  unfold settleWishlist; split
-  · rfl
-  · split
-    · simp [wishlistRound_cfg]
-    · rfl
+theorem settleTimers_reqs (s : State) : ∀ r' ∈ (settleTimers s).1.requests, ∃ r ∈ s.requests, r.rid = r'.rid := by
+  intro r' hr'
+  rw [settleTimers_state] at hr'
+  obtain ⟨q, hq, rfl⟩ := List.mem_map.1 hr'
+  exact ⟨q, (List.mem_filter.1 hq).1, by simp⟩
 
-theorem settleWishlist_draws (s : State) (o : List Obs) : s.draws ≤ (settleWishlist s o).1.draws := by
-  unfold settleWishlist; split
-  · exact Nat.le_refl _
-  · split
-    · simp [wishlistRound_draws]
-    · exact Nat.le_refl _
+theorem sinv_settleTimers {s : State} (h : SInv s) : SInv (settleTimers s).1 := by
+  refine ⟨inv_settleTimers h.inv, ?_⟩
+  apply pinv_of_rids h.pinv (settleTimers_cfg s) (by rw [settleTimers_draws]; exact Nat.le_refl _) (settleTimers_pending s)
+    (fun r' hr' => .inl (settleTimers_reqs s r' hr'))
+  intro t ht hwk
+  rw [settleTimers_state] at ht
+  rw [settleTimers_now]
+  obtain ⟨t0, ht0, rfl⟩ := List.mem_map.1 (List.mem_filter.1 ht).1
+  rw [startTask_woken] at hwk
+  obtain ⟨d, hd, hle⟩ := h.pinv.woken_due t0 ht0 hwk
+  rw [startTask_of_some hd]
+  exact ⟨d, hd, hle⟩
 
-theorem settleWishlist_round {s : State} (o : List Obs) {w : Nat} (h1 : s.wlNext = some w) (h2 : w ≤ s.now) :
-    settleWishlist s o =
-      ({ (wishlistRound s.cfg.items s o).1 with
-          wlNext := some (s.now + s.wlInterval.getD defaultWishlistInterval),
-          tasks := (wishlistRound s.cfg.items s o).1.tasks.map (startTask s.now) },
-       (wishlistRound s.cfg.items s o).2) := by
-  unfold settleWishlist; simp [h1, h2]
-
-theorem settleWishlist_idle {s : State} (o : List Obs) (h : ∀ w, s.wlNext = some w → ¬ w ≤ s.now) :
-    settleWishlist s o = (s, o) := by
-  unfold settleWishlist
-  cases hw : s.wlNext with
-  | none => rfl
-  | some w => simp [h w hw]
-
-/-- case split on whether the wishlist task runs a round -/
-theorem settleWishlist_cases (s : State) (o : List Obs) :
-    (settleWishlist s o = (s, o)) ∨
-    (∃ w, s.wlNext = some w ∧ w ≤ s.now ∧ settleWishlist s o =
-      ({ (wishlistRound s.cfg.items s o).1 with
-          wlNext := some (s.now + s.wlInterval.getD defaultWishlistInterval),
-          tasks := (wishlistRound s.cfg.items s o).1.tasks.map (startTask s.now) },
-       (wishlistRound s.cfg.items s o).2)) := by
-  cases hw : s.wlNext with
-  | none => left; exact settleWishlist_idle o (by simp [hw])
-  | some w =>
-    by_cases hle : w ≤ s.now
-    · right; exact ⟨w, rfl, hle, settleWishlist_round o hw hle⟩
-    · left; apply settleWishlist_idle o; intro w' hw'; rw [hw] at hw'; cases hw'; exact hle
-
-theorem inv_settleWishlist {s : State} (o : List Obs) (h : Inv s) (hw : NoWrap (settleWishlist s o).1) :
-    Inv (settleWishlist s o).1 := by
-  rcases settleWishlist_cases s o with he | ⟨w, _, _, he⟩
-  · rw [he]; exact h
-  · rw [he] at hw ⊢
-    have hw' : NoWrap (wishlistRound s.cfg.items s o).1 := hw
-    have := inv_mapStart s.now (inv_wishlistRound _ o h hw')
-    exact inv_congr this rfl rfl rfl rfl rfl rfl
-
-theorem settleWishlist_obs {s : State} (o : List Obs) (h : Inv s) (hw : NoWrap (settleWishlist s o).1) :
-    ∀ x ∈ (settleWishlist s o).2, x ∈ o ∨ ∃ rid, x = Obs.sent s.now rid (s.cfg.initial + rid) ∧ s.draws < rid := by
-  rcases settleWishlist_cases s o with he | ⟨w, _, _, he⟩
-  · rw [he]; intro x hx; exact .inl hx
-  · rw [he] at hw ⊢
-    exact wishlistRound_obs _ o h hw
-
-theorem inv_settle {s : State} (h : Inv s) (hw : NoWrap (settle s).1) : Inv (settle s).1 := by
-  unfold settle at hw ⊢
-  exact inv_settleWishlist _ (inv_settleTimers h) hw
-
-theorem timerCancel_cfg (s : State) (rid : Nat) (h : Option Nat) : (timerCancel s rid h).cfg = s.cfg := by
-  cases h <;> rfl
-theorem timerCancel_draws (s : State) (rid : Nat) (h : Option Nat) : (timerCancel s rid h).draws = s.draws := by
-  cases h <;> rfl
-theorem timerCancel_now (s : State) (rid : Nat) (h : Option Nat) : (timerCancel s rid h).now = s.now := by
-  cases h <;> rfl
-
-theorem step_cfg (s : State) (op : Op) : (step s op).1.cfg = s.cfg := by
-  cases op <;> simp only [step] <;> (repeat' split) <;>
-    simp [newRequest_cfg, timerCancel_cfg, timerStart, settle, settleWishlist_cfg, settleTimers_cfg]
-
-theorem settle_draws (s : State) : s.draws ≤ (settle s).1.draws := by
-  unfold settle
-  have := settleWishlist_draws (settleTimers s).1 (settleTimers s).2
-  rw [settleTimers_draws] at this; exact this
-
-theorem step_draws (s : State) (op : Op) : s.draws ≤ (step s op).1.draws := by
-  cases op <;> simp only [step] <;> (repeat' split) <;>
-    simp [newRequest_draws, timerCancel_draws, timerStart, settle_draws]
-
-theorem noWrap_of_step (s : State) (op : Op) (h : NoWrap (step s op).1) : NoWrap s := by
-  unfold NoWrap at h ⊢
-  rw [step_cfg] at h
-  have := step_draws s op
-  omega
-
-theorem inv_step {s : State} (op : Op) (h : Inv s) (hw : NoWrap (step s op).1) : Inv (step s op).1 := by
-  cases op with
-  | search k => exact inv_newRequest h _ _ hw
-  | wlInterval n => exact inv_congr h rfl rfl rfl rfl rfl rfl
-  | serverClosing => exact inv_congr h rfl rfl rfl rfl rfl rfl
-  | remove tk =>
-    cases hl : lookup s tk with
-    | none => simpa [step, hl] using h
-    | some r => exact inv_remove h tk r hl
-  | reply tk =>
-    simp only [step]
-    cases hl : lookup s tk with
-    | none => simpa using h
-    | some r =>
-      simp only []
-      cases hs : s.cfg.storeResults with
-      | false => simpa using inv_congr h rfl rfl rfl rfl rfl rfl
-      | true => simpa using inv_reply tk h
-  | timerCancel tk =>
-    simp only [step]
-    cases hl : lookup s tk with
-    | none => simpa using h
-    | some r =>
-      cases hto : r.timeout with
-      | none => simpa [hto] using h
-      | some T => simpa [hto] using inv_timerCancel h r (lookup_some hl).1
-  | timerReschedule tk n => exact inv_reschedule h tk n
-  | jump d => exact inv_congr h rfl rfl rfl rfl rfl rfl
-  | settle => exact inv_settle h hw
-
-theorem inv_init (cfg : Cfg) : Inv (init cfg) := by
-  constructor <;> simp [init]
-
-
-/-! ### what a step may report -/
-
-theorem fireAll_obs_ok (F : List TTask) (s : State) (o : List Obs)
-    (hp : F.Pairwise (fun a b => a.id ≠ b.id))
-    (hw : ∀ t ∈ F, ∃ r ∈ s.requests, r.ticket = t.ticket ∧ r.handle = some t.id)
-    (hinj : ∀ r1 ∈ s.requests, ∀ r2 ∈ s.requests, r1.ticket = r2.ticket → r1 = r2) :
-    ∀ x ∈ (fireAll F s o).2, x ∈ o ∨ ∃ t ∈ F, x = Obs.removed s.now t.rid t.ticket (t.deadline.getD 0) t.id := by
-  induction F generalizing s o with
-  | nil => intro x hx; exact .inl hx
-  | cons t ts ih =>
-    rw [List.pairwise_cons] at hp
-    obtain ⟨rt, hrt, hrt1, hrt2⟩ := hw t (by simp)
-    have hany : s.requests.any (fun r => r.ticket = t.ticket) = true := by
-      rw [List.any_eq_true]; exact ⟨rt, hrt, by simpa using hrt1⟩
-    have hfire : fireTask s t = ({ s with requests := s.requests.filter (fun r => r.ticket ≠ t.ticket) },
-        [Obs.removed s.now t.rid t.ticket (t.deadline.getD 0) t.id]) := by
-      unfold fireTask; rw [if_pos hany]
-    simp only [fireAll, hfire]
-    intro x hx
-    have := ih { s with requests := s.requests.filter (fun r => r.ticket ≠ t.ticket) } _ hp.2
-      (by
-        intro t2 ht2
-        obtain ⟨r2, hr2, k1, k2⟩ := hw t2 (by simp [ht2])
-        refine ⟨r2, List.mem_filter.2 ⟨hr2, ?_⟩, k1, k2⟩
-        have : r2.ticket ≠ t.ticket := by
-          intro heq
-          have := hinj r2 hr2 rt hrt (by omega)
-          subst this
-          have : t2.id = t.id := by simpa [k2] using hrt2
-          exact hp.1 t2 ht2 this.symm
-        simpa using this)
-      (by
-        intro r1 h1 r2 h2
-        exact hinj r1 (List.mem_filter.1 h1).1 r2 (List.mem_filter.1 h2).1)
-      x hx
-    rcases this with h | ⟨t', ht', h⟩
-    · rcases List.mem_append.1 h with h | h
-      · exact .inl h
-      · right; exact ⟨t, by simp, by simpa using h⟩
-    · right; exact ⟨t', by simp [ht'], h⟩
-
-def ObsOk (s : State) (op : Op) : Obs → Prop
-  | .sent t rid tk => t = s.now ∧ s.draws < rid ∧ tk = s.cfg.initial + rid
-  | .removed t rid tk dl tid =>
-    op = .settle ∧ t = s.now ∧ dl ≤ s.now ∧
-    (∃ task ∈ s.tasks, task.id = tid ∧ task.rid = rid ∧ task.cancelled = false ∧
-      (startTask s.now task).deadline = some dl) ∧
-    ∃ r ∈ s.requests, r.rid = rid ∧ r.ticket = tk ∧ r.handle = some tid
-  | .result t rid tk => op = .reply tk ∧ t = s.now ∧ ∃ r ∈ s.requests, r.rid = rid ∧ r.ticket = tk
-  | .loopErr _ _ _ _ => False
-  | .clobber _ _ => False
-  | .callerErr => ∃ tk, op = .remove tk ∧ ∀ r ∈ s.requests, r.ticket ≠ tk
-  | .noReq => True
-  | .noTimer => True
-
-theorem settleTimers_obs {s : State} (h : Inv s) : ∀ x ∈ (settleTimers s).2, ObsOk s .settle x := by
+theorem settleTimers_obs {s : State} (h : SInv s) : ∀ x ∈ (settleTimers s).2,
+    ∃ t rid tk dl tid, x = Obs.removed t rid tk dl tid ∧ RemovedOk s t rid tk dl tid := by
   intro x hx
-  have h0 := inv_mapStart s.now h
+  have h0 := inv_mapStart s.now h.inv
   simp only [settleTimers] at hx
   have hF : ∀ t ∈ (s.tasks.map (startTask s.now)).filter (isDue s.now),
       ∃ t0 ∈ s.tasks, t = startTask s.now t0 ∧ t0.cancelled = false ∧ reached s.now t = true := by
@@ -868,648 +681,200 @@ theorem settleTimers_obs {s : State} (h : Inv s) : ∀ x ∈ (settleTimers s).2,
     | none => simp [hd] at hre
     | some d =>
       simp only [hd, decide_eq_true_eq] at hre
-      refine ⟨rfl, rfl, by simpa using hre, ⟨t0, ht0, by simp, by simp, hc, by simp [hd]⟩, r, hr, ?_⟩
+      refine ⟨_, _, _, _, _, rfl, rfl, by simpa using hre, ⟨t0, ht0, by simp, by simp, hc, by simp [hd]⟩, r, hr, ?_⟩
       simp [k1, k2, k3]
 
-theorem ObsOk_sent_mono {s s' : State} {op : Op} {t rid tk : Nat} (h : ObsOk s' op (.sent t rid tk))
-    (h1 : s'.now = s.now) (h2 : s.draws ≤ s'.draws) (h3 : s'.cfg = s.cfg) (op' : Op) :
-    ObsOk s op' (.sent t rid tk) := by
-  unfold ObsOk at h ⊢
-  rw [h1, h3] at h
-  exact ⟨h.1, by omega, h.2.2⟩
+/-! #### one iteration -/
 
-theorem step_obs {s : State} (op : Op) (h : Inv s) (hw : NoWrap (step s op).1) :
-    ∀ x ∈ (step s op).2, ObsOk s op x := by
-  cases op with
-  | search k =>
-    intro x hx
-    simp only [step] at hx hw
-    rw [newRequest_obs h _ _ hw] at hx
-    simp at hx; subst hx
-    exact ⟨rfl, by omega, by omega⟩
-  | wlInterval n => intro x hx; cases hx
-  | serverClosing => intro x hx; cases hx
-  | jump d => intro x hx; cases hx
-  | remove tk =>
-    intro x hx
-    simp only [step] at hx
-    cases hl : lookup s tk with
-    | none =>
-      simp [hl] at hx; subst hx
-      exact ⟨tk, rfl, lookup_none hl⟩
-    | some r => simp [hl] at hx
-  | reply tk =>
-    intro x hx
-    simp only [step] at hx
-    cases hl : lookup s tk with
-    | none => simp [hl] at hx
-    | some r =>
-      simp [hl] at hx; subst hx
-      exact ⟨rfl, rfl, r, (lookup_some hl).1, rfl, (lookup_some hl).2⟩
-  | timerCancel tk =>
-    intro x hx
-    simp only [step] at hx
-    cases hl : lookup s tk with
-    | none => simp [hl] at hx; subst hx; trivial
-    | some r =>
-      cases hto : r.timeout with
-      | none => simp [hl, hto] at hx; subst hx; trivial
-      | some T => simp [hl, hto] at hx
-  | timerReschedule tk n =>
-    intro x hx
-    simp only [step] at hx
-    cases hl : lookup s tk with
-    | none => simp [hl] at hx; subst hx; trivial
-    | some r =>
-      cases hto : r.timeout with
-      | none => simp [hl, hto] at hx; subst hx; trivial
-      | some T => simp [hl, hto] at hx
-  | settle =>
-    intro x hx
-    simp only [step, settle] at hx hw
-    rcases settleWishlist_obs _ (inv_settleTimers h) hw x hx with hx | ⟨rid, rfl, hlt⟩
-    · exact settleTimers_obs h x hx
-    · rw [settleTimers_now, settleTimers_cfg]
-      rw [settleTimers_draws] at hlt
-      exact ⟨rfl, hlt, rfl⟩
+@[simp] theorem wakeTask_id (n : Nat) (t : TTask) : (wakeTask n t).id = t.id := by
+  unfold wakeTask; split
+  · rfl
+  · split <;> rfl
+@[simp] theorem wakeTask_rid (n : Nat) (t : TTask) : (wakeTask n t).rid = t.rid := by
+  unfold wakeTask; split
+  · rfl
+  · split <;> rfl
+@[simp] theorem wakeTask_ticket (n : Nat) (t : TTask) : (wakeTask n t).ticket = t.ticket := by
+  unfold wakeTask; split
+  · rfl
+  · split <;> rfl
+@[simp] theorem wakeTask_cancelled (n : Nat) (t : TTask) : (wakeTask n t).cancelled = t.cancelled := by
+  unfold wakeTask; split
+  · rfl
+  · split <;> rfl
+@[simp] theorem wakeTask_timeout (n : Nat) (t : TTask) : (wakeTask n t).timeout = t.timeout := by
+  unfold wakeTask; split
+  · rfl
+  · split <;> rfl
 
-/-! ### where the requests of the next state come from -/
+/-- a task that goes on sleeping or is woken: woken only when its sleep is over -/
+theorem wakeTask_due (n : Nat) (t : TTask) (h : t.woken = true → ∃ d, t.deadline = some d ∧ d ≤ n) :
+    (wakeTask n t).woken = true → ∃ d, (wakeTask n t).deadline = some d ∧ d ≤ n := by
+  unfold wakeTask
+  split
+  · intro hw
+    simp only [beq_iff_eq] at hw
+    exact ⟨n + t.timeout, rfl, by omega⟩
+  · rename_i d hd
+    split
+    · intro _; exact ⟨d, hd, by assumption⟩
+    · exact h
 
-/-- every request of `b` has the `rid` of a request of `a`, or is new (`rid > d`) -/
-def RidsFrom (a : List Req) (d : Nat) (b : List Req) : Prop := ∀ r' ∈ b, (∃ r ∈ a, r.rid = r'.rid) ∨ d < r'.rid
+theorem firesNow_endsNow {t : TTask} (h : firesNow t = true) : endsNow t = true := by
+  unfold firesNow at h; unfold endsNow; simp_all
+theorem firesNow_cancelled {t : TTask} (h : firesNow t = true) : t.cancelled = false := by
+  unfold firesNow at h; simp_all
+theorem firesNow_woken {t : TTask} (h : firesNow t = true) : t.woken = true := by
+  unfold firesNow at h; simp_all
 
-theorem RidsFrom.refl (a : List Req) (d : Nat) : RidsFrom a d a := fun r' h => .inl ⟨r', h, rfl⟩
+theorem tickTimers_state (s : State) :
+    (tickTimers s).1 =
+      { s with tasks := (s.tasks.filter (fun t => !endsNow t)).map (wakeTask s.now),
+               requests := (s.requests.filter (fun r => (s.tasks.filter firesNow).all
+                              (fun t => r.ticket ≠ t.ticket))).map (unsetDone (s.tasks.filter endsNow)) } := by
+  simp only [tickTimers, fireAll_state]
 
-theorem RidsFrom.map {a b : List Req} {d : Nat} (h : RidsFrom a d b) (f : Req → Req) (hf : ∀ r, (f r).rid = r.rid) :
-    RidsFrom a d (b.map f) := by
+theorem tickTimers_cfg (s : State) : (tickTimers s).1.cfg = s.cfg := by rw [tickTimers_state]
+theorem tickTimers_draws (s : State) : (tickTimers s).1.draws = s.draws := by rw [tickTimers_state]
+theorem tickTimers_now (s : State) : (tickTimers s).1.now = s.now := by rw [tickTimers_state]
+theorem tickTimers_pending (s : State) : (tickTimers s).1.pending = s.pending := by rw [tickTimers_state]
+theorem tickTimers_nextTask (s : State) : (tickTimers s).1.nextTask = s.nextTask := by rw [tickTimers_state]
+
+theorem tickTimers_reqs (s : State) : ∀ r' ∈ (tickTimers s).1.requests, ∃ r ∈ s.requests, r.rid = r'.rid := by
   intro r' hr'
+  rw [tickTimers_state] at hr'
   obtain ⟨q, hq, rfl⟩ := List.mem_map.1 hr'
-  rw [hf]; exact h q hq
+  exact ⟨q, (List.mem_filter.1 hq).1, by simp⟩
 
-theorem RidsFrom.filter {a b : List Req} {d : Nat} (h : RidsFrom a d b) (p : Req → Bool) :
-    RidsFrom a d (b.filter p) := fun r' hr' => h r' (List.mem_filter.1 hr').1
+theorem sinv_tickTimers {s : State} (h : SInv s) : SInv (tickTimers s).1 := by
+  refine ⟨?_, ?_⟩
+  · rw [tickTimers_state]
+    have h1 := inv_fireCore h.inv firesNow endsNow (fun t => firesNow_endsNow) (fun t => firesNow_cancelled)
+    have h2 := inv_mapTasks (wakeTask s.now) h1 (by simp) (by simp) (by simp) (by simp)
+    exact h2
+  · apply pinv_of_rids h.pinv (tickTimers_cfg s) (by rw [tickTimers_draws]; exact Nat.le_refl _) (tickTimers_pending s)
+      (fun r' hr' => .inl (tickTimers_reqs s r' hr'))
+    intro t ht
+    rw [tickTimers_state] at ht
+    rw [tickTimers_now]
+    obtain ⟨t0, ht0, rfl⟩ := List.mem_map.1 ht
+    exact wakeTask_due s.now t0 (h.pinv.woken_due t0 (List.mem_filter.1 ht0).1)
 
-theorem RidsFrom.trans {a b c : List Req} {d d' : Nat} (h1 : RidsFrom a d b) (h2 : RidsFrom b d' c) (hd : d ≤ d') :
-    RidsFrom a d c := by
-  intro r' hr'
-  rcases h2 r' hr' with ⟨q, hq, he⟩ | hlt
-  · rcases h1 q hq with ⟨p, hp, he'⟩ | hlt
-    · exact .inl ⟨p, hp, by omega⟩
-    · exact .inr (by omega)
-  · exact .inr (by omega)
-
-theorem ridsFrom_setHandle (a : List Req) (d rid : Nat) (h : Option Nat) : RidsFrom a d (setHandle a rid h) :=
-  (RidsFrom.refl a d).map _ (by intro r; split <;> rfl)
-
-theorem ridsFrom_setTimeout (a : List Req) (d rid n : Nat) : RidsFrom a d (setTimeout a rid n) :=
-  (RidsFrom.refl a d).map _ (by intro r; split <;> rfl)
-
-theorem ridsFrom_timerCancel (s : State) (rid : Nat) (h : Option Nat) :
-    RidsFrom s.requests s.draws (timerCancel s rid h).requests := by
-  cases h with
-  | none => exact RidsFrom.refl _ _
-  | some id => exact ridsFrom_setHandle _ _ _ _
-
-theorem ridsFrom_newRequest (s : State) (k : Kind) (to : Option Nat) :
-    RidsFrom s.requests s.draws (newRequest s k to).1.requests := by
-  have hreg : RidsFrom s.requests s.draws (registered s k to).requests := by
-    intro r' hr'
-    rcases List.mem_append.1 hr' with h | h
-    · exact .inl ⟨r', (List.mem_filter.1 h).1, rfl⟩
-    · simp at h; subst h; right; simp
-  rw [newRequest_state]
-  cases to with
-  | none => exact hreg
-  | some T => exact hreg.trans (ridsFrom_setHandle _ (s.draws) _ _) (Nat.le_refl _)
-
-theorem ridsFrom_wishlistRound (n : Nat) (s : State) (o : List Obs) :
-    RidsFrom s.requests s.draws (wishlistRound n s o).1.requests := by
-  induction n generalizing s o with
-  | zero => exact RidsFrom.refl _ _
-  | succ n ih =>
-    simp only [wishlistRound]
-    exact (ridsFrom_newRequest s _ _).trans (ih _ _) (by rw [newRequest_draws]; omega)
-
-theorem ridsFrom_settleTimers (s : State) : RidsFrom s.requests s.draws (settleTimers s).1.requests := by
-  rw [settleTimers_state]
-  exact ((RidsFrom.refl _ _).filter _).map _ (by simp)
-
-theorem ridsFrom_settle (s : State) : RidsFrom s.requests s.draws (settle s).1.requests := by
-  unfold settle
-  refine (ridsFrom_settleTimers s).trans ?_ (Nat.le_refl _)
-  rw [← settleTimers_draws s]
-  rcases settleWishlist_cases (settleTimers s).1 (settleTimers s).2 with he | ⟨w, _, _, he⟩
-  · rw [he]; exact RidsFrom.refl _ _
-  · rw [he]; exact ridsFrom_wishlistRound _ _ _
-
-theorem ridsFrom_step (s : State) (op : Op) : RidsFrom s.requests s.draws (step s op).1.requests := by
-  cases op with
-  | search k => exact ridsFrom_newRequest s _ _
-  | wlInterval n => exact RidsFrom.refl _ _
-  | serverClosing => exact RidsFrom.refl _ _
-  | jump d => exact RidsFrom.refl _ _
-  | settle => exact ridsFrom_settle s
-  | remove tk =>
-    simp only [step]
-    cases hl : lookup s tk with
-    | none => exact RidsFrom.refl _ _
-    | some r =>
-      cases hto : r.timeout with
-      | none => simpa [hto] using (RidsFrom.refl s.requests s.draws).filter _
-      | some T =>
-        simp only [hto]
-        exact ((RidsFrom.refl s.requests s.draws).filter _).trans (ridsFrom_timerCancel _ _ _) (Nat.le_refl _)
-  | reply tk =>
-    simp only [step]
-    cases hl : lookup s tk with
-    | none => exact RidsFrom.refl _ _
-    | some r =>
-      simp only []
-      split
-      · exact (RidsFrom.refl _ _).map _ (by intro r; split <;> rfl)
-      · exact RidsFrom.refl _ _
-  | timerCancel tk =>
-    simp only [step]
-    cases hl : lookup s tk with
-    | none => exact RidsFrom.refl _ _
-    | some r =>
-      cases hto : r.timeout with
-      | none => simpa [hto] using RidsFrom.refl s.requests s.draws
-      | some T => simpa [hto] using ridsFrom_timerCancel s r.rid r.handle
-  | timerReschedule tk n =>
-    simp only [step]
-    cases hl : lookup s tk with
-    | none => exact RidsFrom.refl _ _
-    | some r =>
-      cases hto : r.timeout with
-      | none => simpa [hto] using RidsFrom.refl s.requests s.draws
-      | some T =>
-        simp only [hto, timerStart]
-        exact ((ridsFrom_timerCancel s r.rid r.handle).trans (ridsFrom_setTimeout _ s.draws _ _) (Nat.le_refl _)).trans
-          (ridsFrom_setHandle _ s.draws _ _) (Nat.le_refl _)
-
-/-! ### a removed request stays silent -/
-
-def obsRid : Obs → Option Nat
-  | .sent _ rid _ => some rid
-  | .removed _ rid _ _ _ => some rid
-  | .result _ rid _ => some rid
-  | .loopErr _ rid _ _ => some rid
-  | _ => none
-
-/-- request object `rid` exists (its ticket has been drawn) and is not registered -/
-def Gone (rid : Nat) (s : State) : Prop := rid ≤ s.draws ∧ ∀ q ∈ s.requests, q.rid ≠ rid
-
-theorem gone_step {s : State} {rid : Nat} (op : Op) (hg : Gone rid s) : Gone rid (step s op).1 := by
-  refine ⟨Nat.le_trans hg.1 (step_draws s op), ?_⟩
-  intro q hq heq
-  rcases ridsFrom_step s op q hq with ⟨r, hr, he⟩ | hlt
-  · exact hg.2 r hr (by omega)
-  · have := hg.1; omega
-
-theorem gone_step_obs {s : State} {rid : Nat} (op : Op) (h : Inv s) (hw : NoWrap (step s op).1) (hg : Gone rid s) :
-    ∀ x ∈ (step s op).2, obsRid x ≠ some rid := by
+theorem tickTimers_obs {s : State} (h : SInv s) : ∀ x ∈ (tickTimers s).2,
+    ∃ t rid tk dl tid, x = Obs.removed t rid tk dl tid ∧ RemovedOk s t rid tk dl tid := by
   intro x hx
-  have hok := step_obs op h hw x hx
-  cases x with
-  | sent t r tk => simp only [obsRid, ObsOk] at hok ⊢; have := hg.1; intro hc; cases hc; omega
-  | removed t r tk dl tid =>
-    simp only [obsRid, ObsOk] at hok ⊢
-    obtain ⟨_, _, _, _, q, hq, hqr, _⟩ := hok
-    intro hc; cases hc; exact hg.2 q hq hqr
-  | result t r tk =>
-    simp only [obsRid, ObsOk] at hok ⊢
-    obtain ⟨_, _, q, hq, hqr, _⟩ := hok
-    intro hc; cases hc; exact hg.2 q hq hqr
-  | loopErr t r tk tid => exact absurd hok (by simp [ObsOk])
-  | callerErr => simp [obsRid]
-  | noReq => simp [obsRid]
-  | noTimer => simp [obsRid]
-  | clobber a b => simp [obsRid]
-
-theorem gone_run {rid : Nat} (ops : List Op) (s : State) (h : Inv s) (hw : NoWrap (run s ops).1) (hg : Gone rid s) :
-    ∀ x ∈ (run s ops).2, obsRid x ≠ some rid := by
-  have := run_ind (P := fun s tr => Inv s ∧ Gone rid s ∧ ∀ x ∈ tr, obsRid x ≠ some rid) (G := NoWrap)
-    noWrap_of_step
+  simp only [tickTimers] at hx
+  have := fireAll_obs_ok _ s [] (h.task_nodup.filter _)
     (by
-      intro s tr op ⟨hi, hg, ht⟩ hw
-      refine ⟨inv_step op hi hw, gone_step op hg, ?_⟩
-      intro x hx
-      rcases List.mem_append.1 hx with hx | hx
-      · exact ht x hx
-      · exact gone_step_obs op hi hw hg x hx)
-    ops s [] ⟨h, hg, by simp⟩ hw
-  simpa using this.2.2
+      intro t ht
+      obtain ⟨htm, hf⟩ := List.mem_filter.1 ht
+      obtain ⟨r, hr, _, k2, k3⟩ := h.task_live t htm (firesNow_cancelled hf)
+      exact ⟨r, hr, k2, k3⟩)
+    h.ticket_inj x hx
+  rcases this with h' | ⟨t, ht, rfl⟩
+  · cases h'
+  · obtain ⟨htm, hf⟩ := List.mem_filter.1 ht
+    obtain ⟨r, hr, k1, k2, k3⟩ := h.task_live t htm (firesNow_cancelled hf)
+    obtain ⟨d, hd, hle⟩ := h.pinv.woken_due t htm (firesNow_woken hf)
+    refine ⟨_, _, _, _, _, rfl, rfl, by rw [hd]; exact hle, ⟨t, htm, rfl, rfl, firesNow_cancelled hf, ?_⟩, r, hr, k1, k2, k3⟩
+    rw [startTask_of_some hd, hd]; rfl
 
-/-- after `remove_request` succeeded the request is gone -/
-theorem gone_after_remove {s : State} (h : Inv s) {tk : Nat} {r : Req} (hl : lookup s tk = some r) :
-    Gone r.rid (step s (.remove tk)).1 := by
-  obtain ⟨hr, htk⟩ := lookup_some hl
-  refine ⟨Nat.le_trans (h.req_tk r hr).2.2 (step_draws _ _), ?_⟩
-  intro q hq heq
-  have hsub : ∀ q ∈ (step s (.remove tk)).1.requests, ∃ q0 ∈ s.requests, q0.rid = q.rid ∧ q0.ticket ≠ tk := by
-    intro q hq
-    simp only [step, hl] at hq
-    have hfil : ∀ q ∈ s.requests.filter (fun x => x.ticket ≠ tk), ∃ q0 ∈ s.requests, q0.rid = q.rid ∧ q0.ticket ≠ tk := by
-      intro q hq
-      obtain ⟨h1, h2⟩ := List.mem_filter.1 hq
-      exact ⟨q, h1, rfl, by simpa using h2⟩
-    cases hto : r.timeout with
-    | none => rw [hto] at hq; exact hfil q hq
-    | some T =>
-      rw [hto] at hq
-      cases hh : r.handle with
-      | none => rw [hh] at hq; exact hfil q hq
-      | some id =>
-        rw [hh, timerCancel_some] at hq
-        simp only [setHandle] at hq
-        obtain ⟨q1, hq1, rfl⟩ := List.mem_map.1 hq
-        obtain ⟨q0, hq0, h1, h2⟩ := hfil q1 hq1
-        exact ⟨q0, hq0, by rw [h1]; split <;> rfl, h2⟩
-  obtain ⟨q0, hq0, h1, h2⟩ := hsub q hq
-  have := h.req_uniq q0 hq0 r hr (by omega)
-  subst this
-  exact h2 htk
+/-! ### `settle` and `tick` as a whole -/
 
-/-- after a timeout removal was reported the request is gone -/
-theorem gone_after_timeout {s : State} (h : Inv s) (hw : NoWrap (settle s).1) {t rid tk dl tid : Nat}
-    (hx : Obs.removed t rid tk dl tid ∈ (settle s).2) : Gone rid (settle s).1 := by
-  have hok := step_obs .settle h hw _ hx
-  simp only [ObsOk] at hok
-  obtain ⟨_, _, hdl, ⟨task, htask, k1, k2, k3, k4⟩, r, hr, hr1, hr2, hr3⟩ := hok
-  refine ⟨Nat.le_trans (by have := (h.req_tk r hr).2.2; omega) (settle_draws s), ?_⟩
-  -- the request is filtered out when its task fires
-  have hT : ∀ q ∈ (settleTimers s).1.requests, q.rid ≠ rid := by
-    intro q hq heq
-    rw [settleTimers_state] at hq
-    simp only [] at hq
-    obtain ⟨q0, hq0, rfl⟩ := List.mem_map.1 hq
-    obtain ⟨hq0m, hall⟩ := List.mem_filter.1 hq0
-    have : q0 = r := h.req_uniq q0 hq0m r hr (by simpa [hr1] using heq)
-    subst this
-    rw [List.all_eq_true] at hall
-    have hmem : startTask s.now task ∈ (s.tasks.map (startTask s.now)).filter (isDue s.now) := by
-      refine List.mem_filter.2 ⟨List.mem_map.2 ⟨task, htask, rfl⟩, ?_⟩
-      unfold isDue reached
-      simp [k3, k4, hdl]
-    have := hall _ hmem
-    obtain ⟨r', hr', j1, j2, j3⟩ := h.task_live task htask k3
-    have : r' = q0 := h.req_uniq r' hr' q0 hr (by omega)
-    subst this
-    simp [j2] at this
-  intro q hq heq
-  unfold settle at hq
-  rcases settleWishlist_cases (settleTimers s).1 (settleTimers s).2 with he | ⟨w, _, _, he⟩
-  · rw [he] at hq; exact hT q hq heq
-  · rw [he] at hq
-    rcases ridsFrom_wishlistRound _ _ _ q hq with ⟨q0, hq0, h0⟩ | hlt
-    · exact hT q0 hq0 (by omega)
-    · rw [settleTimers_draws] at hlt
-      have := (h.req_tk r hr).2.2
-      omega
+theorem sinv_startAll {s : State} (h : SInv s) : SInv (startAll s) := by
+  refine ⟨inv_mapStart s.now h.inv, ?_⟩
+  apply pinv_of_rids (s' := startAll s) h.pinv rfl (Nat.le_refl _) rfl (fun r' hr' => .inl ⟨r', hr', rfl⟩)
+  intro t ht hwk
+  obtain ⟨t0, ht0, rfl⟩ := List.mem_map.1 ht
+  rw [startTask_woken] at hwk
+  obtain ⟨d, hd, hle⟩ := h.pinv.woken_due t0 ht0 hwk
+  rw [startTask_of_some hd]
+  exact ⟨d, hd, hle⟩
 
-/-! ### a timeout removal is reported at most once -/
+/-- the three phases of a loop run after the timers, seen from the state the timers leave -/
+theorem adds_settleRest (s : State) (o : List Obs) :
+    Adds s (settleWishlist (completeSetups s o).1 (completeSetups s o).2).1 :=
+  (adds_completeSetups s o).trans (adds_settleWishlist _ _)
 
-def removedRid : Obs → Option Nat
-  | .removed _ rid _ _ _ => some rid
-  | _ => none
+theorem adds_tickRest (s : State) (o : List Obs) :
+    Adds s (tickWishlist (completeSetups s o).1 (completeSetups s o).2).1 :=
+  (adds_completeSetups s o).trans (adds_tickWishlist _ _)
 
-theorem newRequest_removedRid (s : State) (k : Kind) (to : Option Nat) :
-    (newRequest s k to).2.filterMap removedRid = [] := by
-  unfold newRequest
-  simp only [List.filterMap_append, List.filterMap_map]
-  simp [removedRid, Function.comp_def]
-
-theorem wishlistRound_removedRid (n : Nat) (s : State) (o : List Obs) :
-    (wishlistRound n s o).2.filterMap removedRid = o.filterMap removedRid := by
-  induction n generalizing s o with
-  | zero => rfl
-  | succ n ih => simp only [wishlistRound, ih, List.filterMap_append, newRequest_removedRid, List.append_nil]
-
-theorem settleWishlist_removedRid (s : State) (o : List Obs) :
-    (settleWishlist s o).2.filterMap removedRid = o.filterMap removedRid := by
-  rcases settleWishlist_cases s o with he | ⟨w, _, _, he⟩
-  · rw [he]
-  · rw [he]; exact wishlistRound_removedRid _ _ _
-
-theorem fireAll_obs_eq (F : List TTask) (s : State) (o : List Obs)
-    (hp : F.Pairwise (fun a b => a.id ≠ b.id))
-    (hw : ∀ t ∈ F, ∃ r ∈ s.requests, r.ticket = t.ticket ∧ r.handle = some t.id)
-    (hinj : ∀ r1 ∈ s.requests, ∀ r2 ∈ s.requests, r1.ticket = r2.ticket → r1 = r2) :
-    (fireAll F s o).2 = o ++ F.map (fun t => Obs.removed s.now t.rid t.ticket (t.deadline.getD 0) t.id) := by
-  induction F generalizing s o with
-  | nil => simp [fireAll]
-  | cons t ts ih =>
-    rw [List.pairwise_cons] at hp
-    obtain ⟨rt, hrt, hrt1, hrt2⟩ := hw t (by simp)
-    have hany : s.requests.any (fun r => r.ticket = t.ticket) = true := by
-      rw [List.any_eq_true]; exact ⟨rt, hrt, by simpa using hrt1⟩
-    have hfire : fireTask s t = ({ s with requests := s.requests.filter (fun r => r.ticket ≠ t.ticket) },
-        [Obs.removed s.now t.rid t.ticket (t.deadline.getD 0) t.id]) := by
-      unfold fireTask; rw [if_pos hany]
-    simp only [fireAll, hfire]
-    rw [ih { s with requests := s.requests.filter (fun r => r.ticket ≠ t.ticket) } _ hp.2
-      (by
-        intro t2 ht2
-        obtain ⟨r2, hr2, k1, k2⟩ := hw t2 (by simp [ht2])
-        refine ⟨r2, List.mem_filter.2 ⟨hr2, ?_⟩, k1, k2⟩
-        have : r2.ticket ≠ t.ticket := by
-          intro heq
-          have := hinj r2 hr2 rt hrt (by omega)
-          subst this
-          have : t2.id = t.id := by simpa [k2] using hrt2
-          exact hp.1 t2 ht2 this.symm
-        simpa using this)
-      (by
-        intro r1 h1 r2 h2
-        exact hinj r1 (List.mem_filter.1 h1).1 r2 (List.mem_filter.1 h2).1)]
-    simp [List.append_assoc]
-
-theorem settle_removedRid_nodup {s : State} (h : Inv s) : ((settle s).2.filterMap removedRid).Nodup := by
-  unfold settle
-  rw [settleWishlist_removedRid]
-  have h0 := inv_mapStart s.now h
-  have hF : ∀ t ∈ (s.tasks.map (startTask s.now)).filter (isDue s.now),
-      ∃ r ∈ s.requests, r.rid = t.rid ∧ r.ticket = t.ticket ∧ r.handle = some t.id := by
-    intro t ht
-    obtain ⟨htm, hd⟩ := List.mem_filter.1 ht
-    have hc : t.cancelled = false := by unfold isDue at hd; simp_all
-    exact h0.task_live t htm hc
-  simp only [settleTimers]
-  rw [fireAll_obs_eq _ s [] (h0.task_nodup.filter _)
-    (fun t ht => by obtain ⟨r, hr, _, k2, k3⟩ := hF t ht; exact ⟨r, hr, k2, k3⟩) h.ticket_inj]
-  simp only [List.nil_append, List.filterMap_map]
-  have : (removedRid ∘ fun t : TTask => Obs.removed s.now t.rid t.ticket (t.deadline.getD 0) t.id) = fun t => some t.rid := by
-    funext t; rfl
-  rw [this, List.filterMap_eq_map', List.Nodup, List.pairwise_map]
-  apply List.Pairwise.imp_of_mem _ (h0.task_nodup.filter (isDue s.now))
-  intro a b ha hb hab heq
-  obtain ⟨ra, hra, a1, _, a3⟩ := hF a ha
-  obtain ⟨rb, hrb, b1, _, b3⟩ := hF b hb
-  have := h.req_uniq ra hra rb hrb (by omega)
-  subst this
-  rw [a3] at b3
-  exact hab (by simpa using b3)
-
-theorem step_removedRid_nodup {s : State} (op : Op) (h : Inv s) (hw : NoWrap (step s op).1) :
-    ((step s op).2.filterMap removedRid).Nodup := by
-  by_cases hop : op = .settle
-  · subst hop; exact settle_removedRid_nodup h
-  · have : (step s op).2.filterMap removedRid = [] := by
-      rw [List.filterMap_eq_nil_iff]
-      intro x hx
-      have hok := step_obs op h hw x hx
-      cases x with
-      | removed t r tk dl tid => exact absurd hok.1 hop
-      | _ => rfl
-    rw [this]; exact List.nodup_nil
-
-theorem removed_once (cfg : Cfg) (ops : List Op) (hw : NoWrap (run (init cfg) ops).1) :
-    ((run (init cfg) ops).2.filterMap removedRid).Nodup := by
-  have := run_ind (P := fun s tr => Inv s ∧ (∀ rid ∈ tr.filterMap removedRid, Gone rid s) ∧
-      (tr.filterMap removedRid).Nodup) (G := NoWrap) noWrap_of_step
-    (by
-      intro s tr op ⟨hi, hg, hn⟩ hw
-      have hnew : ∀ rid ∈ (step s op).2.filterMap removedRid,
-          (∃ r ∈ s.requests, r.rid = rid) ∧ Gone rid (step s op).1 := by
-        intro rid hrid
-        obtain ⟨x, hx, hxr⟩ := List.mem_filterMap.1 hrid
-        cases x with
-        | removed t r tk dl tid =>
-          simp only [removedRid, Option.some.injEq] at hxr
-          subst hxr
-          have hok := step_obs op hi hw _ hx
-          obtain ⟨hop, _, _, _, q, hq, hq1, _⟩ := hok
-          subst hop
-          exact ⟨⟨q, hq, hq1⟩, gone_after_timeout hi hw hx⟩
-        | _ => simp [removedRid] at hxr
-      refine ⟨inv_step op hi hw, ?_, ?_⟩
-      · intro rid hrid
-        rw [List.filterMap_append] at hrid
-        rcases List.mem_append.1 hrid with h1 | h1
-        · exact gone_step op (hg rid h1)
-        · exact (hnew rid h1).2
-      · rw [List.filterMap_append, List.nodup_append]
-        refine ⟨hn, step_removedRid_nodup op hi hw, ?_⟩
-        intro a ha b hb hab
-        subst hab
-        obtain ⟨⟨q, hq, hq1⟩, _⟩ := hnew a hb
-        exact (hg a ha).2 q hq hq1)
-    ops (init cfg) [] ⟨inv_init cfg, by simp, by simp⟩ hw
-  simpa using this.2.2
-
-/-! ### timing: not before, not late, on the dot -/
-
-/-- every pending task is un-cancelled, has started, and its deadline lies in the future -/
-def Ahead (s : State) : Prop := ∀ t ∈ s.tasks, t.cancelled = false ∧ ∃ d, t.deadline = some d ∧ s.now < d
-
-/-- no pending un-cancelled task is overdue -/
-def OnTime (s : State) : Prop := ∀ t ∈ s.tasks, t.cancelled = false → ∀ d, t.deadline = some d → s.now ≤ d
-
-theorem wishlistTimeout_pos {s : State} {T : Nat} (h : wishlistTimeout s = some T) : 1 ≤ T := by
-  unfold wishlistTimeout at h
-  simp only [] at h
-  generalize (if s.cfg.wishlistTimeout < 0 then s.wlInterval.getD defaultWishlistInterval
-    else s.cfg.wishlistTimeout.toNat) = v at h
-  by_cases hv : v = 0
-  · simp [hv] at h
-  · simp [hv] at h; omega
-
-theorem newRequest_tasks (s : State) (k : Kind) (to : Option Nat) :
-    ∀ t ∈ (newRequest s k to).1.tasks, t ∈ s.tasks ∨ (t.cancelled = false ∧ t.deadline = none ∧ to = some t.timeout) := by
-  intro t ht
-  rw [newRequest_state] at ht
-  cases to with
-  | none => exact .inl ht
-  | some T =>
-    simp only [timerStart, registered] at ht
-    rcases List.mem_append.1 ht with h | h
-    · exact .inl h
-    · simp at h; subst h; exact .inr ⟨rfl, rfl, rfl⟩
-
-theorem wishlistRound_tasks (n : Nat) (s : State) (o : List Obs) :
-    ∀ t ∈ (wishlistRound n s o).1.tasks, t ∈ s.tasks ∨ (t.cancelled = false ∧ t.deadline = none ∧ 1 ≤ t.timeout) := by
-  induction n generalizing s o with
-  | zero => intro t ht; exact .inl ht
-  | succ n ih =>
-    intro t ht
-    simp only [wishlistRound] at ht
-    rcases ih _ _ t ht with h | h
-    · rcases newRequest_tasks _ _ _ t h with h | ⟨h1, h2, h3⟩
-      · exact .inl h
-      · exact .inr ⟨h1, h2, wishlistTimeout_pos h3⟩
-    · exact .inr h
-
-theorem startTask_deadline (n : Nat) (t : TTask) :
-    (startTask n t).deadline = some (match t.deadline with | none => n + t.timeout | some d => d) := by
-  unfold startTask; split <;> simp_all
+theorem settle_cfg (s : State) : (settle s).1.cfg = s.cfg := by
+  simp only [settle, startAll]
+  rw [(adds_settleRest _ _).cfg, settleTimers_cfg]
 
 theorem settle_now (s : State) : (settle s).1.now = s.now := by
-  unfold settle
-  rcases settleWishlist_cases (settleTimers s).1 (settleTimers s).2 with he | ⟨w, _, _, he⟩
-  · rw [he, settleTimers_now]
-  · rw [he]; simp [wishlistRound_now, settleTimers_now]
+  simp only [settle, startAll]
+  rw [(adds_settleRest _ _).now, settleTimers_now]
 
-/-- **not late**: when the loop has run, whatever is still pending is not yet due -/
-theorem settle_ahead (s : State) : Ahead (settle s).1 := by
-  have hT : ∀ t ∈ (settleTimers s).1.tasks, t.cancelled = false ∧ ∃ d, t.deadline = some d ∧ s.now < d := by
-    intro t ht
-    rw [settleTimers_state] at ht
-    obtain ⟨htm, hnf⟩ := List.mem_filter.1 ht
-    obtain ⟨t0, _, rfl⟩ := List.mem_map.1 htm
-    unfold isFinishing reached at hnf
-    rw [startTask_deadline] at hnf ⊢
-    simp only [Bool.not_or, Bool.and_eq_true, Bool.not_eq_true', decide_eq_false_iff_not] at hnf
-    exact ⟨hnf.1, _, rfl, by omega⟩
-  intro t ht
-  rw [settle_now]
-  unfold settle at ht
-  rcases settleWishlist_cases (settleTimers s).1 (settleTimers s).2 with he | ⟨w, _, _, he⟩
-  · rw [he] at ht; exact hT t ht
-  · rw [he] at ht
-    simp only [] at ht
-    obtain ⟨t0, ht0, rfl⟩ := List.mem_map.1 ht
-    rw [settleTimers_now]
-    rcases wishlistRound_tasks _ _ _ t0 ht0 with h | ⟨h1, h2, h3⟩
-    · obtain ⟨k1, d, k2, k3⟩ := hT t0 h
-      rw [startTask_deadline, k2]
-      exact ⟨by simpa using k1, d, rfl, k3⟩
-    · rw [startTask_deadline, h2]
-      exact ⟨by simpa using h1, _, rfl, by show s.now < s.now + t0.timeout; omega⟩
+theorem settle_draws (s : State) : s.draws ≤ (settle s).1.draws := by
+  simp only [settle, startAll]
+  have := (adds_settleRest (settleTimers s).1 (settleTimers s).2).draws
+  rw [settleTimers_draws] at this; exact this
 
-theorem removed_mem_wishlistRound (n : Nat) (s : State) (o : List Obs) {t rid tk dl tid : Nat}
-    (hx : Obs.removed t rid tk dl tid ∈ (wishlistRound n s o).2) : Obs.removed t rid tk dl tid ∈ o := by
-  induction n generalizing s o with
-  | zero => exact hx
-  | succ n ih =>
-    simp only [wishlistRound] at hx
-    have := ih _ _ hx
-    rcases List.mem_append.1 this with h | h
-    · exact h
-    · unfold newRequest at h; simp at h
+theorem tick_cfg (s : State) : (tick s).1.cfg = s.cfg := by
+  simp only [tick]
+  rw [(adds_tickRest _ _).cfg, tickTimers_cfg]
 
-theorem removed_mem_settle (s : State) {t rid tk dl tid : Nat} (hx : Obs.removed t rid tk dl tid ∈ (settle s).2) :
-    ∃ t0 ∈ s.tasks, t0.cancelled = false ∧ t = s.now ∧ (startTask s.now t0).deadline = some dl ∧ dl ≤ s.now ∧
-      t0.id = tid ∧ t0.rid = rid := by
-  unfold settle at hx
-  have hx' : Obs.removed t rid tk dl tid ∈ (settleTimers s).2 := by
-    rcases settleWishlist_cases (settleTimers s).1 (settleTimers s).2 with he | ⟨w, _, _, he⟩
-    · rw [he] at hx; exact hx
-    · rw [he] at hx; exact removed_mem_wishlistRound _ _ _ hx
-  simp only [settleTimers] at hx'
-  rcases fireAll_obs_mem _ _ _ _ hx' with h | ⟨f, hf, h | h⟩
-  · cases h
-  · obtain ⟨hfm, hd⟩ := List.mem_filter.1 hf
-    obtain ⟨t0, ht0, rfl⟩ := List.mem_map.1 hfm
-    unfold isDue reached at hd
-    rw [startTask_deadline] at hd h
-    simp only [Bool.and_eq_true, Bool.not_eq_true', decide_eq_true_eq, startTask_cancelled] at hd
-    simp only [Option.getD_some, Obs.removed.injEq, startTask_rid, startTask_ticket, startTask_id] at h
-    obtain ⟨h1, h2, _, h4, h5⟩ := h
-    refine ⟨t0, ht0, hd.1, h1, ?_, ?_, h5.symm, h2.symm⟩
-    · rw [startTask_deadline, h4]
-    · rw [h4]; exact hd.2
-  · cases h
+theorem tick_now (s : State) : (tick s).1.now = s.now := by
+  simp only [tick]
+  rw [(adds_tickRest _ _).now, tickTimers_now]
 
-/-- **on the dot**: if nothing pending is overdue, a removal reported by this run of the loop happens
-exactly at its deadline -/
-theorem settle_exact {s : State} (h : OnTime s) {t rid tk dl tid : Nat}
-    (hx : Obs.removed t rid tk dl tid ∈ (settle s).2) : t = dl := by
-  obtain ⟨t0, ht0, hc, rfl, hd, hle, _⟩ := removed_mem_settle s hx
-  rw [startTask_deadline] at hd
-  cases h0 : t0.deadline with
-  | none => rw [h0] at hd; simp at hd; omega
-  | some d =>
-    rw [h0] at hd; simp at hd
-    have := h t0 ht0 hc d h0
-    omega
+theorem tick_draws (s : State) : s.draws ≤ (tick s).1.draws := by
+  simp only [tick]
+  have := (adds_tickRest (tickTimers s).1 (tickTimers s).2).draws
+  rw [tickTimers_draws] at this; exact this
 
-theorem onTime_of_ahead_jump1 {s : State} (h : Ahead s) : OnTime (step s (.jump 1)).1 := by
-  intro t ht _ d hd
-  obtain ⟨_, d', h1, h2⟩ := h t ht
-  simp only [step] at hd ⊢
-  rw [h1] at hd; cases hd; omega
+theorem sentOk_of_timers {s s1 : State} {x : Obs} (h1 : s1.now = s.now) (h2 : s1.cfg = s.cfg) (h3 : s1.draws = s.draws)
+    (h4 : s1.pending = s.pending) (hx : SentOk s1 x) : SentOk s x := by
+  obtain ⟨rid, he, hr⟩ := hx
+  rw [h1, h2] at he
+  rw [h3, h4] at hr
+  exact ⟨rid, he, hr⟩
 
-theorem removed_is_settle (s : State) (op : Op) {t rid tk dl tid : Nat}
-    (hx : Obs.removed t rid tk dl tid ∈ (step s op).2) : op = .settle := by
-  cases op <;> simp only [step] at hx
-  · unfold newRequest at hx; simp at hx
-  · cases hx
-  · cases hx
-  · split at hx <;> simp at hx
-  · split at hx <;> simp at hx
-  · split at hx
-    · simp at hx
-    · split at hx <;> simp at hx
-  · split at hx
-    · simp at hx
-    · split at hx <;> simp at hx
-  · cases hx
-  · rfl
+theorem ok_settle {s : State} (h : SInv s) (hw : NoWrap (settle s).1) :
+    SInv (settle s).1 ∧ ∀ x ∈ (settle s).2,
+      (∃ t rid tk dl tid, x = Obs.removed t rid tk dl tid ∧ RemovedOk s t rid tk dl tid) ∨ SentOk s x := by
+  simp only [settle] at hw ⊢
+  have hw2 : NoWrap (settleWishlist (completeSetups (settleTimers s).1 (settleTimers s).2).1
+      (completeSetups (settleTimers s).1 (settleTimers s).2).2).1 := hw
+  have hw1 : NoWrap (completeSetups (settleTimers s).1 (settleTimers s).2).1 :=
+    noWrap_of_adds (adds_settleWishlist _ _) hw2
+  have h0 := sinv_settleTimers h
+  obtain ⟨h1, o1⟩ := ok_completeSetups (settleTimers s).2 h0 hw1
+  obtain ⟨h2, o2⟩ := ok_settleWishlist _ h1 hw2
+  refine ⟨sinv_startAll h2, ?_⟩
+  intro x hx
+  have back : ∀ y, SentOk (settleTimers s).1 y → SentOk s y := fun y hy =>
+    sentOk_of_timers (settleTimers_now s) (settleTimers_cfg s) (settleTimers_draws s) (settleTimers_pending s) hy
+  rcases o2 x hx with hx | hx
+  · rcases o1 x hx with hx | hx
+    · exact .inl (settleTimers_obs h x hx)
+    · exact .inr (back x hx)
+  · exact .inr (back x (hx.mono (adds_completeSetups _ _)))
 
-theorem sleep_exact (d : Nat) {s : State} (h : OnTime s) :
-    (∀ t rid tk dl tid, Obs.removed t rid tk dl tid ∈ (run s (sleepOps d)).2 → t = dl) ∧
-    Ahead (run s (sleepOps d)).1 := by
-  induction d generalizing s with
-  | zero =>
-    simp only [sleepOps, run_cons, run_nil, List.append_nil]
-    exact ⟨fun t rid tk dl tid hx => settle_exact h hx, settle_ahead s⟩
-  | succ d ih =>
-    simp only [sleepOps, run_cons]
-    have h1 : OnTime (step (step s .settle).1 (.jump 1)).1 := onTime_of_ahead_jump1 (settle_ahead s)
-    obtain ⟨ih1, ih2⟩ := ih h1
-    refine ⟨?_, ih2⟩
-    intro t rid tk dl tid hx
-    rcases List.mem_append.1 hx with hx | hx
-    · exact settle_exact h hx
-    · rcases List.mem_append.1 hx with hx | hx
-      · cases hx
-      · exact ih1 t rid tk dl tid hx
+theorem ok_tick {s : State} (h : SInv s) (hw : NoWrap (tick s).1) :
+    SInv (tick s).1 ∧ ∀ x ∈ (tick s).2,
+      (∃ t rid tk dl tid, x = Obs.removed t rid tk dl tid ∧ RemovedOk s t rid tk dl tid) ∨ SentOk s x := by
+  simp only [tick] at hw ⊢
+  have hw1 : NoWrap (completeSetups (tickTimers s).1 (tickTimers s).2).1 :=
+    noWrap_of_adds (adds_tickWishlist _ _) hw
+  have h0 := sinv_tickTimers h
+  obtain ⟨h1, o1⟩ := ok_completeSetups (tickTimers s).2 h0 hw1
+  obtain ⟨h2, o2⟩ := ok_tickWishlist _ h1 hw
+  refine ⟨h2, ?_⟩
+  intro x hx
+  have back : ∀ y, SentOk (tickTimers s).1 y → SentOk s y := fun y hy =>
+    sentOk_of_timers (tickTimers_now s) (tickTimers_cfg s) (tickTimers_draws s) (tickTimers_pending s) hy
+  rcases o2 x hx with hx | hx
+  · rcases o1 x hx with hx | hx
+    · exact .inl (tickTimers_obs h x hx)
+    · exact .inr (back x hx)
+  · exact .inr (back x (hx.mono (adds_completeSetups _ _)))
 
-/-! ### reachable states; the ticket generator -/
 
-theorem reach_inv (cfg : Cfg) (ops : List Op) (hw : NoWrap (run (init cfg) ops).1) : Inv (run (init cfg) ops).1 := by
-  have := run_ind (P := fun s _ => Inv s) (G := NoWrap) noWrap_of_step
-    (fun s _ op hi hw => inv_step op hi hw) ops (init cfg) [] (inv_init cfg) hw
-  exact this
-
-/-- every observation of a history without a generator wrap is one a step may report (`ObsOk`) -/
-theorem reach_obs (cfg : Cfg) (ops : List Op) (hw : NoWrap (run (init cfg) ops).1) :
-    ∀ x ∈ (run (init cfg) ops).2, (∀ t rid tk tid, x ≠ .loopErr t rid tk tid) ∧ (∀ a b, x ≠ .clobber a b) := by
-  have := run_ind (P := fun s tr => Inv s ∧ ∀ x ∈ tr, (∀ t rid tk tid, x ≠ .loopErr t rid tk tid) ∧
-      (∀ a b, x ≠ .clobber a b)) (G := NoWrap) noWrap_of_step
-    (by
-      intro s tr op ⟨hi, ht⟩ hw
-      refine ⟨inv_step op hi hw, ?_⟩
-      intro x hx
-      rcases List.mem_append.1 hx with hx | hx
-      · exact ht x hx
-      · have hok := step_obs op hi hw x hx
-        constructor
-        · intro t rid tk tid hc; subst hc; exact hok
-        · intro a b hc; subst hc; exact hok)
-    ops (init cfg) [] ⟨inv_init cfg, by simp⟩ hw
-  simpa using this.2
-
-/-- the `n`-th output of `ticket_generator(initial)` (`n = 0`: the start value, never handed out) -/
-def ticketAt (initial : Nat) : Nat → Nat
-  | 0 => initial
-  | n + 1 => nextTicket initial (ticketAt initial n)
-
-theorem ticketAt_default (n : Nat) : ticketAt defaultInitial n = n % maxTicket + 1 := by
-  induction n with
-  | zero => rfl
-  | succ n ih =>
-    simp only [ticketAt, ih, nextTicket]
-    have hm : maxTicket = 4294967295 := rfl
-    have hi : defaultInitial = 1 := rfl
-    rw [hm, hi]
-    split <;> omega
-
-/-! ## The removal report (`nstep`): each registered listener is told of a removal exactly once, and the
-reporting task is never cancelled -/
-
-/-! ### task ids are never re-used -/
+/-! ### what any step does to the identities: requests, set-ups, task ids -/
 
 /-- `s'` has at least the task-id counter of `s`, and every pending task of `s'` carries the id of a pending task
 of `s` or a fresh one -/
@@ -1551,16 +916,12 @@ theorem grows_timerStart (s : State) (rid tk T : Nat) : Grows s (timerStart s ri
   · exact .inl ⟨t, h, rfl⟩
   · simp at h; subst h; exact .inr (Nat.le_refl _)
 
-theorem grows_newRequest (s : State) (k : Kind) (to : Option Nat) : Grows s (newRequest s k to).1 := by
-  rw [newRequest_state]
-  cases to with
-  | none => exact grows_of_eq rfl rfl
-  | some T => exact (grows_of_eq (s' := registered s k (some T)) rfl rfl).trans (grows_timerStart _ _ _ _)
-
-theorem grows_wishlistRound (n : Nat) (s : State) (o : List Obs) : Grows s (wishlistRound n s o).1 := by
-  induction n generalizing s o with
-  | zero => exact Grows.refl s
-  | succ n ih => simp only [wishlistRound]; exact (grows_newRequest s _ _).trans (ih _ _)
+theorem grows_of_adds {s s' : State} (h : Adds s s') : Grows s s' := by
+  refine ⟨h.nextTask, ?_⟩
+  intro t ht
+  rcases h.tasks t ht with h0 | ⟨h1, _⟩
+  · exact .inl ⟨t, h0, rfl⟩
+  · exact .inr h1
 
 theorem grows_settleTimers (s : State) : Grows s (settleTimers s).1 := by
   rw [settleTimers_state]
@@ -1569,75 +930,1012 @@ theorem grows_settleTimers (s : State) : Grows s (settleTimers s).1 := by
   obtain ⟨t0, ht0, rfl⟩ := List.mem_map.1 (List.mem_filter.1 ht).1
   exact .inl ⟨t0, ht0, by simp⟩
 
-theorem grows_mapStart (s : State) (n : Nat) : Grows s { s with tasks := s.tasks.map (startTask n) } := by
+theorem grows_tickTimers (s : State) : Grows s (tickTimers s).1 := by
+  rw [tickTimers_state]
+  refine ⟨Nat.le_refl _, ?_⟩
+  intro t ht
+  obtain ⟨t0, ht0, rfl⟩ := List.mem_map.1 ht
+  exact .inl ⟨t0, (List.mem_filter.1 ht0).1, by simp⟩
+
+theorem grows_startAll (s : State) : Grows s (startAll s) := by
   refine ⟨Nat.le_refl _, ?_⟩
   intro t ht
   obtain ⟨t0, ht0, rfl⟩ := List.mem_map.1 ht
   exact .inl ⟨t0, ht0, by simp⟩
 
-theorem grows_settleWishlist (s : State) (o : List Obs) : Grows s (settleWishlist s o).1 := by
-  rcases settleWishlist_cases s o with he | ⟨w, _, _, he⟩
-  · rw [he]; exact Grows.refl s
-  · rw [he]
-    refine (grows_wishlistRound s.cfg.items s o).trans ?_
-    refine ⟨Nat.le_refl _, ?_⟩
-    intro t ht
-    obtain ⟨t0, ht0, rfl⟩ := List.mem_map.1 ht
-    exact .inl ⟨t0, ht0, by simp⟩
+/-- every request of `b` has the `rid` of a request of `a`, or is new (`rid > d`) -/
+def RidsFrom (a : List Req) (d : Nat) (b : List Req) : Prop := ∀ r' ∈ b, (∃ r ∈ a, r.rid = r'.rid) ∨ d < r'.rid
 
-theorem grows_settle (s : State) : Grows s (settle s).1 := by
-  unfold settle
-  exact (grows_settleTimers s).trans (grows_settleWishlist _ _)
+theorem RidsFrom.refl (a : List Req) (d : Nat) : RidsFrom a d a := fun r' h => .inl ⟨r', h, rfl⟩
 
-theorem grows_step (s : State) (op : Op) : Grows s (step s op).1 := by
+theorem RidsFrom.map {a b : List Req} {d : Nat} (h : RidsFrom a d b) (f : Req → Req) (hf : ∀ r, (f r).rid = r.rid) :
+    RidsFrom a d (b.map f) := by
+  intro r' hr'
+  obtain ⟨q, hq, rfl⟩ := List.mem_map.1 hr'
+  rw [hf]; exact h q hq
+
+theorem RidsFrom.filter {a b : List Req} {d : Nat} (h : RidsFrom a d b) (p : Req → Bool) :
+    RidsFrom a d (b.filter p) := fun r' hr' => h r' (List.mem_filter.1 hr').1
+
+theorem RidsFrom.trans {a b c : List Req} {d d' : Nat} (h1 : RidsFrom a d b) (h2 : RidsFrom b d' c) (hd : d ≤ d') :
+    RidsFrom a d c := by
+  intro r' hr'
+  rcases h2 r' hr' with ⟨q, hq, he⟩ | hlt
+  · rcases h1 q hq with ⟨p, hp, he'⟩ | hlt
+    · exact .inl ⟨p, hp, by omega⟩
+    · exact .inr (by omega)
+  · exact .inr (by omega)
+
+theorem ridsFrom_setHandle (a : List Req) (d rid : Nat) (h : Option Nat) : RidsFrom a d (setHandle a rid h) :=
+  (RidsFrom.refl a d).map _ (by intro r; split <;> rfl)
+
+theorem ridsFrom_setTimeout (a : List Req) (d rid n : Nat) : RidsFrom a d (setTimeout a rid n) :=
+  (RidsFrom.refl a d).map _ (by intro r; split <;> rfl)
+
+theorem ridsFrom_timerCancel (s : State) (rid : Nat) (h : Option Nat) :
+    RidsFrom s.requests s.draws (timerCancel s rid h).requests := by
+  cases h with
+  | none => exact RidsFrom.refl _ _
+  | some id => exact ridsFrom_setHandle _ _ _ _
+
+/-- what any step may do, as far as identities go: requests come from requests, from set-ups or from fresh draws;
+set-ups from set-ups or fresh draws; task ids are never re-used; the clock does not go back -/
+structure Evolves (s s' : State) : Prop where
+  cfg : s'.cfg = s.cfg
+  draws : s.draws ≤ s'.draws
+  now : s.now ≤ s'.now
+  reqs : ∀ r' ∈ s'.requests, (∃ r ∈ s.requests, r.rid = r'.rid) ∨ (∃ p ∈ s.pending, p.rid = r'.rid) ∨ s.draws < r'.rid
+  pend : ∀ p' ∈ s'.pending, (∃ p ∈ s.pending, p.rid = p'.rid) ∨ s.draws < p'.rid
+  grows : Grows s s'
+
+theorem Evolves.refl (s : State) : Evolves s s :=
+  ⟨rfl, Nat.le_refl _, Nat.le_refl _, fun r h => .inl ⟨r, h, rfl⟩, fun p h => .inl ⟨p, h, rfl⟩, Grows.refl s⟩
+
+theorem Evolves.trans {a b c : State} (h1 : Evolves a b) (h2 : Evolves b c) : Evolves a c := by
+  refine ⟨h2.cfg.trans h1.cfg, Nat.le_trans h1.draws h2.draws, Nat.le_trans h1.now h2.now, ?_, ?_, h1.grows.trans h2.grows⟩
+  · intro r' hr'
+    rcases h2.reqs r' hr' with ⟨r, hr, he⟩ | ⟨p, hp, he⟩ | hlt
+    · rcases h1.reqs r hr with ⟨r0, hr0, he0⟩ | ⟨p0, hp0, he0⟩ | hlt
+      · exact .inl ⟨r0, hr0, by omega⟩
+      · exact .inr (.inl ⟨p0, hp0, by omega⟩)
+      · exact .inr (.inr (by omega))
+    · rcases h1.pend p hp with ⟨p0, hp0, he0⟩ | hlt
+      · exact .inr (.inl ⟨p0, hp0, by omega⟩)
+      · exact .inr (.inr (by omega))
+    · exact .inr (.inr (by have := h1.draws; omega))
+  · intro p' hp'
+    rcases h2.pend p' hp' with ⟨p, hp, he⟩ | hlt
+    · rcases h1.pend p hp with ⟨p0, hp0, he0⟩ | hlt
+      · exact .inl ⟨p0, hp0, by omega⟩
+      · exact .inr (by omega)
+    · exact .inr (by have := h1.draws; omega)
+
+theorem evolves_of_adds {s s' : State} (h : Adds s s') : Evolves s s' :=
+  ⟨h.cfg, h.draws, by rw [h.now]; exact Nat.le_refl _, h.reqs, h.pend, grows_of_adds h⟩
+
+/-- a step that leaves the set-ups alone and whose requests all come from requests -/
+theorem evolves_of_rids {s s' : State} (h1 : s'.cfg = s.cfg) (h2 : s'.draws = s.draws) (h3 : s.now ≤ s'.now)
+    (h4 : RidsFrom s.requests s.draws s'.requests) (h5 : ∀ p' ∈ s'.pending, p' ∈ s.pending) (h6 : Grows s s') :
+    Evolves s s' := by
+  refine ⟨h1, by omega, h3, ?_, fun p' hp' => .inl ⟨p', h5 p' hp', rfl⟩, h6⟩
+  intro r' hr'
+  rcases h4 r' hr' with h | h
+  · exact .inl h
+  · exact .inr (.inr h)
+
+theorem evolves_settleTimers (s : State) : Evolves s (settleTimers s).1 :=
+  evolves_of_rids (settleTimers_cfg s) (settleTimers_draws s) (by rw [settleTimers_now]; exact Nat.le_refl _)
+    (fun r' hr' => .inl (settleTimers_reqs s r' hr')) (by rw [settleTimers_pending]; exact fun _ h => h)
+    (grows_settleTimers s)
+
+theorem evolves_tickTimers (s : State) : Evolves s (tickTimers s).1 :=
+  evolves_of_rids (tickTimers_cfg s) (tickTimers_draws s) (by rw [tickTimers_now]; exact Nat.le_refl _)
+    (fun r' hr' => .inl (tickTimers_reqs s r' hr')) (by rw [tickTimers_pending]; exact fun _ h => h)
+    (grows_tickTimers s)
+
+theorem evolves_startAll (s : State) : Evolves s (startAll s) :=
+  evolves_of_rids rfl rfl (Nat.le_refl _) (RidsFrom.refl _ _) (fun _ h => h) (grows_startAll s)
+
+theorem evolves_settle (s : State) : Evolves s (settle s).1 := by
+  simp only [settle]
+  exact ((evolves_settleTimers s).trans (evolves_of_adds (adds_settleRest _ _))).trans (evolves_startAll _)
+
+theorem evolves_tick (s : State) : Evolves s (tick s).1 := by
+  simp only [tick]
+  exact (evolves_tickTimers s).trans (evolves_of_adds (adds_tickRest _ _))
+
+theorem mem_setOutcome {ps : List Setup} {rid : Nat} {b : Bool} {p' : Setup} (h : p' ∈ setOutcome ps rid b) :
+    ∃ p ∈ ps, p.rid = p'.rid ∧ p.ticket = p'.ticket ∧ p.kind = p'.kind := by
+  unfold setOutcome at h
+  obtain ⟨q, hq, rfl⟩ := List.mem_map.1 h
+  refine ⟨q, hq, ?_⟩
+  split <;> exact ⟨rfl, rfl, rfl⟩
+
+theorem evolves_step (s : State) (op : Op) : Evolves s (step s op).1 := by
   cases op with
-  | search k => exact grows_newRequest s _ _
-  | wlInterval n => exact grows_of_eq rfl rfl
-  | serverClosing => exact grows_of_eq rfl rfl
-  | jump d => exact grows_of_eq rfl rfl
-  | settle => exact grows_settle s
+  | search k =>
+    simp only [step]
+    split
+    · exact evolves_of_adds (adds_beginSetup s k)
+    · exact evolves_of_adds (adds_newRequest s k _ (fun T h => requestTimeout_pos h))
+  | wlInterval n =>
+    exact evolves_of_rids rfl rfl (Nat.le_refl _) (RidsFrom.refl _ _)
+      (fun p' hp' => (List.mem_filter.1 hp').1) (grows_of_eq rfl rfl)
+  | serverClosing =>
+    exact evolves_of_rids rfl rfl (Nat.le_refl _) (RidsFrom.refl _ _)
+      (fun p' hp' => (List.mem_filter.1 hp').1) (grows_of_eq rfl rfl)
+  | jump d =>
+    exact evolves_of_rids rfl rfl (by simp [step]) (RidsFrom.refl _ _) (fun _ h => h) (grows_of_eq rfl rfl)
+  | gate b => exact evolves_of_rids rfl rfl (Nat.le_refl _) (RidsFrom.refl _ _) (fun _ h => h) (grows_of_eq rfl rfl)
+  | settle => exact evolves_settle s
+  | tick => exact evolves_tick s
+  | sendDone tk ok =>
+    simp only [step]
+    split
+    · exact Evolves.refl s
+    · refine ⟨rfl, Nat.le_refl _, Nat.le_refl _, fun r h => .inl ⟨r, h, rfl⟩, ?_, grows_of_eq rfl rfl⟩
+      intro p' hp'
+      obtain ⟨p, hp, h1, _⟩ := mem_setOutcome hp'
+      exact .inl ⟨p, hp, h1⟩
+  | cancelCall tk =>
+    simp only [step]
+    split
+    · exact Evolves.refl s
+    · refine ⟨rfl, Nat.le_refl _, Nat.le_refl _, fun r h => .inl ⟨r, h, rfl⟩, ?_, grows_of_eq rfl rfl⟩
+      intro p' hp'
+      obtain ⟨p, hp, h1, _⟩ := mem_setOutcome hp'
+      exact .inl ⟨p, hp, h1⟩
   | remove tk =>
     simp only [step]
     cases hl : lookup s tk with
-    | none => exact Grows.refl s
+    | none => exact Evolves.refl s
     | some r =>
       cases hto : r.timeout with
-      | none => simp only [hto]; exact grows_of_eq rfl rfl
+      | none =>
+        simp only [hto]
+        exact evolves_of_rids rfl rfl (Nat.le_refl _) ((RidsFrom.refl s.requests s.draws).filter _) (fun _ h => h)
+          (grows_of_eq rfl rfl)
       | some T =>
         simp only [hto]
-        exact (grows_of_eq (s' := { s with requests := s.requests.filter (fun q => q.ticket ≠ tk) }) rfl rfl).trans
-          (grows_timerCancel _ _ _)
+        refine evolves_of_rids (by cases r.handle <;> rfl) (by cases r.handle <;> rfl)
+          (by cases r.handle <;> exact Nat.le_refl _) ?_ (by cases r.handle <;> exact fun _ h => h) ?_
+        · exact ((RidsFrom.refl s.requests s.draws).filter _).trans (ridsFrom_timerCancel _ _ _) (Nat.le_refl _)
+        · exact (grows_of_eq (s' := { s with requests := s.requests.filter (fun q => q.ticket ≠ tk) }) rfl rfl).trans
+            (grows_timerCancel _ _ _)
   | reply tk =>
     simp only [step]
     cases hl : lookup s tk with
-    | none => exact Grows.refl s
-    | some r => exact grows_of_eq rfl rfl
+    | none => exact Evolves.refl s
+    | some r =>
+      simp only []
+      refine evolves_of_rids rfl rfl (Nat.le_refl _) ?_ (fun _ h => h) (grows_of_eq rfl rfl)
+      simp only []
+      split
+      · exact (RidsFrom.refl _ _).map _ (by intro r; split <;> rfl)
+      · exact RidsFrom.refl _ _
   | timerCancel tk =>
     simp only [step]
     cases hl : lookup s tk with
-    | none => exact Grows.refl s
+    | none => exact Evolves.refl s
     | some r =>
       cases hto : r.timeout with
-      | none => simp only [hto]; exact Grows.refl s
-      | some T => simp only [hto]; exact grows_timerCancel s _ _
+      | none => simp only [hto]; exact Evolves.refl s
+      | some T =>
+        simp only [hto]
+        exact evolves_of_rids (by cases r.handle <;> rfl) (by cases r.handle <;> rfl)
+          (by cases r.handle <;> exact Nat.le_refl _) (ridsFrom_timerCancel s r.rid r.handle)
+          (by cases r.handle <;> exact fun _ h => h) (grows_timerCancel s _ _)
   | timerReschedule tk n =>
     simp only [step]
     cases hl : lookup s tk with
-    | none => exact Grows.refl s
+    | none => exact Evolves.refl s
     | some r =>
       cases hto : r.timeout with
-      | none => simp only [hto]; exact Grows.refl s
+      | none => simp only [hto]; exact Evolves.refl s
       | some T =>
         simp only [hto]
-        exact ((grows_timerCancel s r.rid r.handle).trans
-          (grows_of_eq (s' := { (timerCancel s r.rid r.handle) with
-            requests := setTimeout (timerCancel s r.rid r.handle).requests r.rid n }) rfl rfl)).trans
-          (grows_timerStart _ _ _ _)
+        refine evolves_of_rids (by cases r.handle <;> rfl) (by cases r.handle <;> rfl)
+          (by cases r.handle <;> exact Nat.le_refl _) ?_ (by cases r.handle <;> exact fun _ h => h) ?_
+        · simp only [timerStart]
+          exact ((ridsFrom_timerCancel s r.rid r.handle).trans (ridsFrom_setTimeout _ s.draws _ _) (Nat.le_refl _)).trans
+            (ridsFrom_setHandle _ s.draws _ _) (Nat.le_refl _)
+        · exact ((grows_timerCancel s r.rid r.handle).trans
+            (grows_of_eq (s' := { (timerCancel s r.rid r.handle) with
+              requests := setTimeout (timerCancel s r.rid r.handle).requests r.rid n }) rfl rfl)).trans
+            (grows_timerStart _ _ _ _)
+
+theorem step_cfg (s : State) (op : Op) : (step s op).1.cfg = s.cfg := (evolves_step s op).cfg
+theorem step_draws (s : State) (op : Op) : s.draws ≤ (step s op).1.draws := (evolves_step s op).draws
+theorem grows_step (s : State) (op : Op) : Grows s (step s op).1 := (evolves_step s op).grows
+
+theorem noWrap_of_step (s : State) (op : Op) (h : NoWrap (step s op).1) : NoWrap s := by
+  unfold NoWrap at h ⊢
+  rw [step_cfg] at h
+  have := step_draws s op
+  omega
+
+
+/-! ### every step keeps the invariant -/
+
+@[simp] theorem markCancelled_woken (i : Nat) (t : TTask) : (markCancelled i t).woken = t.woken := by
+  unfold markCancelled; split <;> rfl
+@[simp] theorem markCancelled_deadline (i : Nat) (t : TTask) : (markCancelled i t).deadline = t.deadline := by
+  unfold markCancelled; split <;> rfl
+
+/-- the woken tasks of `s'` are woken tasks of `s` (same deadline) -/
+def WokenFrom (s s' : State) : Prop :=
+  ∀ t' ∈ s'.tasks, t'.woken = true → ∃ t ∈ s.tasks, t.woken = true ∧ t.deadline = t'.deadline
+
+theorem wokenFrom_timerCancel (s : State) (rid : Nat) (h : Option Nat) : WokenFrom s (timerCancel s rid h) := by
+  cases h with
+  | none => exact fun t ht hw => ⟨t, ht, hw, rfl⟩
+  | some id =>
+    rw [timerCancel_some]
+    intro t ht hw
+    obtain ⟨t0, ht0, rfl⟩ := List.mem_map.1 ht
+    exact ⟨t0, ht0, by simpa using hw, by simp⟩
+
+theorem pinv_of_wokenFrom {s s' : State} (h : PInv s) (h1 : s'.cfg = s.cfg) (h2 : s.draws ≤ s'.draws)
+    (h3 : s.now ≤ s'.now) (h6 : s'.pending = s.pending)
+    (hr : RidsFrom s.requests s.draws s'.requests) (hw : WokenFrom s s') : PInv s' := by
+  apply pinv_of_rids h h1 h2 h6 hr
+  intro t' ht' hwk
+  obtain ⟨t, ht, k1, k2⟩ := hw t' ht' hwk
+  obtain ⟨d, hd, hle⟩ := h.woken_due t ht k1
+  exact ⟨d, by rw [← k2]; exact hd, by omega⟩
+
+theorem pinv_subPending {s : State} (h : PInv s) (f : Setup → Bool) :
+    PInv { s with pending := s.pending.filter f } := by
+  obtain ⟨pa, pb, pc, pd⟩ := h
+  constructor <;> simp only []
+  · intro p hp; exact pa p (List.mem_filter.1 hp).1
+  · exact pb.filter _
+  · intro p hp; exact pc p (List.mem_filter.1 hp).1
+  · exact pd
+
+theorem pinv_setOutcome {s : State} (h : PInv s) (rid : Nat) (b : Bool) :
+    PInv { s with pending := setOutcome s.pending rid b } := by
+  obtain ⟨pa, pb, pc, pd⟩ := h
+  constructor <;> simp only []
+  · intro p' hp'
+    obtain ⟨p, hp, h1, h2, _⟩ := mem_setOutcome hp'
+    have := pa p hp
+    omega
+  · unfold setOutcome
+    rw [List.pairwise_map]
+    apply pb.imp
+    intro a b hab
+    split <;> split <;> exact hab
+  · intro p' hp' r hr
+    obtain ⟨p, hp, h1, _⟩ := mem_setOutcome hp'
+    have := pc p hp r hr
+    omega
+  · exact pd
+
+theorem sinv_cancelWishlist {s : State} (h : SInv s) : SInv (cancelWishlist s) :=
+  ⟨inv_congr h.inv rfl rfl rfl rfl rfl rfl, pinv_congr (pinv_subPending h.pinv _) rfl rfl rfl rfl rfl rfl⟩
+
+theorem sinv_step {s : State} (op : Op) (h : SInv s) (hw : NoWrap (step s op).1) : SInv (step s op).1 := by
+  cases op with
+  | search k =>
+    simp only [step] at hw ⊢
+    by_cases hg : s.gated = true
+    · simp only [hg, if_true] at hw ⊢; exact sinv_beginSetup h k hw
+    · simp only [hg, if_false] at hw ⊢; exact sinv_newRequest h k _ hw
+  | wlInterval n => exact sinv_congr (sinv_cancelWishlist h) rfl rfl rfl rfl rfl rfl rfl rfl
+  | serverClosing => exact sinv_cancelWishlist h
+  | gate b => exact sinv_congr h rfl rfl rfl rfl rfl rfl rfl rfl
+  | settle => exact (ok_settle h hw).1
+  | tick => exact (ok_tick h hw).1
+  | jump d =>
+    refine ⟨inv_congr h.inv rfl rfl rfl rfl rfl rfl, ?_⟩
+    exact pinv_of_wokenFrom (s' := (step s (.jump d)).1) h.pinv rfl (Nat.le_refl _) (by simp [step]) rfl
+      (RidsFrom.refl _ _) (fun t ht hw => ⟨t, ht, hw, rfl⟩)
+  | sendDone tk ok =>
+    simp only [step]
+    split
+    · exact h
+    · exact ⟨inv_congr h.inv rfl rfl rfl rfl rfl rfl, pinv_setOutcome h.pinv _ _⟩
+  | cancelCall tk =>
+    simp only [step]
+    split
+    · exact h
+    · exact ⟨inv_congr h.inv rfl rfl rfl rfl rfl rfl, pinv_setOutcome h.pinv _ _⟩
+  | remove tk =>
+    cases hl : lookup s tk with
+    | none => simpa [step, hl] using h
+    | some r =>
+      refine ⟨inv_remove h.inv tk r hl, ?_⟩
+      have hev := evolves_step s (.remove tk)
+      simp only [step, hl] at hev ⊢
+      cases hto : r.timeout with
+      | none =>
+        simp only [hto]
+        exact pinv_of_wokenFrom (s' := { s with requests := s.requests.filter (fun q => q.ticket ≠ tk) }) h.pinv rfl
+          (Nat.le_refl _) (Nat.le_refl _) rfl ((RidsFrom.refl _ _).filter _) (fun t ht hw => ⟨t, ht, hw, rfl⟩)
+      | some T =>
+        simp only [hto]
+        apply pinv_of_wokenFrom h.pinv (by cases r.handle <;> rfl) (by cases r.handle <;> exact Nat.le_refl _)
+          (by cases r.handle <;> exact Nat.le_refl _) (by cases r.handle <;> rfl)
+        · exact ((RidsFrom.refl s.requests s.draws).filter _).trans (ridsFrom_timerCancel _ _ _) (Nat.le_refl _)
+        · exact wokenFrom_timerCancel { s with requests := s.requests.filter (fun q => q.ticket ≠ tk) } r.rid r.handle
+  | reply tk =>
+    simp only [step]
+    cases hl : lookup s tk with
+    | none => simpa using h
+    | some r =>
+      simp only []
+      cases hs : s.cfg.storeResults with
+      | false => simpa using sinv_congr h rfl rfl rfl rfl rfl rfl rfl rfl
+      | true =>
+        simp only [if_true]
+        refine ⟨by simpa using inv_reply tk h.inv, ?_⟩
+        let f : Req → Req := fun q => if q.ticket = tk then { q with results := q.results + 1 } else q
+        exact pinv_of_wokenFrom (s' := { s with requests := s.requests.map f }) h.pinv rfl (Nat.le_refl _)
+          (Nat.le_refl _) rfl ((RidsFrom.refl _ _).map f (by intro r; simp only [f]; split <;> rfl))
+          (fun t ht hw => ⟨t, ht, hw, rfl⟩)
+  | timerCancel tk =>
+    simp only [step]
+    cases hl : lookup s tk with
+    | none => simpa using h
+    | some r =>
+      cases hto : r.timeout with
+      | none => simpa [hto] using h
+      | some T =>
+        simp only [hto]
+        refine ⟨inv_timerCancel h.inv r (lookup_some hl).1, ?_⟩
+        exact pinv_of_wokenFrom h.pinv (by cases r.handle <;> rfl) (by cases r.handle <;> exact Nat.le_refl _)
+          (by cases r.handle <;> exact Nat.le_refl _) (by cases r.handle <;> rfl)
+          (ridsFrom_timerCancel s r.rid r.handle) (wokenFrom_timerCancel s r.rid r.handle)
+  | timerReschedule tk n =>
+    refine ⟨inv_reschedule h.inv tk n, ?_⟩
+    simp only [step]
+    cases hl : lookup s tk with
+    | none => simpa using h.pinv
+    | some r =>
+      cases hto : r.timeout with
+      | none => simpa [hto] using h.pinv
+      | some T =>
+        simp only [hto]
+        apply pinv_of_wokenFrom h.pinv (by cases r.handle <;> rfl) (by cases r.handle <;> exact Nat.le_refl _)
+          (by cases r.handle <;> exact Nat.le_refl _) (by cases r.handle <;> rfl)
+        · simp only [timerStart]
+          exact ((ridsFrom_timerCancel s r.rid r.handle).trans (ridsFrom_setTimeout _ s.draws _ _) (Nat.le_refl _)).trans
+            (ridsFrom_setHandle _ s.draws _ _) (Nat.le_refl _)
+        · intro t ht hwk
+          simp only [timerStart] at ht
+          rcases List.mem_append.1 ht with ht | ht
+          · exact wokenFrom_timerCancel s r.rid r.handle t ht hwk
+          · simp at ht; subst ht; cases hwk
+
+theorem inv_init (cfg : Cfg) : Inv (init cfg) := by
+  constructor <;> simp [init]
+
+theorem sinv_init (cfg : Cfg) : SInv (init cfg) := by
+  refine ⟨inv_init cfg, ?_⟩
+  constructor <;> simp [init]
+
+/-! ### what a step may report -/
+
+def ObsOk (s : State) (op : Op) : Obs → Prop
+  | .sent t rid tk => t = s.now ∧ tk = s.cfg.initial + rid ∧ (s.draws < rid ∨ ∃ p ∈ s.pending, p.rid = rid)
+  | .removed t rid tk dl tid => (op = .settle ∨ op = .tick) ∧ RemovedOk s t rid tk dl tid
+  | .result t rid tk => op = .reply tk ∧ t = s.now ∧ ∃ r ∈ s.requests, r.rid = rid ∧ r.ticket = tk
+  | .loopErr _ _ _ _ => False
+  | .clobber _ _ => False
+  | .callerErr => ∃ tk, op = .remove tk ∧ ∀ r ∈ s.requests, r.ticket ≠ tk
+  | .noReq => True
+  | .noTimer => True
+  | .noSetup => True
+
+theorem obsOk_of_sentOk {s : State} {op : Op} {x : Obs} (h : SentOk s x) : ObsOk s op x := by
+  obtain ⟨rid, rfl, hr⟩ := h
+  exact ⟨rfl, rfl, hr⟩
+
+theorem step_obs {s : State} (op : Op) (h : SInv s) (hw : NoWrap (step s op).1) :
+    ∀ x ∈ (step s op).2, ObsOk s op x := by
+  cases op with
+  | search k =>
+    intro x hx
+    simp only [step] at hx hw
+    by_cases hg : s.gated = true
+    · simp only [hg, if_true] at hx; cases hx
+    · simp only [hg, if_false] at hx hw
+      exact obsOk_of_sentOk (newRequest_sentOk h k _ hw x hx)
+  | wlInterval n => intro x hx; cases hx
+  | serverClosing => intro x hx; cases hx
+  | jump d => intro x hx; cases hx
+  | gate b => intro x hx; cases hx
+  | sendDone tk ok =>
+    intro x hx
+    simp only [step] at hx
+    split at hx
+    · simp at hx; subst hx; trivial
+    · cases hx
+  | cancelCall tk =>
+    intro x hx
+    simp only [step] at hx
+    split at hx
+    · simp at hx; subst hx; trivial
+    · cases hx
+  | remove tk =>
+    intro x hx
+    simp only [step] at hx
+    cases hl : lookup s tk with
+    | none =>
+      simp [hl] at hx; subst hx
+      exact ⟨tk, rfl, lookup_none hl⟩
+    | some r => simp [hl] at hx
+  | reply tk =>
+    intro x hx
+    simp only [step] at hx
+    cases hl : lookup s tk with
+    | none => simp [hl] at hx
+    | some r =>
+      simp [hl] at hx; subst hx
+      exact ⟨rfl, rfl, r, (lookup_some hl).1, rfl, (lookup_some hl).2⟩
+  | timerCancel tk =>
+    intro x hx
+    simp only [step] at hx
+    cases hl : lookup s tk with
+    | none => simp [hl] at hx; subst hx; trivial
+    | some r =>
+      cases hto : r.timeout with
+      | none => simp [hl, hto] at hx; subst hx; trivial
+      | some T => simp [hl, hto] at hx
+  | timerReschedule tk n =>
+    intro x hx
+    simp only [step] at hx
+    cases hl : lookup s tk with
+    | none => simp [hl] at hx; subst hx; trivial
+    | some r =>
+      cases hto : r.timeout with
+      | none => simp [hl, hto] at hx; subst hx; trivial
+      | some T => simp [hl, hto] at hx
+  | settle =>
+    intro x hx
+    rcases (ok_settle h hw).2 x hx with ⟨t, rid, tk, dl, tid, rfl, hok⟩ | hs
+    · exact ⟨.inl rfl, hok⟩
+    · exact obsOk_of_sentOk hs
+  | tick =>
+    intro x hx
+    rcases (ok_tick h hw).2 x hx with ⟨t, rid, tk, dl, tid, rfl, hok⟩ | hs
+    · exact ⟨.inr rfl, hok⟩
+    · exact obsOk_of_sentOk hs
+
+/-! ### a removed request stays silent -/
+
+def obsRid : Obs → Option Nat
+  | .sent _ rid _ => some rid
+  | .removed _ rid _ _ _ => some rid
+  | .result _ rid _ => some rid
+  | .loopErr _ rid _ _ => some rid
+  | _ => none
+
+/-- request object `rid` exists (its ticket has been drawn), is not registered and is not being set up -/
+def Gone (rid : Nat) (s : State) : Prop :=
+  rid ≤ s.draws ∧ (∀ q ∈ s.requests, q.rid ≠ rid) ∧ ∀ p ∈ s.pending, p.rid ≠ rid
+
+theorem gone_of_evolves {s s' : State} {rid : Nat} (he : Evolves s s') (hg : Gone rid s) : Gone rid s' := by
+  refine ⟨Nat.le_trans hg.1 he.draws, ?_, ?_⟩
+  · intro q hq heq
+    rcases he.reqs q hq with ⟨r, hr, h1⟩ | ⟨p, hp, h1⟩ | hlt
+    · exact hg.2.1 r hr (by omega)
+    · exact hg.2.2 p hp (by omega)
+    · have := hg.1; omega
+  · intro p' hp' heq
+    rcases he.pend p' hp' with ⟨p, hp, h1⟩ | hlt
+    · exact hg.2.2 p hp (by omega)
+    · have := hg.1; omega
+
+theorem gone_step {s : State} {rid : Nat} (op : Op) (hg : Gone rid s) : Gone rid (step s op).1 :=
+  gone_of_evolves (evolves_step s op) hg
+
+theorem gone_step_obs {s : State} {rid : Nat} (op : Op) (h : SInv s) (hw : NoWrap (step s op).1) (hg : Gone rid s) :
+    ∀ x ∈ (step s op).2, obsRid x ≠ some rid := by
+  intro x hx
+  have hok := step_obs op h hw x hx
+  cases x with
+  | sent t r tk =>
+    simp only [obsRid, ObsOk] at hok ⊢
+    intro hc; cases hc
+    rcases hok.2.2 with hlt | ⟨p, hp, hpr⟩
+    · have := hg.1; omega
+    · exact hg.2.2 p hp hpr
+  | removed t r tk dl tid =>
+    simp only [obsRid, ObsOk, RemovedOk] at hok ⊢
+    obtain ⟨_, _, _, _, q, hq, hqr, _⟩ := hok
+    intro hc; cases hc; exact hg.2.1 q hq hqr
+  | result t r tk =>
+    simp only [obsRid, ObsOk] at hok ⊢
+    obtain ⟨_, _, q, hq, hqr, _⟩ := hok
+    intro hc; cases hc; exact hg.2.1 q hq hqr
+  | loopErr t r tk tid => exact absurd hok (by simp [ObsOk])
+  | callerErr => simp [obsRid]
+  | noReq => simp [obsRid]
+  | noTimer => simp [obsRid]
+  | noSetup => simp [obsRid]
+  | clobber a b => simp [obsRid]
+
+theorem gone_run {rid : Nat} (ops : List Op) (s : State) (h : SInv s) (hw : NoWrap (run s ops).1) (hg : Gone rid s) :
+    ∀ x ∈ (run s ops).2, obsRid x ≠ some rid := by
+  have := run_ind (P := fun s tr => SInv s ∧ Gone rid s ∧ ∀ x ∈ tr, obsRid x ≠ some rid) (G := NoWrap)
+    noWrap_of_step
+    (by
+      intro s tr op ⟨hi, hg, ht⟩ hw
+      refine ⟨sinv_step op hi hw, gone_step op hg, ?_⟩
+      intro x hx
+      rcases List.mem_append.1 hx with hx | hx
+      · exact ht x hx
+      · exact gone_step_obs op hi hw hg x hx)
+    ops s [] ⟨h, hg, by simp⟩ hw
+  simpa using this.2.2
+
+
+/-! ### registering steps report no removal (from any state) -/
+
+def removedRid : Obs → Option Nat
+  | .removed _ rid _ _ _ => some rid
+  | _ => none
+
+/-- `o'` is `o` followed by observations none of which is a timeout removal -/
+def NoRemovals (o o' : List Obs) : Prop := ∃ n, o' = o ++ n ∧ ∀ x ∈ n, removedRid x = none
+
+theorem NoRemovals.refl (o : List Obs) : NoRemovals o o := ⟨[], by simp, by simp⟩
+
+theorem NoRemovals.trans {a b c : List Obs} (h1 : NoRemovals a b) (h2 : NoRemovals b c) : NoRemovals a c := by
+  obtain ⟨n1, rfl, k1⟩ := h1
+  obtain ⟨n2, rfl, k2⟩ := h2
+  refine ⟨n1 ++ n2, by simp, ?_⟩
+  intro x hx
+  rcases List.mem_append.1 hx with hx | hx
+  · exact k1 x hx
+  · exact k2 x hx
+
+theorem NoRemovals.filterMap {o o' : List Obs} (h : NoRemovals o o') : o'.filterMap removedRid = o.filterMap removedRid := by
+  obtain ⟨n, rfl, k⟩ := h
+  rw [List.filterMap_append]
+  have : n.filterMap removedRid = [] := List.filterMap_eq_nil_iff.2 k
+  rw [this, List.append_nil]
+
+theorem NoRemovals.mem {o o' : List Obs} (h : NoRemovals o o') {t rid tk dl tid : Nat}
+    (hx : Obs.removed t rid tk dl tid ∈ o') : Obs.removed t rid tk dl tid ∈ o := by
+  obtain ⟨n, rfl, k⟩ := h
+  rcases List.mem_append.1 hx with hx | hx
+  · exact hx
+  · have := k _ hx; simp [removedRid] at this
+
+theorem noRemovals_append (o : List Obs) (n : List Obs) (h : ∀ x ∈ n, removedRid x = none) : NoRemovals o (o ++ n) :=
+  ⟨n, rfl, h⟩
+
+theorem newRequest_noRemovals (s : State) (k : Kind) (to : Option Nat) : ∀ x ∈ (newRequest s k to).2, removedRid x = none := by
+  intro x hx
+  unfold newRequest at hx
+  simp only [] at hx
+  rcases List.mem_append.1 hx with hx | hx
+  · obtain ⟨r, _, rfl⟩ := List.mem_map.1 hx; rfl
+  · simp at hx; subst hx; rfl
+
+theorem register_noRemovals (s : State) (p : Setup) : ∀ x ∈ (register s p).2, removedRid x = none := by
+  intro x hx
+  unfold register at hx
+  simp only [] at hx
+  rcases List.mem_append.1 hx with hx | hx
+  · obtain ⟨r, _, rfl⟩ := List.mem_map.1 hx; rfl
+  · simp at hx; subst hx; rfl
+
+theorem wishlistRound_noRemovals (n : Nat) (s : State) (o : List Obs) : NoRemovals o (wishlistRound n s o).2 := by
+  induction n generalizing s o with
+  | zero => exact NoRemovals.refl o
+  | succ n ih =>
+    simp only [wishlistRound]
+    exact (noRemovals_append o _ (newRequest_noRemovals s _ _)).trans (ih _ _)
+
+theorem roundGo_noRemovals (m : Nat) (s : State) (o : List Obs) : NoRemovals o (roundGo m s o).2 := by
+  unfold roundGo
+  split
+  · cases m <;> exact NoRemovals.refl o
+  · exact wishlistRound_noRemovals m s o
+
+theorem completeOne_noRemovals (s : State) (rid : Nat) (o : List Obs) : NoRemovals o (completeOne s rid o).2 := by
+  unfold completeOne
+  split
+  · exact NoRemovals.refl o
+  · split
+    · exact NoRemovals.refl o
+    · split
+      · split
+        · exact (noRemovals_append o _ (register_noRemovals _ _)).trans (roundGo_noRemovals _ _ _)
+        · exact noRemovals_append o _ (register_noRemovals _ _)
+      · split <;> exact NoRemovals.refl o
+
+theorem completeAll_noRemovals (rids : List Nat) (s : State) (o : List Obs) : NoRemovals o (completeAll rids s o).2 := by
+  induction rids generalizing s o with
+  | nil => exact NoRemovals.refl o
+  | cons rid rids ih => simp only [completeAll]; exact (completeOne_noRemovals s rid o).trans (ih _ _)
+
+theorem settleWishlist_noRemovals (s : State) (o : List Obs) : NoRemovals o (settleWishlist s o).2 := by
+  unfold settleWishlist
+  split
+  · exact NoRemovals.refl o
+  · split
+    · exact roundGo_noRemovals _ _ _
+    · exact NoRemovals.refl o
+
+theorem tickWishlist_noRemovals (s : State) (o : List Obs) : NoRemovals o (tickWishlist s o).2 := by
+  unfold tickWishlist
+  split
+  · exact NoRemovals.refl o
+  · split
+    · exact roundGo_noRemovals _ _ _
+    · split <;> exact NoRemovals.refl o
+
+theorem settle_noRemovals (s : State) : NoRemovals (settleTimers s).2 (settle s).2 := by
+  simp only [settle]
+  exact (completeAll_noRemovals _ _ _).trans (settleWishlist_noRemovals _ _)
+
+theorem tick_noRemovals (s : State) : NoRemovals (tickTimers s).2 (tick s).2 := by
+  simp only [tick]
+  exact (completeAll_noRemovals _ _ _).trans (tickWishlist_noRemovals _ _)
+
+/-! ### the request whose timer fires is gone afterwards; a removal is reported at most once -/
+
+/-- firing the un-cancelled tasks `F` of `s`: a removal reported is that of a registered request, and that request
+does not survive -/
+theorem fired_gone {s : State} (h : SInv s) (F : List TTask)
+    (hF : ∀ f ∈ F, ∃ t0 ∈ s.tasks, t0.rid = f.rid ∧ t0.ticket = f.ticket ∧ t0.cancelled = false)
+    {t rid tk dl tid : Nat} (hx : Obs.removed t rid tk dl tid ∈ (fireAll F s []).2) :
+    (∃ r ∈ s.requests, r.rid = rid) ∧
+      ∀ q ∈ s.requests.filter (fun r => F.all (fun f => r.ticket ≠ f.ticket)), q.rid ≠ rid := by
+  rcases fireAll_obs_mem _ _ _ _ hx with h0 | ⟨f, hf, h0 | h0⟩
+  · cases h0
+  · simp only [Obs.removed.injEq] at h0
+    obtain ⟨_, h2, h3, _, _⟩ := h0
+    obtain ⟨t0, ht0, k1, k2, k3⟩ := hF f hf
+    obtain ⟨r, hr, j1, j2, _⟩ := h.task_live t0 ht0 k3
+    refine ⟨⟨r, hr, by omega⟩, ?_⟩
+    intro q hq heq
+    obtain ⟨hqm, hall⟩ := List.mem_filter.1 hq
+    have : q = r := h.req_uniq q hqm r hr (by omega)
+    subst this
+    rw [List.all_eq_true] at hall
+    have := hall f hf
+    simp at this
+    omega
+  · cases h0
+
+theorem settle_fired {s : State} : ∀ f ∈ (s.tasks.map (startTask s.now)).filter (isDue s.now),
+    ∃ t0 ∈ s.tasks, t0.rid = f.rid ∧ t0.ticket = f.ticket ∧ t0.cancelled = false := by
+  intro f hf
+  obtain ⟨hfm, hd⟩ := List.mem_filter.1 hf
+  obtain ⟨t0, ht0, rfl⟩ := List.mem_map.1 hfm
+  refine ⟨t0, ht0, by simp, by simp, ?_⟩
+  unfold isDue at hd
+  simp only [Bool.and_eq_true, Bool.not_eq_true', startTask_cancelled] at hd
+  exact hd.1
+
+theorem tick_fired {s : State} : ∀ f ∈ s.tasks.filter firesNow,
+    ∃ t0 ∈ s.tasks, t0.rid = f.rid ∧ t0.ticket = f.ticket ∧ t0.cancelled = false := by
+  intro f hf
+  obtain ⟨hfm, hd⟩ := List.mem_filter.1 hf
+  exact ⟨f, hfm, rfl, rfl, firesNow_cancelled hd⟩
+
+/-- after a timeout removal was reported the request is gone -/
+theorem gone_after_settle {s : State} (h : SInv s) {t rid tk dl tid : Nat}
+    (hx : Obs.removed t rid tk dl tid ∈ (settle s).2) : Gone rid (settle s).1 := by
+  have hx' := (settle_noRemovals s).mem hx
+  simp only [settleTimers] at hx'
+  obtain ⟨⟨r, hr, hrr⟩, hgone⟩ := fired_gone h _ settle_fired hx'
+  have hT : Gone rid (settleTimers s).1 := by
+    refine ⟨by rw [settleTimers_draws]; have := (h.req_tk r hr).2.2; omega, ?_, ?_⟩
+    · intro q hq
+      rw [settleTimers_state] at hq
+      obtain ⟨q0, hq0, rfl⟩ := List.mem_map.1 hq
+      simpa using hgone q0 hq0
+    · intro p hp
+      rw [settleTimers_pending] at hp
+      have := h.pinv.pend_fresh p hp r hr
+      omega
+  simp only [settle]
+  exact gone_of_evolves ((evolves_of_adds (adds_settleRest _ _)).trans (evolves_startAll _)) hT
+
+theorem gone_after_tick {s : State} (h : SInv s) {t rid tk dl tid : Nat}
+    (hx : Obs.removed t rid tk dl tid ∈ (tick s).2) : Gone rid (tick s).1 := by
+  have hx' := (tick_noRemovals s).mem hx
+  simp only [tickTimers] at hx'
+  obtain ⟨⟨r, hr, hrr⟩, hgone⟩ := fired_gone h _ tick_fired hx'
+  have hT : Gone rid (tickTimers s).1 := by
+    refine ⟨by rw [tickTimers_draws]; have := (h.req_tk r hr).2.2; omega, ?_, ?_⟩
+    · intro q hq
+      rw [tickTimers_state] at hq
+      obtain ⟨q0, hq0, rfl⟩ := List.mem_map.1 hq
+      simpa using hgone q0 hq0
+    · intro p hp
+      rw [tickTimers_pending] at hp
+      have := h.pinv.pend_fresh p hp r hr
+      omega
+  simp only [tick]
+  exact gone_of_evolves (evolves_of_adds (adds_tickRest _ _)) hT
+
+/-- after `remove_request` succeeded the request is gone -/
+theorem gone_after_remove {s : State} (h : SInv s) {tk : Nat} {r : Req} (hl : lookup s tk = some r) :
+    Gone r.rid (step s (.remove tk)).1 := by
+  obtain ⟨hr, htk⟩ := lookup_some hl
+  refine ⟨Nat.le_trans (h.req_tk r hr).2.2 (step_draws _ _), ?_, ?_⟩
+  · intro q hq heq
+    have hsub : ∀ q ∈ (step s (.remove tk)).1.requests, ∃ q0 ∈ s.requests, q0.rid = q.rid ∧ q0.ticket ≠ tk := by
+      intro q hq
+      simp only [step, hl] at hq
+      have hfil : ∀ q ∈ s.requests.filter (fun x => x.ticket ≠ tk), ∃ q0 ∈ s.requests, q0.rid = q.rid ∧ q0.ticket ≠ tk := by
+        intro q hq
+        obtain ⟨h1, h2⟩ := List.mem_filter.1 hq
+        exact ⟨q, h1, rfl, by simpa using h2⟩
+      cases hto : r.timeout with
+      | none => rw [hto] at hq; exact hfil q hq
+      | some T =>
+        rw [hto] at hq
+        cases hh : r.handle with
+        | none => rw [hh] at hq; exact hfil q hq
+        | some id =>
+          rw [hh, timerCancel_some] at hq
+          simp only [setHandle] at hq
+          obtain ⟨q1, hq1, rfl⟩ := List.mem_map.1 hq
+          obtain ⟨q0, hq0, h1, h2⟩ := hfil q1 hq1
+          exact ⟨q0, hq0, by rw [h1]; split <;> rfl, h2⟩
+    obtain ⟨q0, hq0, h1, h2⟩ := hsub q hq
+    have := h.req_uniq q0 hq0 r hr (by omega)
+    subst this
+    exact h2 htk
+  · intro p hp
+    have hpend : (step s (.remove tk)).1.pending = s.pending := by
+      simp only [step, hl]
+      cases r.timeout with
+      | none => rfl
+      | some T => cases r.handle <;> rfl
+    rw [hpend] at hp
+    have := h.pinv.pend_fresh p hp r hr
+    omega
+
+theorem fired_nodup {s : State} (h : SInv s) (F : List TTask) (hp : F.Pairwise (fun a b => a.id ≠ b.id))
+    (hF : ∀ t ∈ F, ∃ r ∈ s.requests, r.rid = t.rid ∧ r.ticket = t.ticket ∧ r.handle = some t.id) :
+    ((fireAll F s []).2.filterMap removedRid).Nodup := by
+  rw [fireAll_obs_eq _ s [] hp
+    (fun t ht => by obtain ⟨r, hr, _, k2, k3⟩ := hF t ht; exact ⟨r, hr, k2, k3⟩) h.ticket_inj]
+  simp only [List.nil_append, List.filterMap_map]
+  have : (removedRid ∘ fun t : TTask => Obs.removed s.now t.rid t.ticket (t.deadline.getD 0) t.id) = fun t => some t.rid := by
+    funext t; rfl
+  rw [this, List.filterMap_eq_map', List.Nodup, List.pairwise_map]
+  apply List.Pairwise.imp_of_mem _ hp
+  intro a b ha hb hab heq
+  obtain ⟨ra, hra, a1, _, a3⟩ := hF a ha
+  obtain ⟨rb, hrb, b1, _, b3⟩ := hF b hb
+  have := h.req_uniq ra hra rb hrb (by omega)
+  subst this
+  rw [a3] at b3
+  exact hab (by simpa using b3)
+
+theorem settle_removedRid_nodup {s : State} (h : SInv s) : ((settle s).2.filterMap removedRid).Nodup := by
+  rw [(settle_noRemovals s).filterMap]
+  have h0 := inv_mapStart s.now h.inv
+  simp only [settleTimers]
+  apply fired_nodup h _ (h0.task_nodup.filter _)
+  intro t ht
+  obtain ⟨htm, hd⟩ := List.mem_filter.1 ht
+  have hc : t.cancelled = false := by unfold isDue at hd; simp_all
+  exact h0.task_live t htm hc
+
+theorem tick_removedRid_nodup {s : State} (h : SInv s) : ((tick s).2.filterMap removedRid).Nodup := by
+  rw [(tick_noRemovals s).filterMap]
+  simp only [tickTimers]
+  apply fired_nodup h _ (h.task_nodup.filter _)
+  intro t ht
+  obtain ⟨htm, hd⟩ := List.mem_filter.1 ht
+  exact h.task_live t htm (firesNow_cancelled hd)
+
+theorem removed_is_loop {s : State} (op : Op) (h : SInv s) (hw : NoWrap (step s op).1) {t rid tk dl tid : Nat}
+    (hx : Obs.removed t rid tk dl tid ∈ (step s op).2) : op = .settle ∨ op = .tick :=
+  (step_obs op h hw _ hx).1
+
+theorem gone_after_timeout {s : State} (op : Op) (h : SInv s) (hw : NoWrap (step s op).1) {t rid tk dl tid : Nat}
+    (hx : Obs.removed t rid tk dl tid ∈ (step s op).2) : Gone rid (step s op).1 := by
+  rcases removed_is_loop op h hw hx with rfl | rfl
+  · exact gone_after_settle h hx
+  · exact gone_after_tick h hx
+
+theorem step_removedRid_nodup {s : State} (op : Op) (h : SInv s) (hw : NoWrap (step s op).1) :
+    ((step s op).2.filterMap removedRid).Nodup := by
+  by_cases hop : op = .settle
+  · subst hop; exact settle_removedRid_nodup h
+  · by_cases hop2 : op = .tick
+    · subst hop2; exact tick_removedRid_nodup h
+    · have : (step s op).2.filterMap removedRid = [] := by
+        rw [List.filterMap_eq_nil_iff]
+        intro x hx
+        have hok := step_obs op h hw x hx
+        cases x with
+        | removed t r tk dl tid => rcases hok.1 with h1 | h1 <;> contradiction
+        | _ => rfl
+      rw [this]; exact List.nodup_nil
+
+theorem removed_once (cfg : Cfg) (ops : List Op) (hw : NoWrap (run (init cfg) ops).1) :
+    ((run (init cfg) ops).2.filterMap removedRid).Nodup := by
+  have := run_ind (P := fun s tr => SInv s ∧ (∀ rid ∈ tr.filterMap removedRid, Gone rid s) ∧
+      (tr.filterMap removedRid).Nodup) (G := NoWrap) noWrap_of_step
+    (by
+      intro s tr op ⟨hi, hg, hn⟩ hw
+      have hnew : ∀ rid ∈ (step s op).2.filterMap removedRid,
+          (∃ r ∈ s.requests, r.rid = rid) ∧ Gone rid (step s op).1 := by
+        intro rid hrid
+        obtain ⟨x, hx, hxr⟩ := List.mem_filterMap.1 hrid
+        cases x with
+        | removed t r tk dl tid =>
+          simp only [removedRid, Option.some.injEq] at hxr
+          subst hxr
+          have hok := step_obs op hi hw _ hx
+          obtain ⟨_, _, _, _, q, hq, hq1, _⟩ := hok
+          exact ⟨⟨q, hq, hq1⟩, gone_after_timeout op hi hw hx⟩
+        | _ => simp [removedRid] at hxr
+      refine ⟨sinv_step op hi hw, ?_, ?_⟩
+      · intro rid hrid
+        rw [List.filterMap_append] at hrid
+        rcases List.mem_append.1 hrid with h1 | h1
+        · exact gone_step op (hg rid h1)
+        · exact (hnew rid h1).2
+      · rw [List.filterMap_append, List.nodup_append]
+        refine ⟨hn, step_removedRid_nodup op hi hw, ?_⟩
+        intro a ha b hb hab
+        subst hab
+        obtain ⟨⟨q, hq, hq1⟩, _⟩ := hnew a hb
+        exact (hg a ha).2.1 q hq hq1)
+    ops (init cfg) [] ⟨sinv_init cfg, by simp, by simp⟩ hw
+  simpa using this.2.2
+
+
+/-! ### timing: not before, not late, on the dot -/
+
+/-- every pending task is un-cancelled, has started, and its deadline lies in the future -/
+def Ahead (s : State) : Prop := ∀ t ∈ s.tasks, t.cancelled = false ∧ ∃ d, t.deadline = some d ∧ s.now < d
+
+/-- no pending un-cancelled task is overdue -/
+def OnTime (s : State) : Prop := ∀ t ∈ s.tasks, t.cancelled = false → ∀ d, t.deadline = some d → s.now ≤ d
+
+/-- **not late**: when the loop has run, whatever is still pending is not yet due (from ANY state) -/
+theorem settle_ahead (s : State) : Ahead (settle s).1 := by
+  have hT : ∀ t ∈ (settleTimers s).1.tasks, t.cancelled = false ∧ ∃ d, t.deadline = some d ∧ s.now < d := by
+    intro t ht
+    rw [settleTimers_state] at ht
+    obtain ⟨htm, hnf⟩ := List.mem_filter.1 ht
+    obtain ⟨t0, _, rfl⟩ := List.mem_map.1 htm
+    unfold isFinishing reached at hnf
+    rw [startTask_deadline] at hnf ⊢
+    simp only [Bool.not_or, Bool.and_eq_true, Bool.not_eq_true', decide_eq_false_iff_not] at hnf
+    exact ⟨hnf.1, _, rfl, by omega⟩
+  have hadd := adds_settleRest (settleTimers s).1 (settleTimers s).2
+  intro t ht
+  rw [settle_now]
+  simp only [settle, startAll] at ht
+  obtain ⟨t0, ht0, rfl⟩ := List.mem_map.1 ht
+  rw [hadd.now, settleTimers_now]
+  rcases hadd.tasks t0 ht0 with h | ⟨_, h1, h2, _, h4⟩
+  · obtain ⟨k1, d, k2, k3⟩ := hT t0 h
+    rw [startTask_deadline, k2]
+    exact ⟨by simpa using k1, d, rfl, k3⟩
+  · rw [startTask_deadline, h2]
+    exact ⟨by simpa using h1, _, rfl, by show s.now < s.now + t0.timeout; omega⟩
+
+theorem removed_mem_settle (s : State) {t rid tk dl tid : Nat} (hx : Obs.removed t rid tk dl tid ∈ (settle s).2) :
+    ∃ t0 ∈ s.tasks, t0.cancelled = false ∧ t = s.now ∧ (startTask s.now t0).deadline = some dl ∧ dl ≤ s.now ∧
+      t0.id = tid ∧ t0.rid = rid := by
+  have hx' := (settle_noRemovals s).mem hx
+  simp only [settleTimers] at hx'
+  rcases fireAll_obs_mem _ _ _ _ hx' with h | ⟨f, hf, h | h⟩
+  · cases h
+  · obtain ⟨hfm, hd⟩ := List.mem_filter.1 hf
+    obtain ⟨t0, ht0, rfl⟩ := List.mem_map.1 hfm
+    unfold isDue reached at hd
+    rw [startTask_deadline] at hd h
+    simp only [Bool.and_eq_true, Bool.not_eq_true', decide_eq_true_eq, startTask_cancelled] at hd
+    simp only [Option.getD_some, Obs.removed.injEq, startTask_rid, startTask_ticket, startTask_id] at h
+    obtain ⟨h1, h2, _, h4, h5⟩ := h
+    refine ⟨t0, ht0, hd.1, h1, ?_, ?_, h5.symm, h2.symm⟩
+    · rw [startTask_deadline, h4]
+    · rw [h4]; exact hd.2
+  · cases h
+
+theorem removed_mem_tick (s : State) {t rid tk dl tid : Nat} (hx : Obs.removed t rid tk dl tid ∈ (tick s).2) :
+    ∃ t0 ∈ s.tasks, firesNow t0 = true ∧ t = s.now ∧ t0.id = tid ∧ t0.rid = rid := by
+  have hx' := (tick_noRemovals s).mem hx
+  simp only [tickTimers] at hx'
+  rcases fireAll_obs_mem _ _ _ _ hx' with h | ⟨f, hf, h | h⟩
+  · cases h
+  · obtain ⟨hfm, hd⟩ := List.mem_filter.1 hf
+    simp only [Obs.removed.injEq] at h
+    obtain ⟨h1, h2, _, _, h5⟩ := h
+    exact ⟨f, hfm, hd, h1, h5.symm, h2.symm⟩
+  · cases h
+
+/-- **on the dot**: if nothing pending is overdue, a removal reported by this run of the loop happens
+exactly at its deadline -/
+theorem settle_exact {s : State} (h : OnTime s) {t rid tk dl tid : Nat}
+    (hx : Obs.removed t rid tk dl tid ∈ (settle s).2) : t = dl := by
+  obtain ⟨t0, ht0, hc, rfl, hd, hle, _⟩ := removed_mem_settle s hx
+  rw [startTask_deadline] at hd
+  cases h0 : t0.deadline with
+  | none => rw [h0] at hd; simp at hd; omega
+  | some d =>
+    rw [h0] at hd; simp at hd
+    have := h t0 ht0 hc d h0
+    omega
+
+theorem onTime_of_ahead_jump1 {s : State} (h : Ahead s) : OnTime (step s (.jump 1)).1 := by
+  intro t ht _ d hd
+  obtain ⟨_, d', h1, h2⟩ := h t ht
+  simp only [step] at hd ⊢
+  rw [h1] at hd; cases hd; omega
+
+theorem sleep_exact (d : Nat) {s : State} (h : OnTime s) :
+    (∀ t rid tk dl tid, Obs.removed t rid tk dl tid ∈ (run s (sleepOps d)).2 → t = dl) ∧
+    Ahead (run s (sleepOps d)).1 := by
+  induction d generalizing s with
+  | zero =>
+    simp only [sleepOps, run_cons, run_nil, List.append_nil]
+    exact ⟨fun t rid tk dl tid hx => settle_exact h hx, settle_ahead s⟩
+  | succ d ih =>
+    simp only [sleepOps, run_cons]
+    have h1 : OnTime (step (step s .settle).1 (.jump 1)).1 := onTime_of_ahead_jump1 (settle_ahead s)
+    obtain ⟨ih1, ih2⟩ := ih h1
+    refine ⟨?_, ih2⟩
+    intro t rid tk dl tid hx
+    rcases List.mem_append.1 hx with hx | hx
+    · exact settle_exact h hx
+    · rcases List.mem_append.1 hx with hx | hx
+      · cases hx
+      · exact ih1 t rid tk dl tid hx
+
+/-! ### reachable states; the ticket generator -/
+
+theorem reach_inv (cfg : Cfg) (ops : List Op) (hw : NoWrap (run (init cfg) ops).1) : SInv (run (init cfg) ops).1 := by
+  have := run_ind (P := fun s _ => SInv s) (G := NoWrap) noWrap_of_step
+    (fun s _ op hi hw => sinv_step op hi hw) ops (init cfg) [] (sinv_init cfg) hw
+  exact this
+
+/-- every observation of a history without a generator wrap is one a step may report (`ObsOk`) -/
+theorem reach_obs (cfg : Cfg) (ops : List Op) (hw : NoWrap (run (init cfg) ops).1) :
+    ∀ x ∈ (run (init cfg) ops).2, (∀ t rid tk tid, x ≠ .loopErr t rid tk tid) ∧ (∀ a b, x ≠ .clobber a b) := by
+  have := run_ind (P := fun s tr => SInv s ∧ ∀ x ∈ tr, (∀ t rid tk tid, x ≠ .loopErr t rid tk tid) ∧
+      (∀ a b, x ≠ .clobber a b)) (G := NoWrap) noWrap_of_step
+    (by
+      intro s tr op ⟨hi, ht⟩ hw
+      refine ⟨sinv_step op hi hw, ?_⟩
+      intro x hx
+      rcases List.mem_append.1 hx with hx | hx
+      · exact ht x hx
+      · have hok := step_obs op hi hw x hx
+        constructor
+        · intro t rid tk tid hc; subst hc; exact hok
+        · intro a b hc; subst hc; exact hok)
+    ops (init cfg) [] ⟨sinv_init cfg, by simp⟩ hw
+  simpa using this.2
+
+/-- the `n`-th output of `ticket_generator(initial)` (`n = 0`: the start value, never handed out) -/
+def ticketAt (initial : Nat) : Nat → Nat
+  | 0 => initial
+  | n + 1 => nextTicket initial (ticketAt initial n)
+
+theorem ticketAt_default (n : Nat) : ticketAt defaultInitial n = n % maxTicket + 1 := by
+  induction n with
+  | zero => rfl
+  | succ n ih =>
+    simp only [ticketAt, ih, nextTicket]
+    have hm : maxTicket = 4294967295 := rfl
+    have hi : defaultInitial = 1 := rfl
+    rw [hm, hi]
+    split <;> omega
 
 /-! ### who can be cancelled -/
 
 /-- `Timer.cancel` is only ever called on a pending task: the handle of a registered request -/
-theorem timerOf_task {s : State} (h : Inv s) {tk id : Nat} (hc : timerOf s tk = some id) :
+theorem timerOf_task {s : State} (h : SInv s) {tk id : Nat} (hc : timerOf s tk = some id) :
     ∃ r ∈ s.requests, r.ticket = tk ∧ r.handle = some id ∧ ∃ t ∈ s.tasks, t.id = id ∧ t.cancelled = false := by
   unfold timerOf at hc
   cases hl : lookup s tk with
@@ -1651,7 +1949,7 @@ theorem timerOf_task {s : State} (h : Inv s) {tk id : Nat} (hc : timerOf s tk = 
       obtain ⟨t, ht, h1, _, h3⟩ := h.handle_task r hr id hc
       exact ⟨r, hr, htk, hc, t, ht, h1, h3⟩
 
-theorem cancelTarget_task {s : State} (h : Inv s) {op : Op} {id : Nat} (hc : cancelTarget s op = some id) :
+theorem cancelTarget_task {s : State} (h : SInv s) {op : Op} {id : Nat} (hc : cancelTarget s op = some id) :
     ∃ t ∈ s.tasks, t.id = id ∧ t.cancelled = false := by
   have key : ∀ tk, timerOf s tk = some id → ∃ t ∈ s.tasks, t.id = id ∧ t.cancelled = false := by
     intro tk hc
@@ -1661,15 +1959,10 @@ theorem cancelTarget_task {s : State} (h : Inv s) {op : Op} {id : Nat} (hc : can
   | remove tk => exact key tk hc
   | timerCancel tk => exact key tk hc
   | timerReschedule tk n => exact key tk hc
-  | search k => cases hc
-  | wlInterval n => cases hc
-  | serverClosing => cases hc
-  | reply tk => cases hc
-  | jump d => cases hc
-  | settle => cases hc
+  | _ => cases hc
 
 /-- what `cancelTarget` names is what `step` cancels: the named pending task is marked cancelled … -/
-theorem cancelTarget_marks {s : State} (h : Inv s) {op : Op} {id : Nat} (hc : cancelTarget s op = some id) :
+theorem cancelTarget_marks {s : State} (h : SInv s) {op : Op} {id : Nat} (hc : cancelTarget s op = some id) :
     ∀ t ∈ (step s op).1.tasks, t.id = id → t.cancelled = true := by
   have key : ∀ tk, timerOf s tk = some id → ∀ r, lookup s tk = some r →
       ∀ t ∈ (timerCancel s r.rid r.handle).tasks, t.id = id → t.cancelled = true := by
@@ -1695,12 +1988,6 @@ theorem cancelTarget_marks {s : State} (h : Inv s) {op : Op} {id : Nat} (hc : ca
       | none => simp [hl, hto] at htk
       | some T => exact ⟨r, rfl, T, hto⟩
   cases op with
-  | search k => cases hc
-  | wlInterval n => cases hc
-  | serverClosing => cases hc
-  | reply tk => cases hc
-  | jump d => cases hc
-  | settle => cases hc
   | remove tk =>
     have hc : timerOf s tk = some id := hc
     obtain ⟨r, hr, T, hT⟩ := hl tk hc
@@ -1734,6 +2021,50 @@ theorem cancelTarget_marks {s : State} (h : Inv s) {op : Op} {id : Nat} (hc : ca
       subst ht
       simp only [h2] at hid
       omega
+  | _ => cases hc
+
+/-- no task of `s'` is newly cancelled -/
+def Quiet (s s' : State) : Prop :=
+  ∀ t ∈ s'.tasks, t.cancelled = true → ∃ t0 ∈ s.tasks, t0.id = t.id ∧ t0.cancelled = true
+
+theorem Quiet.refl (s : State) : Quiet s s := fun t ht hc => ⟨t, ht, rfl, hc⟩
+
+theorem Quiet.trans {a b c : State} (h1 : Quiet a b) (h2 : Quiet b c) : Quiet a c := by
+  intro t ht hc
+  obtain ⟨t1, ht1, k1, k2⟩ := h2 t ht hc
+  obtain ⟨t0, ht0, j1, j2⟩ := h1 t1 ht1 k2
+  exact ⟨t0, ht0, by omega, j2⟩
+
+theorem quiet_of_adds {s s' : State} (h : Adds s s') : Quiet s s' := by
+  intro t ht hc
+  rcases h.tasks t ht with h0 | ⟨_, h1, _⟩
+  · exact ⟨t, h0, rfl, hc⟩
+  · rw [h1] at hc; cases hc
+
+theorem quiet_settleTimers (s : State) : Quiet s (settleTimers s).1 := by
+  intro x hx hxc
+  rw [settleTimers_state] at hx
+  obtain ⟨t0, ht0, rfl⟩ := List.mem_map.1 (List.mem_filter.1 hx).1
+  exact ⟨t0, ht0, by simp, by simpa using hxc⟩
+
+theorem quiet_tickTimers (s : State) : Quiet s (tickTimers s).1 := by
+  intro x hx hxc
+  rw [tickTimers_state] at hx
+  obtain ⟨t0, ht0, rfl⟩ := List.mem_map.1 hx
+  exact ⟨t0, (List.mem_filter.1 ht0).1, by simp, by simpa using hxc⟩
+
+theorem quiet_startAll (s : State) : Quiet s (startAll s) := by
+  intro x hx hxc
+  obtain ⟨t0, ht0, rfl⟩ := List.mem_map.1 hx
+  exact ⟨t0, ht0, by simp, by simpa using hxc⟩
+
+theorem quiet_settle (s : State) : Quiet s (settle s).1 := by
+  simp only [settle]
+  exact ((quiet_settleTimers s).trans (quiet_of_adds (adds_settleRest _ _))).trans (quiet_startAll _)
+
+theorem quiet_tick (s : State) : Quiet s (tick s).1 := by
+  simp only [tick]
+  exact (quiet_tickTimers s).trans (quiet_of_adds (adds_tickRest _ _))
 
 /-- … and no other pending task is: a task that was not cancelled before the step and is cancelled after it is the
 one `cancelTarget` names. -/
@@ -1760,42 +2091,36 @@ theorem cancelTarget_complete (s : State) (op : Op) :
       · exact .inr (by rw [h])
   have hsame : ∀ t ∈ s.tasks, t.cancelled = true → (∃ t0 ∈ s.tasks, t0.id = t.id ∧ t0.cancelled = true) ∨
       cancelTarget s op = some t.id := fun t ht hc => .inl ⟨t, ht, rfl, hc⟩
-  have hnew : ∀ (k : Kind) (to : Option Nat), ∀ t ∈ (newRequest s k to).1.tasks, t.cancelled = true →
-      ∃ t0 ∈ s.tasks, t0.id = t.id ∧ t0.cancelled = true := by
-    intro k to t ht hc
-    rcases newRequest_tasks s k to t ht with h | ⟨h, _, _⟩
-    · exact ⟨t, h, rfl, hc⟩
-    · rw [h] at hc; cases hc
+  have hquiet : Quiet s (step s op).1 → ∀ t ∈ (step s op).1.tasks, t.cancelled = true →
+      (∃ t0 ∈ s.tasks, t0.id = t.id ∧ t0.cancelled = true) ∨ cancelTarget s op = some t.id :=
+    fun hq t ht hc => .inl (hq t ht hc)
   cases op with
-  | search k => intro t ht hc; exact .inl (hnew k _ t ht hc)
+  | search k =>
+    apply hquiet
+    simp only [step]
+    split
+    · exact quiet_of_adds (adds_beginSetup s k)
+    · exact quiet_of_adds (adds_newRequest s k _ (fun T h => requestTimeout_pos h))
   | wlInterval n => exact hsame
   | serverClosing => exact hsame
   | jump d => exact hsame
+  | gate b => exact hsame
+  | sendDone tk ok =>
+    intro t ht hc
+    simp only [step] at ht
+    split at ht <;> exact hsame t ht hc
+  | cancelCall tk =>
+    intro t ht hc
+    simp only [step] at ht
+    split at ht <;> exact hsame t ht hc
   | reply tk =>
     intro t ht hc
     simp only [step] at ht
     cases hl : lookup s tk with
     | none => rw [hl] at ht; exact hsame t ht hc
     | some r => rw [hl] at ht; exact hsame t ht hc
-  | settle =>
-    intro t ht hc
-    left
-    -- a loop run only finishes cancelled tasks and starts fresh, un-cancelled ones
-    have hT : ∀ x ∈ (settleTimers s).1.tasks, x.cancelled = true → ∃ t0 ∈ s.tasks, t0.id = x.id ∧ t0.cancelled = true := by
-      intro x hx hxc
-      rw [settleTimers_state] at hx
-      obtain ⟨t0, ht0, rfl⟩ := List.mem_map.1 (List.mem_filter.1 hx).1
-      exact ⟨t0, ht0, by simp, by simpa using hxc⟩
-    simp only [step, settle] at ht
-    rcases settleWishlist_cases (settleTimers s).1 (settleTimers s).2 with he | ⟨w, _, _, he⟩
-    · rw [he] at ht; exact hT t ht hc
-    · rw [he] at ht
-      simp only [] at ht
-      obtain ⟨t1, ht1, rfl⟩ := List.mem_map.1 ht
-      rcases wishlistRound_tasks _ _ _ t1 ht1 with h | ⟨h, _, _⟩
-      · obtain ⟨t0, ht0, h1, h2⟩ := hT t1 h (by simpa using hc)
-        exact ⟨t0, ht0, by simpa using h1, h2⟩
-      · simp [h] at hc
+  | settle => exact hquiet (quiet_settle s)
+  | tick => exact hquiet (quiet_tick s)
   | remove tk =>
     intro t ht hc
     cases hl : lookup s tk with
@@ -1836,94 +2161,301 @@ theorem cancelTarget_complete (s : State) (op : Op) :
         · simp at ht; subst ht; cases hc
 
 /-- the task whose callback reports a removal is finished as far as the registry is concerned: it is not among
-the pending tasks after that loop run, and its id is below the counter -/
-theorem settle_fired_not_pending {s : State} (h : Inv s) {t rid tk dl tid : Nat}
-    (hx : Obs.removed t rid tk dl tid ∈ (settle s).2) :
-    tid < s.nextTask ∧ ∀ x ∈ (settle s).1.tasks, x.id ≠ tid := by
-  obtain ⟨t0, ht0, hc, _, hd, hle, hid, _⟩ := removed_mem_settle s hx
-  have hlt : tid < s.nextTask := by have := h.task_id t0 ht0; omega
-  refine ⟨hlt, ?_⟩
-  have hT : ∀ x ∈ (settleTimers s).1.tasks, x.id ≠ tid := by
-    intro x hxm heq
-    rw [settleTimers_state] at hxm
-    obtain ⟨hm, hnf⟩ := List.mem_filter.1 hxm
-    obtain ⟨x0, hx0, rfl⟩ := List.mem_map.1 hm
-    have : x0 = t0 := pairwise_id_inj h.task_nodup x0 hx0 t0 ht0 (by simp at heq; omega)
-    subst this
-    unfold isFinishing reached at hnf
-    rw [hd] at hnf
-    simp [hle] at hnf
-  intro x hxm
-  unfold settle at hxm
-  rcases settleWishlist_cases (settleTimers s).1 (settleTimers s).2 with he | ⟨w, _, _, he⟩
-  · rw [he] at hxm; exact hT x hxm
-  · rw [he] at hxm
-    simp only [] at hxm
-    obtain ⟨x1, hx1, rfl⟩ := List.mem_map.1 hxm
-    rcases (grows_wishlistRound _ _ _).2 x1 hx1 with ⟨x0, hx0, he0⟩ | hge
-    · have := hT x0 hx0; simp; omega
-    · have : (settleTimers s).1.nextTask = s.nextTask := by rw [settleTimers_state]
-      simp; omega
+the pending tasks after that step, and its id is below the counter -/
+theorem fired_not_pending {s : State} (op : Op) (h : SInv s) (hw : NoWrap (step s op).1) {t rid tk dl tid : Nat}
+    (hx : Obs.removed t rid tk dl tid ∈ (step s op).2) :
+    tid < s.nextTask ∧ ∀ x ∈ (step s op).1.tasks, x.id ≠ tid := by
+  have later : ∀ (T s' : State), T.nextTask = s.nextTask → (∀ x ∈ T.tasks, x.id ≠ tid) → tid < s.nextTask →
+      Grows T s' → ∀ x ∈ s'.tasks, x.id ≠ tid := by
+    intro T s' h1 h2 h3 hg x hxm
+    rcases hg.2 x hxm with ⟨x0, hx0, he⟩ | hge
+    · have := h2 x0 hx0; omega
+    · omega
+  rcases removed_is_loop op h hw hx with rfl | rfl
+  · obtain ⟨t0, ht0, hc, _, hd, hle, hid, _⟩ := removed_mem_settle s hx
+    have hlt : tid < s.nextTask := by have := h.task_id t0 ht0; omega
+    refine ⟨hlt, ?_⟩
+    have hT : ∀ x ∈ (settleTimers s).1.tasks, x.id ≠ tid := by
+      intro x hxm heq
+      rw [settleTimers_state] at hxm
+      obtain ⟨hm, hnf⟩ := List.mem_filter.1 hxm
+      obtain ⟨x0, hx0, rfl⟩ := List.mem_map.1 hm
+      have : x0 = t0 := pairwise_id_inj h.task_nodup x0 hx0 t0 ht0 (by simp at heq; omega)
+      subst this
+      unfold isFinishing reached at hnf
+      rw [hd] at hnf
+      simp [hle] at hnf
+    simp only [step, settle]
+    exact later _ _ (settleTimers_nextTask s) hT hlt
+      ((grows_of_adds (adds_settleRest _ _)).trans (grows_startAll _))
+  · obtain ⟨t0, ht0, hf, _, hid, _⟩ := removed_mem_tick s hx
+    have hlt : tid < s.nextTask := by have := h.task_id t0 ht0; omega
+    refine ⟨hlt, ?_⟩
+    have hT : ∀ x ∈ (tickTimers s).1.tasks, x.id ≠ tid := by
+      intro x hxm heq
+      rw [tickTimers_state] at hxm
+      obtain ⟨x0, hx0, rfl⟩ := List.mem_map.1 hxm
+      obtain ⟨hm, hnf⟩ := List.mem_filter.1 hx0
+      have : x0 = t0 := pairwise_id_inj h.task_nodup x0 hm t0 ht0 (by simp at heq; omega)
+      subst this
+      rw [firesNow_endsNow hf] at hnf
+      simp at hnf
+    simp only [step, tick]
+    exact later _ _ (tickTimers_nextTask s) hT hlt (grows_of_adds (adds_tickRest _ _))
 
-/-! ### the removal report -/
+/-- what a base step reports about removals -/
+theorem step_removed_facts {s : State} (op : Op) (h : SInv s) (hw : NoWrap (step s op).1) {t rid tk dl tid : Nat}
+    (hx : Obs.removed t rid tk dl tid ∈ (step s op).2) :
+    (∃ r ∈ s.requests, r.rid = rid) ∧ Gone rid (step s op).1 ∧ tid < s.nextTask ∧
+      ∀ x ∈ (step s op).1.tasks, x.id ≠ tid := by
+  have hok := step_obs op h hw _ hx
+  obtain ⟨_, _, _, _, q, hq, hq1, _⟩ := hok
+  have := fired_not_pending op h hw hx
+  exact ⟨⟨q, hq, hq1⟩, gone_after_timeout op h hw hx, this.1, this.2⟩
 
-theorem nrun_nil (s : NState) : nrun s [] = (s, []) := rfl
-theorem nrun_cons (s : NState) (op : NOp) (ops : List NOp) :
-    nrun s (op :: ops) = ((nrun (nstep s op).1 ops).1, (nstep s op).2 ++ (nrun (nstep s op).1 ops).2) := rfl
 
-theorem nrun_ind {P : NState → List NObs → Prop} {G : NState → Prop}
-    (hG : ∀ s op, G (nstep s op).1 → G s)
-    (hstep : ∀ s tr op, P s tr → G (nstep s op).1 → P (nstep s op).1 (tr ++ (nstep s op).2)) :
-    ∀ ops s tr, P s tr → G (nrun s ops).1 → P (nrun s ops).1 (tr ++ (nrun s ops).2) := by
-  intro ops
-  induction ops with
-  | nil => intro s tr h _; simpa [nrun_nil] using h
-  | cons op ops ih =>
-    intro s tr h hg
-    rw [nrun_cons] at hg ⊢
-    have hgs : G (nstep s op).1 := by
-      clear ih h
-      generalize (nstep s op).1 = s' at hg
-      induction ops generalizing s' with
-      | nil => simpa [nrun_nil] using hg
-      | cons op' ops' ih' => rw [nrun_cons] at hg; exact hG _ _ (ih' _ hg)
-    have := ih _ _ (hstep s tr op h hgs) hg
-    simpa [List.append_assoc] using this
+/-! ### whatever is registered has been announced -/
 
-theorem nstep_resume_base (s : NState) (rid : Nat) : (nstep s (.resume rid)).1.base = s.base := by
-  simp only [nstep]
-  split
-  · rfl
-  · split
-    · rfl
-    · split <;> rfl
+/-- every request that the step registers is announced by it: a request of `s'` has the `rid` of a request of `s`,
+or its `SearchRequestSentEvent` is among `n` -/
+def Told (s s' : State) (n : List Obs) : Prop :=
+  ∀ r' ∈ s'.requests, (∃ r ∈ s.requests, r.rid = r'.rid) ∨ ∃ t, Obs.sent t r'.rid (s.cfg.initial + r'.rid) ∈ n
 
-theorem nstep_resume_listeners (s : NState) (rid : Nat) : (nstep s (.resume rid)).1.listeners = s.listeners := by
-  simp only [nstep]
-  split
-  · rfl
-  · split
-    · rfl
-    · split <;> rfl
+theorem Told.refl (s : State) (n : List Obs) : Told s s n := fun r h => .inl ⟨r, h, rfl⟩
 
-theorem nstep_base_base (s : NState) (op : Op) : (nstep s (.base op)).1.base = (step s.base op).1 := by
-  simp only [nstep]; split <;> rfl
+theorem Told.mono {s s' : State} {n n' : List Obs} (h : Told s s' n) (hsub : ∀ x ∈ n, x ∈ n') : Told s s' n' := by
+  intro r' hr'
+  rcases h r' hr' with h0 | ⟨t, ht⟩
+  · exact .inl h0
+  · exact .inr ⟨t, hsub _ ht⟩
 
-theorem nstep_listeners (s : NState) (op : NOp) : (nstep s op).1.listeners = s.listeners := by
+theorem Told.trans {a b c : State} {n n' : List Obs} (h1 : Told a b n) (h2 : Told b c n') (hsub : ∀ x ∈ n, x ∈ n')
+    (hc : b.cfg = a.cfg) : Told a c n' := by
+  intro r' hr'
+  rcases h2 r' hr' with ⟨r, hr, he⟩ | ⟨t, ht⟩
+  · rcases h1 r hr with ⟨r0, hr0, he0⟩ | ⟨t, ht⟩
+    · exact .inl ⟨r0, hr0, by omega⟩
+    · exact .inr ⟨t, hsub _ (by rw [← he]; exact ht)⟩
+  · exact .inr ⟨t, by rw [← hc]; exact ht⟩
+
+theorem told_of_rids {s s' : State} (n : List Obs) (h : ∀ r' ∈ s'.requests, ∃ r ∈ s.requests, r.rid = r'.rid) :
+    Told s s' n := fun r' hr' => .inl (h r' hr')
+
+theorem NoRemovals.sub {o o' : List Obs} (h : NoRemovals o o') : ∀ x ∈ o, x ∈ o' := by
+  obtain ⟨n, rfl, _⟩ := h
+  exact fun x hx => List.mem_append.2 (.inl hx)
+
+theorem told_newRequest {s : State} (h : SInv s) (k : Kind) (to : Option Nat) (hw : NoWrap (newRequest s k to).1) :
+    Told s (newRequest s k to).1 (newRequest s k to).2 := by
+  intro r' hr'
+  rcases newRequest_reqs s k to r' hr' with h0 | hlt
+  · exact .inl h0
+  · right
+    have h' := sinv_newRequest h k to hw
+    have hle := (h'.req_tk r' hr').2.2
+    rw [newRequest_draws] at hle
+    have : r'.rid = s.draws + 1 := by omega
+    refine ⟨s.now, ?_⟩
+    rw [newRequest_obs h.inv k to hw, this]
+    simp [Nat.add_assoc]
+
+theorem told_wishlistRound (n : Nat) {s : State} (o : List Obs) (h : SInv s) (hw : NoWrap (wishlistRound n s o).1) :
+    Told s (wishlistRound n s o).1 (wishlistRound n s o).2 := by
+  induction n generalizing s o with
+  | zero => exact Told.refl s o
+  | succ n ih =>
+    simp only [wishlistRound] at hw ⊢
+    have hw1 : NoWrap (newRequest s .wishlist (wishlistTimeout s)).1 := noWrap_of_adds (adds_wishlistRound n _ _) hw
+    have h1 := told_newRequest h .wishlist (wishlistTimeout s) hw1
+    have h2 := ih (o ++ (newRequest s .wishlist (wishlistTimeout s)).2) (sinv_newRequest h _ _ hw1) hw
+    refine (h1.mono ?_).trans h2 (fun x hx => hx) (newRequest_cfg _ _ _)
+    intro x hx
+    exact wishlistRound_noRemovals n _ _ |>.sub x (List.mem_append.2 (.inr hx))
+
+theorem told_roundGo (m : Nat) {s : State} (o : List Obs) (h : SInv s) (hw : NoWrap (roundGo m s o).1) :
+    Told s (roundGo m s o).1 (roundGo m s o).2 := by
+  unfold roundGo at hw ⊢
+  by_cases hg : s.gated = true
+  · simp only [hg, if_true] at hw ⊢
+    cases m with
+    | zero => exact told_of_rids _ (fun r' hr' => ⟨r', hr', rfl⟩)
+    | succ m => exact told_of_rids _ (fun r' hr' => ⟨r', hr', rfl⟩)
+  · simp only [hg, if_false] at hw ⊢
+    have hw1 : NoWrap (wishlistRound m s o).1 := hw
+    exact told_wishlistRound m o h hw1
+
+theorem told_completeOne {s : State} (rid : Nat) (o : List Obs) (h : SInv s) (hw : NoWrap (completeOne s rid o).1) :
+    Told s (completeOne s rid o).1 (completeOne s rid o).2 := by
+  unfold completeOne at hw ⊢
+  cases hf : s.pending.find? (fun p => decide (p.rid = rid)) with
+  | none => exact Told.refl s o
+  | some p =>
+    have hpm : p ∈ s.pending := List.mem_of_find?_eq_some hf
+    simp only [hf] at hw ⊢
+    cases ho : p.outcome with
+    | none => exact Told.refl s o
+    | some ok =>
+      simp only [ho] at hw ⊢
+      have h0 := sinv_dropSetup h p.rid
+      have hptk := h.pinv.pend_tk p hpm
+      cases ok with
+      | false =>
+        simp only [Bool.false_eq_true, if_false] at hw ⊢
+        split <;> exact told_of_rids _ (fun r' hr' => ⟨r', hr', rfl⟩)
+      | true =>
+        simp only [if_true] at hw ⊢
+        obtain ⟨hr1, hr2⟩ := ok_register (s := { s with pending := s.pending.filter (fun q => decide (q.rid ≠ p.rid)) })
+          h0 p hptk.1 hptk.2.1 hptk.2.2 (fun r hr => h.pinv.pend_fresh p hpm r hr)
+          (fun q hq => by simpa using (List.mem_filter.1 hq).2)
+        have hreg : Told s (register { s with pending := s.pending.filter (fun q => decide (q.rid ≠ p.rid)) } p).1
+            (o ++ (register { s with pending := s.pending.filter (fun q => decide (q.rid ≠ p.rid)) } p).2) := by
+          intro r' hr'
+          rcases register_reqs _ p r' hr' with h1 | h1
+          · exact .inl h1
+          · right
+            refine ⟨s.now, List.mem_append.2 (.inr ?_)⟩
+            rw [hr2, h1]; simp
+        split
+        · rename_i hk
+          simp only [hk, if_true] at hw
+          have h2 := told_roundGo (s.wlRound.getD 0)
+            (o ++ (register { s with pending := s.pending.filter (fun q => decide (q.rid ≠ p.rid)) } p).2) hr1 hw
+          exact hreg.trans h2 (roundGo_noRemovals _ _ _).sub (register_cfg _ _)
+        · exact hreg
+
+theorem told_completeAll (rids : List Nat) {s : State} (o : List Obs) (h : SInv s) (hw : NoWrap (completeAll rids s o).1) :
+    Told s (completeAll rids s o).1 (completeAll rids s o).2 := by
+  induction rids generalizing s o with
+  | nil => exact Told.refl s o
+  | cons rid rids ih =>
+    simp only [completeAll] at hw ⊢
+    have hw1 : NoWrap (completeOne s rid o).1 := noWrap_of_adds (adds_completeAll rids _ _) hw
+    have h1 := told_completeOne rid o h hw1
+    have h2 := ih _ (ok_completeOne rid o h hw1).1 hw
+    exact h1.trans h2 (completeAll_noRemovals _ _ _).sub (adds_completeOne s rid o).cfg
+
+theorem told_settleWishlist {s : State} (o : List Obs) (h : SInv s) (hw : NoWrap (settleWishlist s o).1) :
+    Told s (settleWishlist s o).1 (settleWishlist s o).2 := by
+  unfold settleWishlist at hw ⊢
+  cases hn : s.wlNext with
+  | none => exact Told.refl s o
+  | some w =>
+    simp only [hn] at hw ⊢
+    by_cases hle : w ≤ s.now
+    · simp only [hle, if_true] at hw ⊢; exact told_roundGo _ o h hw
+    · simp only [hle, if_false] at hw ⊢; exact Told.refl s o
+
+theorem told_tickWishlist {s : State} (o : List Obs) (h : SInv s) (hw : NoWrap (tickWishlist s o).1) :
+    Told s (tickWishlist s o).1 (tickWishlist s o).2 := by
+  unfold tickWishlist at hw ⊢
+  cases hn : s.wlNext with
+  | none => exact Told.refl s o
+  | some w =>
+    simp only [hn] at hw ⊢
+    by_cases hk : s.wlWoken = true
+    · simp only [hk, if_true] at hw ⊢; exact told_roundGo _ o h hw
+    · simp only [hk, if_false] at hw ⊢
+      by_cases hle : w ≤ s.now
+      · simp only [hle, if_true] at hw ⊢; exact told_of_rids _ (fun r' hr' => ⟨r', hr', rfl⟩)
+      · simp only [hle, if_false] at hw ⊢; exact Told.refl s o
+
+theorem told_settle {s : State} (h : SInv s) (hw : NoWrap (settle s).1) : Told s (settle s).1 (settle s).2 := by
+  simp only [settle] at hw ⊢
+  have hw2 : NoWrap (settleWishlist (completeSetups (settleTimers s).1 (settleTimers s).2).1
+      (completeSetups (settleTimers s).1 (settleTimers s).2).2).1 := hw
+  have hw1 : NoWrap (completeSetups (settleTimers s).1 (settleTimers s).2).1 :=
+    noWrap_of_adds (adds_settleWishlist _ _) hw2
+  have h0 := sinv_settleTimers h
+  have t0 : Told s (settleTimers s).1 (settleTimers s).2 := told_of_rids _ (settleTimers_reqs s)
+  have t1 := told_completeAll _ (settleTimers s).2 h0 hw1
+  have t2 := told_settleWishlist _ (ok_completeSetups (settleTimers s).2 h0 hw1).1 hw2
+  have t12 := t1.trans t2 (settleWishlist_noRemovals _ _).sub (adds_completeSetups _ _).cfg
+  have := t0.trans t12 (settle_noRemovals s).sub (settleTimers_cfg s)
+  intro r' hr'
+  exact this r' hr'
+
+theorem told_tick {s : State} (h : SInv s) (hw : NoWrap (tick s).1) : Told s (tick s).1 (tick s).2 := by
+  simp only [tick] at hw ⊢
+  have hw1 : NoWrap (completeSetups (tickTimers s).1 (tickTimers s).2).1 :=
+    noWrap_of_adds (adds_tickWishlist _ _) hw
+  have h0 := sinv_tickTimers h
+  have t0 : Told s (tickTimers s).1 (tickTimers s).2 := told_of_rids _ (tickTimers_reqs s)
+  have t1 := told_completeAll _ (tickTimers s).2 h0 hw1
+  have t2 := told_tickWishlist _ (ok_completeSetups (tickTimers s).2 h0 hw1).1 hw
+  have t12 := t1.trans t2 (tickWishlist_noRemovals _ _).sub (adds_completeSetups _ _).cfg
+  have := t0.trans t12 (tick_noRemovals s).sub (tickTimers_cfg s)
+  intro r' hr'
+  exact this r' hr'
+
+/-- `remove_request`, a reply, `Timer.cancel`, `Timer.reschedule` draw no ticket and leave the set-ups alone -/
+theorem step_keeps (s : State) (op : Op)
+    (hop : (∃ tk, op = .remove tk) ∨ (∃ tk, op = .reply tk) ∨ (∃ tk, op = .timerCancel tk) ∨
+      ∃ tk n, op = .timerReschedule tk n) :
+    (step s op).1.draws = s.draws ∧ (step s op).1.pending = s.pending := by
+  rcases hop with ⟨tk, rfl⟩ | ⟨tk, rfl⟩ | ⟨tk, rfl⟩ | ⟨tk, n, rfl⟩
+  · cases hl : lookup s tk with
+    | none => simp [step, hl]
+    | some r =>
+      cases hto : r.timeout with
+      | none => simp [step, hl, hto]
+      | some T => cases hh : r.handle <;> simp [step, hl, hto, hh, timerCancel]
+  · cases hl : lookup s tk with
+    | none => simp [step, hl]
+    | some r => simp [step, hl]
+  · cases hl : lookup s tk with
+    | none => simp [step, hl]
+    | some r =>
+      cases hto : r.timeout with
+      | none => simp [step, hl, hto]
+      | some T => cases hh : r.handle <;> simp [step, hl, hto, hh, timerCancel]
+  · cases hl : lookup s tk with
+    | none => simp [step, hl]
+    | some r =>
+      cases hto : r.timeout with
+      | none => simp [step, hl, hto]
+      | some T => cases hh : r.handle <;> simp [step, hl, hto, hh, timerCancel, timerStart]
+
+/-- every request a step registers is announced by that step -/
+theorem told_step {s : State} (op : Op) (h : SInv s) (hw : NoWrap (step s op).1) :
+    Told s (step s op).1 (step s op).2 := by
+  have hev := evolves_step s op
+  have hs := sinv_step op h hw
+  -- steps that draw no ticket and leave the set-ups alone: every request comes from a request
+  have hquiet : (step s op).1.draws = s.draws ∧ (step s op).1.pending = s.pending →
+      Told s (step s op).1 (step s op).2 := by
+    intro ⟨hd, hp⟩ r' hr'
+    rcases hev.reqs r' hr' with h0 | ⟨p, hpm, he⟩ | hlt
+    · exact .inl h0
+    · exact absurd he (by have := hs.pinv.pend_fresh p (by rw [hp]; exact hpm) r' hr'; omega)
+    · have := (hs.req_tk r' hr').2.2
+      omega
   cases op with
-  | base op => simp only [nstep]; split <;> rfl
-  | resume rid => exact nstep_resume_listeners s rid
+  | search k =>
+    simp only [step] at hw ⊢
+    by_cases hg : s.gated = true
+    · simp only [hg, if_true] at hw ⊢; exact told_of_rids _ (fun r' hr' => ⟨r', hr', rfl⟩)
+    · simp only [hg, if_false] at hw ⊢; exact told_newRequest h k _ hw
+  | settle => exact told_settle h hw
+  | tick => exact told_tick h hw
+  | wlInterval n => exact told_of_rids _ (fun r' hr' => ⟨r', hr', rfl⟩)
+  | serverClosing => exact told_of_rids _ (fun r' hr' => ⟨r', hr', rfl⟩)
+  | jump d => exact told_of_rids _ (fun r' hr' => ⟨r', hr', rfl⟩)
+  | gate b => exact told_of_rids _ (fun r' hr' => ⟨r', hr', rfl⟩)
+  | sendDone tk ok =>
+    simp only [step]
+    split <;> exact told_of_rids _ (fun r' hr' => ⟨r', hr', rfl⟩)
+  | cancelCall tk =>
+    simp only [step]
+    split <;> exact told_of_rids _ (fun r' hr' => ⟨r', hr', rfl⟩)
+  | remove tk => exact hquiet (step_keeps s _ (.inl ⟨tk, rfl⟩))
+  | reply tk => exact hquiet (step_keeps s _ (.inr (.inl ⟨tk, rfl⟩)))
+  | timerCancel tk => exact hquiet (step_keeps s _ (.inr (.inr (.inl ⟨tk, rfl⟩))))
+  | timerReschedule tk n => exact hquiet (step_keeps s _ (.inr (.inr (.inr ⟨tk, n, rfl⟩))))
 
-theorem noWrap_of_nstep (s : NState) (op : NOp) (h : NoWrap (nstep s op).1.base) : NoWrap s.base := by
-  cases op with
-  | base op => rw [nstep_base_base] at h; exact noWrap_of_step _ _ h
-  | resume rid => rw [nstep_resume_base] at h; exact h
 
-def toldKey : NObs → Option (Nat × Nat)
-  | .told _ rid _ i => some (rid, i)
-  | _ => none
+/-! ### a set-up whose send raised, or whose owner was cancelled, leaves nothing behind -/
 
-theorem pairwise_rid_inj {l : List Emission} (h : l.Pairwise (fun a b => a.rid ≠ b.rid)) :
+theorem pairwise_setup_inj {l : List Setup} (h : l.Pairwise (fun a b => a.rid ≠ b.rid)) :
     ∀ a ∈ l, ∀ b ∈ l, a.rid = b.rid → a = b := by
   induction l with
   | nil => intro a ha; cases ha
@@ -1936,621 +2468,517 @@ theorem pairwise_rid_inj {l : List Emission} (h : l.Pairwise (fun a b => a.rid 
     · exact absurd hab.symm (h.1 a ha')
     · exact ih h.2 a ha' b hb' hab
 
-@[simp] theorem bump_rid (rid : Nat) (e : Emission) : (bump rid e).rid = e.rid := by unfold bump; split <;> rfl
-@[simp] theorem bump_tid (rid : Nat) (e : Emission) : (bump rid e).tid = e.tid := by unfold bump; split <;> rfl
-@[simp] theorem bump_cancelled (rid : Nat) (e : Emission) : (bump rid e).cancelled = e.cancelled := by
-  unfold bump; split <;> rfl
-theorem bump_told (rid : Nat) (e : Emission) : (bump rid e).told = if e.rid = rid then e.told + 1 else e.told := by
-  unfold bump; split <;> rfl
+theorem wishlistRound_pending (n : Nat) (s : State) (o : List Obs) : (wishlistRound n s o).1.pending = s.pending := by
+  induction n generalizing s o with
+  | zero => rfl
+  | succ n ih => simp only [wishlistRound, ih, newRequest_pending]
 
-/-- The ledger of the removal reports.  `tr` is the trace so far. -/
-structure NInv (s : NState) (tr : List NObs) : Prop where
-  inv : Inv s.base
-  /-- a running report: not cancelled, between its first and its last listener, for a request that is gone, run
-  by a task that is not pending any more and whose id will never be handed out again -/
-  rep_ok : ∀ e ∈ s.reporting, e.cancelled = false ∧ 1 ≤ e.told ∧ e.told ≤ s.listeners ∧ Gone e.rid s.base ∧
-    e.tid < s.base.nextTask ∧ ∀ t ∈ s.base.tasks, t.id ≠ e.tid
-  rep_nodup : s.reporting.Pairwise (fun a b => a.rid ≠ b.rid)
-  /-- the listeners a running report has passed have been told -/
-  rep_told : ∀ e ∈ s.reporting, ∀ j, j < e.told → ∃ t' tk', NObs.told t' e.rid tk' j ∈ tr
-  told_ok : ∀ t rid tk i, NObs.told t rid tk i ∈ tr →
-    i < s.listeners ∧ Gone rid s.base ∧ ∀ e ∈ s.reporting, e.rid = rid → i < e.told
-  told_nodup : (tr.filterMap toldKey).Nodup
-  /-- nothing is lost: a listener has been told, or the report is still running and has not reached it yet -/
-  complete : ∀ t rid tk dl tid, NObs.base (.removed t rid tk dl tid) ∈ tr → ∀ i, i < s.listeners →
-    (∃ t' tk', NObs.told t' rid tk' i ∈ tr) ∨ ∃ e ∈ s.reporting, e.rid = rid ∧ e.told ≤ i
-  /-- a listener is only told of removals that happened -/
-  rep_src : ∀ e ∈ s.reporting, ∃ t0 dl, NObs.base (.removed t0 e.rid e.ticket dl e.tid) ∈ tr
-  told_src : ∀ t rid tk i, NObs.told t rid tk i ∈ tr → ∃ t0 dl tid, NObs.base (.removed t0 rid tk dl tid) ∈ tr
-  /-- listeners are told in registration order -/
-  in_order : ∀ t rid tk i, NObs.told t rid tk i ∈ tr → ∀ j, j < i → ∃ t' tk', NObs.told t' rid tk' j ∈ tr
-  no_abort : ∀ t rid tk i, NObs.aborted t rid tk i ∉ tr
+theorem roundGo_pending_sub (m : Nat) (s : State) (o : List Obs) : ∀ p ∈ s.pending, p ∈ (roundGo m s o).1.pending := by
+  intro p hp
+  unfold roundGo
+  split
+  · cases m with
+    | zero => exact hp
+    | succ m => simp only [beginSetup]; exact List.mem_append.2 (.inl hp)
+  · simp only [roundEnd]; rw [wishlistRound_pending]; exact hp
 
-theorem ninv_init (cfg : Cfg) (n : Nat) : NInv (ninit cfg n) [] := by
-  constructor
-  · exact inv_init cfg
-  · intro e he; cases he
-  · exact List.Pairwise.nil
-  · intro e he; cases he
-  · intro t rid tk i h; cases h
-  · exact List.nodup_nil
-  · intro t rid tk dl tid h; cases h
-  · intro e he; cases he
-  · intro t rid tk i h; cases h
-  · intro t rid tk i h; cases h
-  · intro t rid tk i h; cases h
-
-theorem mem_newEmission {obs : List Obs} {e : Emission} (h : e ∈ obs.filterMap newEmission) :
-    ∃ t dl, Obs.removed t e.rid e.ticket dl e.tid ∈ obs ∧ e.told = 1 ∧ e.cancelled = false := by
-  obtain ⟨x, hx, hxe⟩ := List.mem_filterMap.1 h
-  cases x with
-  | removed t rid tk dl tid =>
-    simp only [newEmission, Option.some.injEq] at hxe
-    subst hxe
-    exact ⟨t, dl, hx, rfl, rfl⟩
-  | _ => simp [newEmission] at hxe
-
-theorem mem_firstTold {obs : List Obs} {x : NObs} (h : x ∈ obs.filterMap firstTold) :
-    ∃ t rid tk dl tid, Obs.removed t rid tk dl tid ∈ obs ∧ x = .told t rid tk 0 := by
-  obtain ⟨y, hy, hyx⟩ := List.mem_filterMap.1 h
-  cases y with
-  | removed t rid tk dl tid =>
-    simp only [firstTold, Option.some.injEq] at hyx
-    exact ⟨t, rid, tk, dl, tid, hy, hyx.symm⟩
-  | _ => simp [firstTold] at hyx
-
-theorem newEmission_of_removed {obs : List Obs} {t rid tk dl tid : Nat} (h : Obs.removed t rid tk dl tid ∈ obs) :
-    ({ rid := rid, ticket := tk, tid := tid, told := 1, cancelled := false } : Emission) ∈ obs.filterMap newEmission :=
-  List.mem_filterMap.2 ⟨_, h, rfl⟩
-
-theorem firstTold_of_removed {obs : List Obs} {t rid tk dl tid : Nat} (h : Obs.removed t rid tk dl tid ∈ obs) :
-    NObs.told t rid tk 0 ∈ obs.filterMap firstTold :=
-  List.mem_filterMap.2 ⟨_, h, rfl⟩
-
-theorem newEmission_rids (obs : List Obs) : (obs.filterMap newEmission).map (·.rid) = obs.filterMap removedRid := by
-  rw [List.map_filterMap]
-  congr 1
-  funext x
-  cases x <;> rfl
-
-theorem firstTold_keys (obs : List Obs) :
-    (obs.filterMap firstTold).filterMap toldKey = (obs.filterMap removedRid).map (fun r => (r, 0)) := by
-  rw [List.filterMap_filterMap, List.map_filterMap]
-  congr 1
-  funext x
-  cases x <;> rfl
-
-theorem base_keys (obs : List Obs) : (obs.map NObs.base).filterMap toldKey = [] := by
-  rw [List.filterMap_map]
-  apply List.filterMap_eq_nil_iff.2
-  intro x _
-  rfl
-
-/-- what a base step reports about removals -/
-theorem step_removed_facts {s : State} (op : Op) (h : Inv s) (hw : NoWrap (step s op).1) {t rid tk dl tid : Nat}
-    (hx : Obs.removed t rid tk dl tid ∈ (step s op).2) :
-    (∃ r ∈ s.requests, r.rid = rid) ∧ Gone rid (step s op).1 ∧ tid < s.nextTask ∧
-      ∀ x ∈ (step s op).1.tasks, x.id ≠ tid := by
-  have hok := step_obs op h hw _ hx
-  obtain ⟨hop, _, _, _, q, hq, hq1, _⟩ := hok
-  subst hop
-  have := settle_fired_not_pending h hx
-  exact ⟨⟨q, hq, hq1⟩, gone_after_timeout h hw hx, this.1, this.2⟩
-
-theorem ninv_resume {s : NState} {tr : List NObs} (rid : Nat) (h : NInv s tr) :
-    NInv (nstep s (.resume rid)).1 (tr ++ (nstep s (.resume rid)).2) := by
-  obtain ⟨hinv, hrep, hnd, hrt, htold, hkeys, hcomp, hrs, hts, hord, hab⟩ := h
-  have hinj := pairwise_rid_inj hnd
-  have hnil : ∀ x : NObs, toldKey x = none → (tr ++ [x]).filterMap toldKey = tr.filterMap toldKey := by
-    intro x hx
-    rw [List.filterMap_append]
-    simp [hx]
-  simp only [nstep]
-  cases hf : s.reporting.find? (fun e => decide (e.rid = rid)) with
-  | none =>
+/-- the step of another set-up's owner leaves this set-up as it is -/
+theorem completeOne_other {s : State} {rid : Nat} (o : List Obs) {p : Setup} (hp : p ∈ s.pending) (hne : p.rid ≠ rid) :
+    p ∈ (completeOne s rid o).1.pending := by
+  unfold completeOne
+  cases hf : s.pending.find? (fun q => decide (q.rid = rid)) with
+  | none => exact hp
+  | some q =>
+    have hq : q.rid = rid := by simpa using List.find?_some hf
     simp only []
-    constructor
-    · exact hinv
-    · exact hrep
-    · exact hnd
-    · intro e he j hj
-      obtain ⟨t', tk', h1⟩ := hrt e he j hj
-      exact ⟨t', tk', List.mem_append.2 (.inl h1)⟩
-    · intro t r tk i hm
-      rcases List.mem_append.1 hm with hm | hm
-      · exact htold t r tk i hm
-      · simp at hm
-    · rw [hnil _ rfl]; exact hkeys
-    · intro t r tk dl tid hm i hi
-      have hm' : NObs.base (.removed t r tk dl tid) ∈ tr := by
-        rcases List.mem_append.1 hm with hm | hm
-        · exact hm
-        · simp at hm
-      rcases hcomp t r tk dl tid hm' i hi with ⟨t', tk', h1⟩ | h1
-      · exact .inl ⟨t', tk', List.mem_append.2 (.inl h1)⟩
-      · exact .inr h1
-    · intro e he
-      obtain ⟨t0, dl, h1⟩ := hrs e he
-      exact ⟨t0, dl, List.mem_append.2 (.inl h1)⟩
-    · intro t r tk i hm
-      rcases List.mem_append.1 hm with hm | hm
-      · obtain ⟨t0, dl, tid, h1⟩ := hts t r tk i hm
-        exact ⟨t0, dl, tid, List.mem_append.2 (.inl h1)⟩
-      · simp at hm
-    · intro t r tk i hm j hj
-      rcases List.mem_append.1 hm with hm | hm
-      · obtain ⟨t', tk', h1⟩ := hord t r tk i hm j hj
-        exact ⟨t', tk', List.mem_append.2 (.inl h1)⟩
-      · simp at hm
-    · intro t r tk i hm
-      rcases List.mem_append.1 hm with hm | hm
-      · exact hab t r tk i hm
-      · simp at hm
-  | some e =>
-    have hem : e ∈ s.reporting := List.mem_of_find?_eq_some hf
-    have her : e.rid = rid := by simpa using List.find?_some hf
-    obtain ⟨hec, he1, hen, heg, het, hett⟩ := hrep e hem
-    simp only [hec, Bool.false_eq_true, if_false]
-    by_cases hlt : e.told < s.listeners
-    · -- the next listener is called
-      simp only [hlt, if_true]
-      have hbump : ∀ e0 ∈ s.reporting, e0.rid = rid → e0 = e := fun e0 h0 hr => hinj e0 h0 e hem (by omega)
-      constructor
-      · exact hinv
-      · intro e' he'
-        obtain ⟨e0, he0, rfl⟩ := List.mem_map.1 he'
-        obtain ⟨a, b, c, d, f, g⟩ := hrep e0 he0
-        refine ⟨by simpa using a, ?_, ?_, by simpa using d, by simpa using f, by simpa using g⟩
-        · rw [bump_told]; split <;> omega
-        · show (bump rid e0).told ≤ s.listeners
-          rw [bump_told]
-          split
-          · rename_i hr; have := hbump e0 he0 hr; subst this; omega
-          · exact c
-      · rw [List.pairwise_map]
-        simpa using hnd
-      · intro e' he' j hj
-        obtain ⟨e0, he0, rfl⟩ := List.mem_map.1 he'
-        rw [bump_told] at hj
-        rw [bump_rid]
-        by_cases hr : e0.rid = rid
-        · have h0 := hbump e0 he0 hr
-          subst h0
-          rw [if_pos hr] at hj
-          by_cases hj' : j < e0.told
-          · obtain ⟨t', tk', h1⟩ := hrt e0 he0 j hj'
-            exact ⟨t', tk', List.mem_append.2 (.inl h1)⟩
-          · have : j = e0.told := by omega
-            subst this
-            exact ⟨s.base.now, e0.ticket, List.mem_append.2 (.inr (by simp))⟩
-        · rw [if_neg hr] at hj
-          obtain ⟨t', tk', h1⟩ := hrt e0 he0 j hj
-          exact ⟨t', tk', List.mem_append.2 (.inl h1)⟩
-      · intro t r tk i hm
-        rcases List.mem_append.1 hm with hm | hm
-        · obtain ⟨a, b, c⟩ := htold t r tk i hm
-          refine ⟨a, b, ?_⟩
-          intro e' he' her'
-          obtain ⟨e0, he0, rfl⟩ := List.mem_map.1 he'
-          have := c e0 he0 (by simpa using her')
-          rw [bump_told]; split <;> omega
-        · simp only [List.mem_singleton, NObs.told.injEq] at hm
-          obtain ⟨_, rfl, _, rfl⟩ := hm
-          refine ⟨hlt, heg, ?_⟩
-          intro e' he' her'
-          obtain ⟨e0, he0, rfl⟩ := List.mem_map.1 he'
-          have h0 : e0 = e := hinj e0 he0 e hem (by simpa using her')
-          subst h0
-          rw [bump_told, if_pos her]; omega
-      · rw [List.filterMap_append, List.nodup_append]
-        refine ⟨hkeys, by simp [toldKey], ?_⟩
-        intro a ha b hb hab
-        simp only [List.filterMap_cons, toldKey, List.filterMap_nil, List.mem_singleton] at hb
-        subst hab hb
-        obtain ⟨x, hx, hxk⟩ := List.mem_filterMap.1 ha
-        cases x with
-        | told t' r' tk' i' =>
-          simp only [toldKey, Option.some.injEq, Prod.mk.injEq] at hxk
-          obtain ⟨rfl, rfl⟩ := hxk
-          have := (htold t' _ tk' _ hx).2.2 e hem rfl
-          omega
-        | _ => simp [toldKey] at hxk
-      · intro t r tk dl tid hm i hi
-        have hm' : NObs.base (.removed t r tk dl tid) ∈ tr := by
-          rcases List.mem_append.1 hm with hm | hm
-          · exact hm
-          · simp at hm
-        rcases hcomp t r tk dl tid hm' i hi with ⟨t', tk', h1⟩ | ⟨e0, he0, h1, h2⟩
-        · exact .inl ⟨t', tk', List.mem_append.2 (.inl h1)⟩
-        · by_cases hr : e0.rid = rid
-          · have h0 := hbump e0 he0 hr
-            subst h0
-            by_cases hi' : e0.told = i
-            · left
-              refine ⟨s.base.now, e0.ticket, List.mem_append.2 (.inr ?_)⟩
-              simp [← h1, hi']
-            · right
-              refine ⟨bump rid e0, List.mem_map.2 ⟨e0, he0, rfl⟩, by simpa using h1, ?_⟩
-              rw [bump_told, if_pos hr]; omega
-          · right
-            refine ⟨bump rid e0, List.mem_map.2 ⟨e0, he0, rfl⟩, by simpa using h1, ?_⟩
-            rw [bump_told, if_neg hr]; exact h2
-      · intro e' he'
-        obtain ⟨e0, he0, rfl⟩ := List.mem_map.1 he'
-        obtain ⟨t0, dl, h1⟩ := hrs e0 he0
-        refine ⟨t0, dl, List.mem_append.2 (.inl ?_)⟩
-        have : (bump rid e0).ticket = e0.ticket := by unfold bump; split <;> rfl
-        rw [bump_rid, bump_tid, this]; exact h1
-      · intro t r tk i hm
-        rcases List.mem_append.1 hm with hm | hm
-        · obtain ⟨t0, dl, tid, h1⟩ := hts t r tk i hm
-          exact ⟨t0, dl, tid, List.mem_append.2 (.inl h1)⟩
-        · simp only [List.mem_singleton, NObs.told.injEq] at hm
-          obtain ⟨_, rfl, rfl, _⟩ := hm
-          obtain ⟨t0, dl, h1⟩ := hrs e hem
-          exact ⟨t0, dl, e.tid, List.mem_append.2 (.inl h1)⟩
-      · intro t r tk i hm j hj
-        rcases List.mem_append.1 hm with hm | hm
-        · obtain ⟨t', tk', h1⟩ := hord t r tk i hm j hj
-          exact ⟨t', tk', List.mem_append.2 (.inl h1)⟩
-        · simp only [List.mem_singleton, NObs.told.injEq] at hm
-          obtain ⟨_, rfl, _, rfl⟩ := hm
-          obtain ⟨t', tk', h1⟩ := hrt e hem j hj
-          exact ⟨t', tk', List.mem_append.2 (.inl h1)⟩
-      · intro t r tk i hm
-        rcases List.mem_append.1 hm with hm | hm
-        · exact hab t r tk i hm
-        · simp at hm
-    · -- the last listener has returned: `emit` returns, the task is done
-      simp only [hlt, if_false]
-      constructor
-      · exact hinv
-      · intro e' he'; exact hrep e' (List.mem_filter.1 he').1
-      · exact hnd.filter _
-      · intro e' he' j hj
-        obtain ⟨t', tk', h1⟩ := hrt e' (List.mem_filter.1 he').1 j hj
-        exact ⟨t', tk', List.mem_append.2 (.inl h1)⟩
-      · intro t r tk i hm
-        rcases List.mem_append.1 hm with hm | hm
-        · obtain ⟨a, b, c⟩ := htold t r tk i hm
-          exact ⟨a, b, fun e' he' => c e' (List.mem_filter.1 he').1⟩
-        · simp at hm
-      · rw [hnil _ rfl]; exact hkeys
-      · intro t r tk dl tid hm i hi
-        have hi : i < s.listeners := hi
-        have hm' : NObs.base (.removed t r tk dl tid) ∈ tr := by
-          rcases List.mem_append.1 hm with hm | hm
-          · exact hm
-          · simp at hm
-        rcases hcomp t r tk dl tid hm' i hi with ⟨t', tk', h1⟩ | ⟨e0, he0, h1, h2⟩
-        · exact .inl ⟨t', tk', List.mem_append.2 (.inl h1)⟩
-        · by_cases hr : e0.rid = rid
-          · have h0 : e0 = e := hinj e0 he0 e hem (by omega)
-            subst h0; omega
-          · exact .inr ⟨e0, List.mem_filter.2 ⟨he0, by simpa using hr⟩, h1, h2⟩
-      · intro e' he'
-        obtain ⟨t0, dl, h1⟩ := hrs e' (List.mem_filter.1 he').1
-        exact ⟨t0, dl, List.mem_append.2 (.inl h1)⟩
-      · intro t r tk i hm
-        rcases List.mem_append.1 hm with hm | hm
-        · obtain ⟨t0, dl, tid, h1⟩ := hts t r tk i hm
-          exact ⟨t0, dl, tid, List.mem_append.2 (.inl h1)⟩
-        · simp at hm
-      · intro t r tk i hm j hj
-        rcases List.mem_append.1 hm with hm | hm
-        · obtain ⟨t', tk', h1⟩ := hord t r tk i hm j hj
-          exact ⟨t', tk', List.mem_append.2 (.inl h1)⟩
-        · simp at hm
-      · intro t r tk i hm
-        rcases List.mem_append.1 hm with hm | hm
-        · exact hab t r tk i hm
-        · simp at hm
+    cases ho : q.outcome with
+    | none => exact hp
+    | some ok =>
+      simp only []
+      have hfil : p ∈ s.pending.filter (fun x => decide (x.rid ≠ q.rid)) :=
+        List.mem_filter.2 ⟨hp, by simp; omega⟩
+      cases ok with
+      | true =>
+        simp only [if_true]
+        split
+        · apply roundGo_pending_sub; rw [register_pending]; exact hfil
+        · rw [register_pending]; exact hfil
+      | false =>
+        simp only [Bool.false_eq_true, if_false]
+        split <;> exact hfil
 
-theorem ninv_base {s : NState} {tr : List NObs} (op : Op) (h : NInv s tr) (hw : NoWrap (step s.base op).1) :
-    NInv (nstep s (.base op)).1 (tr ++ (nstep s (.base op)).2) := by
-  obtain ⟨hinv, hrep, hnd, hrt, htold, hkeys, hcomp, hrs, hts, hord, hab⟩ := h
-  have hinv' := inv_step op hinv hw
-  have hgrow := grows_step s.base op
-  -- `Timer.cancel` never reaches a reporting task
-  have hhit : s.reporting.map (hit (cancelTarget s.base op)) = s.reporting := by
-    rw [List.map_congr_left (g := id)]
-    · simp
-    · intro e he
-      unfold hit
+/-- the owner of a set-up whose send raised (or who was cancelled) takes its next step: the set-up is gone -/
+theorem completeOne_failed {s : State} (o : List Obs) (h : SInv s) {p : Setup} (hp : p ∈ s.pending)
+    (ho : p.outcome = some false) : Gone p.rid (completeOne s p.rid o).1 := by
+  unfold completeOne
+  cases hf : s.pending.find? (fun q => decide (q.rid = p.rid)) with
+  | none =>
+    have := List.find?_eq_none.1 hf p hp
+    simp at this
+  | some q =>
+    have hq : q.rid = p.rid := by simpa using List.find?_some hf
+    have hqm : q ∈ s.pending := List.mem_of_find?_eq_some hf
+    have : q = p := pairwise_setup_inj h.pinv.pend_nodup q hqm p hp hq
+    subst this
+    simp only [ho, Bool.false_eq_true, if_false]
+    have hg : ∀ s0 : State, s0.draws = s.draws → s0.requests = s.requests →
+        s0.pending = s.pending.filter (fun x => decide (x.rid ≠ q.rid)) → Gone q.rid s0 := by
+      intro s0 h1 h2 h3
+      refine ⟨by rw [h1]; exact (h.pinv.pend_tk q hp).2.2, ?_, ?_⟩
+      · intro r hr; rw [h2] at hr; exact h.pinv.pend_fresh q hp r hr
+      · intro x hx; rw [h3] at hx; simpa using (List.mem_filter.1 hx).2
+    split <;> exact hg _ rfl rfl rfl
+
+theorem completeAll_failed (rids : List Nat) {s : State} (o : List Obs) (h : SInv s)
+    (hw : NoWrap (completeAll rids s o).1) {p : Setup} (hp : p ∈ s.pending) (ho : p.outcome = some false)
+    (hmem : p.rid ∈ rids) : Gone p.rid (completeAll rids s o).1 := by
+  induction rids generalizing s o with
+  | nil => cases hmem
+  | cons rid rids ih =>
+    simp only [completeAll] at hw ⊢
+    have hw1 : NoWrap (completeOne s rid o).1 := noWrap_of_adds (adds_completeAll rids _ _) hw
+    by_cases he : p.rid = rid
+    · subst he
+      exact gone_of_evolves (evolves_of_adds (adds_completeAll rids _ _)) (completeOne_failed o h hp ho)
+    · have hmem' : p.rid ∈ rids := by
+        rcases List.mem_cons.1 hmem with h0 | h0
+        · exact absurd h0 he
+        · exact h0
+      exact ih _ (ok_completeOne rid o h hw1).1 hw (completeOne_other o hp he) hmem'
+
+theorem completeSetups_failed {s : State} (o : List Obs) (h : SInv s) (hw : NoWrap (completeSetups s o).1) {p : Setup}
+    (hp : p ∈ s.pending) (ho : p.outcome = some false) : Gone p.rid (completeSetups s o).1 :=
+  completeAll_failed _ o h hw hp ho (List.mem_map.2 ⟨p, hp, rfl⟩)
+
+/-- a set-up whose send raised, or whose owner was cancelled, is gone after the next loop iteration -/
+theorem tick_failed {s : State} (h : SInv s) (hw : NoWrap (tick s).1) {p : Setup} (hp : p ∈ s.pending)
+    (ho : p.outcome = some false) : Gone p.rid (tick s).1 := by
+  simp only [tick] at hw ⊢
+  have hw1 : NoWrap (completeSetups (tickTimers s).1 (tickTimers s).2).1 :=
+    noWrap_of_adds (adds_tickWishlist _ _) hw
+  have hg := completeSetups_failed (tickTimers s).2 (sinv_tickTimers h) hw1 (p := p)
+    (by rw [tickTimers_pending]; exact hp) ho
+  exact gone_of_evolves (evolves_of_adds (adds_tickWishlist _ _)) hg
+
+theorem settle_failed {s : State} (h : SInv s) (hw : NoWrap (settle s).1) {p : Setup} (hp : p ∈ s.pending)
+    (ho : p.outcome = some false) : Gone p.rid (settle s).1 := by
+  simp only [settle] at hw ⊢
+  have hw2 : NoWrap (settleWishlist (completeSetups (settleTimers s).1 (settleTimers s).2).1
+      (completeSetups (settleTimers s).1 (settleTimers s).2).2).1 := hw
+  have hw1 : NoWrap (completeSetups (settleTimers s).1 (settleTimers s).2).1 :=
+    noWrap_of_adds (adds_settleWishlist _ _) hw2
+  have hg := completeSetups_failed (settleTimers s).2 (sinv_settleTimers h) hw1 (p := p)
+    (by rw [settleTimers_pending]; exact hp) ho
+  exact gone_of_evolves ((evolves_of_adds (adds_settleWishlist _ _)).trans (evolves_startAll _)) hg
+
+/-- cancelling the wishlist task drops the set-up of its round at once -/
+theorem cancelWishlist_gone {s : State} (h : SInv s) {p : Setup} (hp : p ∈ s.pending) (hk : p.kind = .wishlist) :
+    Gone p.rid (cancelWishlist s) := by
+  refine ⟨(h.pinv.pend_tk p hp).2.2, fun r hr => h.pinv.pend_fresh p hp r hr, ?_⟩
+  intro x hx heq
+  obtain ⟨hxm, hxk⟩ := List.mem_filter.1 hx
+  have := pairwise_setup_inj h.pinv.pend_nodup x hxm p hp heq
+  subst this
+  simp [hk] at hxk
+
+
+/-! ### a registered request has a Timer iff a timeout is in force for it, and the Timer is armed -/
+
+/-- request `r` has a Timer exactly when a timeout is configured for its kind; with `strict`, the Timer holds a task -/
+def Good (c : Cfg) (strict : Bool) (r : Req) : Prop :=
+  (r.kind ≠ .wishlist → (r.timeout ≠ none ↔ 0 < c.requestTimeout)) ∧
+  (r.kind = .wishlist → 0 < c.wishlistTimeout → r.timeout ≠ none) ∧
+  (strict = true → r.timeout ≠ none → r.handle ≠ none)
+
+def AllGood (strict : Bool) (s : State) : Prop := ∀ r ∈ s.requests, Good s.cfg strict r
+
+theorem requestTimeout_iff (c : Cfg) : requestTimeout c ≠ none ↔ 0 < c.requestTimeout := by
+  unfold requestTimeout; split <;> simp_all
+
+theorem wishlistTimeout_own {s : State} (h : 0 < s.cfg.wishlistTimeout) : wishlistTimeout s ≠ none := by
+  unfold wishlistTimeout
+  have h1 : ¬ s.cfg.wishlistTimeout < 0 := by omega
+  have h2 : s.cfg.wishlistTimeout.toNat ≠ 0 := by omega
+  simp [h1, h2]
+
+/-- a fresh request with the timeout of its kind, before `Timer.start` -/
+theorem good_fresh (s : State) (b : Bool) (rid tk : Nat) (k : Kind) (to : Option Nat)
+    (h1 : k ≠ .wishlist → to = requestTimeout s.cfg) (h2 : k = .wishlist → to = wishlistTimeout s) (hto : to = none) :
+    Good s.cfg b { rid := rid, ticket := tk, kind := k, timeout := to, handle := none, results := 0 } := by
+  refine ⟨?_, ?_, ?_⟩
+  · intro hk; simp only []; rw [h1 hk]; exact requestTimeout_iff _
+  · intro hk hpos; simp only []; rw [h2 hk]; exact wishlistTimeout_own hpos
+  · intro _ hne; simp only [] at hne; exact absurd hto hne
+
+theorem good_fresh_armed (s : State) (b : Bool) (rid tk id : Nat) (k : Kind) (to : Option Nat)
+    (h1 : k ≠ .wishlist → to = requestTimeout s.cfg) (h2 : k = .wishlist → to = wishlistTimeout s) :
+    Good s.cfg b { rid := rid, ticket := tk, kind := k, timeout := to, handle := some id, results := 0 } := by
+  refine ⟨?_, ?_, ?_⟩
+  · intro hk; simp only []; rw [h1 hk]; exact requestTimeout_iff _
+  · intro hk hpos; simp only []; rw [h2 hk]; exact wishlistTimeout_own hpos
+  · intro _ _; simp
+
+theorem good_withHandle {c : Cfg} {b : Bool} {q : Req} (h : Good c b q) (id : Nat) :
+    Good c b { q with handle := some id } :=
+  ⟨h.1, h.2.1, fun _ _ => by simp⟩
+
+/-- the list part of a registration: the others stay, the new request gets its Timer started -/
+theorem allGood_added (s : State) (b : Bool) (old : List Req) (rid tk : Nat) (k : Kind) (to : Option Nat) (id : Nat)
+    (h1 : k ≠ .wishlist → to = requestTimeout s.cfg) (h2 : k = .wishlist → to = wishlistTimeout s)
+    (hold : ∀ r ∈ old, Good s.cfg b r) :
+    (to = none → ∀ r ∈ old ++ [({ rid := rid, ticket := tk, kind := k, timeout := to, handle := none, results := 0 } : Req)],
+      Good s.cfg b r) ∧
+    (∀ r ∈ setHandle (old ++ [({ rid := rid, ticket := tk, kind := k, timeout := to, handle := none, results := 0 } : Req)])
+      rid (some id), Good s.cfg b r) := by
+  constructor
+  · intro hto r hr
+    rcases List.mem_append.1 hr with hr | hr
+    · exact hold r hr
+    · simp at hr; subst hr; exact good_fresh s b rid tk k to h1 h2 hto
+  · intro r hr
+    unfold setHandle at hr
+    obtain ⟨q, hq, rfl⟩ := List.mem_map.1 hr
+    rcases List.mem_append.1 hq with hq | hq
+    · split
+      · exact good_withHandle (hold q hq) id
+      · exact hold q hq
+    · simp at hq; subst hq
+      simp only [if_true]
+      exact good_fresh_armed s b rid tk id k to h1 h2
+
+theorem allGood_newRequest {s : State} (b : Bool) (k : Kind) (to : Option Nat)
+    (h1 : k ≠ .wishlist → to = requestTimeout s.cfg) (h2 : k = .wishlist → to = wishlistTimeout s)
+    (h : AllGood b s) : AllGood b (newRequest s k to).1 := by
+  intro r hr
+  rw [newRequest_cfg]
+  rw [newRequest_state] at hr
+  have hold : ∀ r ∈ s.requests.filter (fun r => decide (r.ticket ≠ nextTicket s.cfg.initial s.gen)), Good s.cfg b r :=
+    fun r hr => h r (List.mem_filter.1 hr).1
+  have := allGood_added s b _ (s.draws + 1) (nextTicket s.cfg.initial s.gen) k to s.nextTask h1 h2 hold
+  cases to with
+  | none => exact this.1 rfl r hr
+  | some T => exact this.2 r hr
+
+theorem wishlistTimeout_congr {s s' : State} (h1 : s'.cfg = s.cfg) (h2 : s'.wlInterval = s.wlInterval) :
+    wishlistTimeout s' = wishlistTimeout s := by
+  unfold wishlistTimeout; rw [h1, h2]
+
+theorem allGood_wishlistRound (n : Nat) {s : State} (b : Bool) (o : List Obs) (h : AllGood b s) :
+    AllGood b (wishlistRound n s o).1 := by
+  induction n generalizing s o with
+  | zero => exact h
+  | succ n ih =>
+    simp only [wishlistRound]
+    exact ih _ (allGood_newRequest b .wishlist _ (fun hk => absurd rfl hk) (fun _ => rfl) h)
+
+theorem allGood_of_reqs {s s' : State} {b : Bool} (h : AllGood b s) (h1 : s'.cfg = s.cfg) (h2 : s'.requests = s.requests) :
+    AllGood b s' := by
+  intro r hr; rw [h1]; rw [h2] at hr; exact h r hr
+
+theorem kindTimeout_spec (s : State) (k : Kind) :
+    (k ≠ .wishlist → kindTimeout s k = requestTimeout s.cfg) ∧ (k = .wishlist → kindTimeout s k = wishlistTimeout s) := by
+  cases k <;> simp [kindTimeout]
+
+theorem allGood_register {s : State} (b : Bool) (p : Setup) (h : AllGood b s) : AllGood b (register s p).1 := by
+  intro r hr
+  rw [register_cfg]
+  have hold : ∀ r ∈ s.requests.filter (fun r => decide (r.ticket ≠ p.ticket)), Good s.cfg b r :=
+    fun r hr => h r (List.mem_filter.1 hr).1
+  have := allGood_added s b _ p.rid p.ticket p.kind (kindTimeout s p.kind) s.nextTask (kindTimeout_spec s p.kind).1
+    (kindTimeout_spec s p.kind).2 hold
+  unfold register at hr
+  cases hk : kindTimeout s p.kind with
+  | none => rw [hk] at this; simp only [hk] at hr; exact this.1 rfl r hr
+  | some T => rw [hk] at this; simp only [hk, timerStart] at hr; exact this.2 r hr
+
+theorem allGood_roundGo (m : Nat) {s : State} (b : Bool) (o : List Obs) (h : AllGood b s) : AllGood b (roundGo m s o).1 := by
+  unfold roundGo
+  split
+  · cases m with
+    | zero => exact allGood_of_reqs h rfl rfl
+    | succ m => exact allGood_of_reqs h rfl rfl
+  · exact allGood_of_reqs (allGood_wishlistRound m b o h) rfl rfl
+
+theorem allGood_completeOne {s : State} (b : Bool) (rid : Nat) (o : List Obs) (h : AllGood b s) :
+    AllGood b (completeOne s rid o).1 := by
+  unfold completeOne
+  split
+  · exact h
+  · split
+    · exact h
+    · have h0 : ∀ p : Setup, AllGood b { s with pending := s.pending.filter (fun q => decide (q.rid ≠ p.rid)) } :=
+        fun p => allGood_of_reqs h rfl rfl
       split
-      · rename_i hc
-        obtain ⟨t, ht, hid, _⟩ := cancelTarget_task hinv hc
-        exact absurd hid ((hrep e he).2.2.2.2.2 t ht)
-      · rfl
-  -- the running reports stay as they are
-  have hold : ∀ e ∈ s.reporting, e.cancelled = false ∧ 1 ≤ e.told ∧ e.told ≤ s.listeners ∧ Gone e.rid (step s.base op).1 ∧
-      e.tid < (step s.base op).1.nextTask ∧ ∀ t ∈ (step s.base op).1.tasks, t.id ≠ e.tid := by
-    intro e he
-    obtain ⟨a, b, c, d, f, g⟩ := hrep e he
-    refine ⟨a, b, c, gone_step op d, by have := hgrow.1; omega, ?_⟩
-    intro t ht
-    rcases hgrow.2 t ht with ⟨t0, ht0, he0⟩ | hge
-    · have := g t0 ht0; omega
-    · omega
-  by_cases hn : s.listeners = 0
-  · -- nobody listens: nothing to report, nothing is reporting
-    have hnone : s.reporting = [] := by
-      cases hr : s.reporting with
-      | nil => rfl
-      | cons e es =>
-        have := hrep e (by rw [hr]; simp)
-        omega
-    simp only [nstep, hn, if_true, hhit]
-    constructor
-    · exact hinv'
-    · intro e he
-      have he : e ∈ s.reporting := he
-      rw [hnone] at he; cases he
-    · exact hnd
-    · intro e he
-      have he : e ∈ s.reporting := he
-      rw [hnone] at he; cases he
-    · intro t r tk i hm
-      rcases List.mem_append.1 hm with hm | hm
-      · have := (htold t r tk i hm).1; omega
-      · simp at hm
-    · rw [List.filterMap_append, base_keys, List.append_nil]; exact hkeys
-    · intro t r tk dl tid _ i hi
-      have hi : i < 0 := hi
-      omega
-    · intro e he
-      have he : e ∈ s.reporting := he
-      rw [hnone] at he; cases he
-    · intro t r tk i hm
-      rcases List.mem_append.1 hm with hm | hm
-      · have := (htold t r tk i hm).1; omega
-      · simp at hm
-    · intro t r tk i hm
-      rcases List.mem_append.1 hm with hm | hm
-      · have := (htold t r tk i hm).1; omega
-      · simp at hm
-    · intro t r tk i hm
-      rcases List.mem_append.1 hm with hm | hm
-      · exact hab t r tk i hm
-      · simp at hm
-  · simp only [nstep, hn, if_false, hhit]
-    have hpos : 0 < s.listeners := Nat.pos_of_ne_zero hn
-    have hfacts : ∀ t rid tk dl tid, Obs.removed t rid tk dl tid ∈ (step s.base op).2 →
-        (∃ r ∈ s.base.requests, r.rid = rid) ∧ Gone rid (step s.base op).1 ∧ tid < s.base.nextTask ∧
-          ∀ x ∈ (step s.base op).1.tasks, x.id ≠ tid := fun t rid tk dl tid hx => step_removed_facts op hinv hw hx
-    -- a request that is gone is not removed again
-    have hfresh : ∀ t rid tk dl tid, Obs.removed t rid tk dl tid ∈ (step s.base op).2 → ¬ Gone rid s.base := by
-      intro t rid tk dl tid hx hg
-      obtain ⟨⟨r, hr, hr1⟩, _⟩ := hfacts t rid tk dl tid hx
-      exact hg.2 r hr hr1
-    have hsplit : ∀ x, x ∈ tr ++ ((step s.base op).2.map NObs.base ++ (step s.base op).2.filterMap firstTold) →
-        x ∈ tr ∨ (∃ o ∈ (step s.base op).2, x = .base o) ∨
-          ∃ t rid tk dl tid, Obs.removed t rid tk dl tid ∈ (step s.base op).2 ∧ x = .told t rid tk 0 := by
-      intro x hx
-      rcases List.mem_append.1 hx with hx | hx
-      · exact .inl hx
-      · rcases List.mem_append.1 hx with hx | hx
-        · obtain ⟨o, ho, rfl⟩ := List.mem_map.1 hx
-          exact .inr (.inl ⟨o, ho, rfl⟩)
-        · exact .inr (.inr (mem_firstTold hx))
-    constructor
-    · exact hinv'
-    · intro e he
-      rcases List.mem_append.1 he with he | he
-      · exact hold e he
-      · obtain ⟨t, dl, hx, h1, h2⟩ := mem_newEmission he
-        obtain ⟨_, hg, hlt, hnp⟩ := hfacts _ _ _ _ _ hx
-        exact ⟨h2, by omega, by show e.told ≤ s.listeners; omega, hg,
-          by show e.tid < (step s.base op).1.nextTask; have := hgrow.1; omega, hnp⟩
-    · rw [List.pairwise_append]
-      refine ⟨hnd, ?_, ?_⟩
-      · have hnodup : ((step s.base op).2.filterMap removedRid).Nodup := step_removedRid_nodup op hinv hw
-        rw [← newEmission_rids, List.Nodup, List.pairwise_map] at hnodup
-        exact hnodup
-      · intro a ha b hb heq
-        obtain ⟨t, dl, hx, _⟩ := mem_newEmission hb
-        exact hfresh _ _ _ _ _ hx (heq ▸ (hrep a ha).2.2.2.1)
-    · intro e he j hj
-      rcases List.mem_append.1 he with he | he
-      · obtain ⟨t', tk', h1⟩ := hrt e he j hj
-        exact ⟨t', tk', List.mem_append.2 (.inl h1)⟩
-      · obtain ⟨t, dl, hx, h1, _⟩ := mem_newEmission he
-        have : j = 0 := by omega
-        subst this
-        exact ⟨t, e.ticket, List.mem_append.2 (.inr (List.mem_append.2 (.inr (firstTold_of_removed hx))))⟩
-    · intro t r tk i hm
-      rcases hsplit _ hm with hm | ⟨o, _, ho⟩ | ⟨t0, rid0, tk0, dl0, tid0, hx, hxe⟩
-      · obtain ⟨a, b, c⟩ := htold t r tk i hm
-        refine ⟨a, gone_step op b, ?_⟩
-        intro e he her
-        rcases List.mem_append.1 he with he | he
-        · exact c e he her
-        · obtain ⟨t1, dl1, hx1, _⟩ := mem_newEmission he
-          exact absurd (her ▸ b) (hfresh _ _ _ _ _ hx1)
-      · cases ho
-      · simp only [NObs.told.injEq] at hxe
-        obtain ⟨rfl, rfl, rfl, rfl⟩ := hxe
-        obtain ⟨_, hg, _, _⟩ := hfacts _ _ _ _ _ hx
-        refine ⟨hpos, hg, ?_⟩
-        intro e he her
-        rcases List.mem_append.1 he with he | he
-        · have := (hrep e he).2.1; omega
-        · obtain ⟨_, _, _, h1, _⟩ := mem_newEmission he
-          omega
-    · rw [List.filterMap_append, List.filterMap_append, base_keys, List.nil_append, firstTold_keys, List.nodup_append]
-      refine ⟨hkeys, ?_, ?_⟩
-      · have hnodup : ((step s.base op).2.filterMap removedRid).Nodup := step_removedRid_nodup op hinv hw
-        rw [List.Nodup, List.pairwise_map]
-        exact hnodup.imp (fun hab hc => hab (by simpa using hc))
-      · intro a ha b hb hab
-        subst hab
-        obtain ⟨rid, hrid, rfl⟩ := List.mem_map.1 hb
-        obtain ⟨x, hx, hxk⟩ := List.mem_filterMap.1 ha
-        obtain ⟨o, ho, hor⟩ := List.mem_filterMap.1 hrid
-        cases o with
-        | removed t0 rid0 tk0 dl0 tid0 =>
-          simp only [removedRid, Option.some.injEq] at hor
-          subst hor
-          cases x with
-          | told t' r' tk' i' =>
-            simp only [toldKey, Option.some.injEq, Prod.mk.injEq] at hxk
-            obtain ⟨rfl, rfl⟩ := hxk
-            exact hfresh _ _ _ _ _ ho (htold t' _ tk' _ hx).2.1
-          | _ => simp [toldKey] at hxk
-        | _ => simp [removedRid] at hor
-    · intro t r tk dl tid hm i hi
-      have hi : i < s.listeners := hi
-      rcases hsplit _ hm with hm | ⟨o, ho, hoe⟩ | ⟨t0, rid0, tk0, dl0, tid0, _, hxe⟩
-      · rcases hcomp t r tk dl tid hm i hi with ⟨t', tk', h1⟩ | ⟨e0, he0, h1, h2⟩
-        · exact .inl ⟨t', tk', List.mem_append.2 (.inl h1)⟩
-        · exact .inr ⟨e0, List.mem_append.2 (.inl he0), h1, h2⟩
-      · simp only [NObs.base.injEq] at hoe
-        subst hoe
-        by_cases hi0 : i = 0
-        · subst hi0
-          exact .inl ⟨t, tk, List.mem_append.2 (.inr (List.mem_append.2 (.inr (firstTold_of_removed ho))))⟩
-        · exact .inr ⟨_, List.mem_append.2 (.inr (newEmission_of_removed ho)), rfl, by show 1 ≤ i; omega⟩
-      · cases hxe
-    · intro e he
-      rcases List.mem_append.1 he with he | he
-      · obtain ⟨t0, dl, h1⟩ := hrs e he
-        exact ⟨t0, dl, List.mem_append.2 (.inl h1)⟩
-      · obtain ⟨t, dl, hx, _⟩ := mem_newEmission he
-        exact ⟨t, dl, List.mem_append.2 (.inr (List.mem_append.2 (.inl (List.mem_map.2 ⟨_, hx, rfl⟩))))⟩
-    · intro t r tk i hm
-      rcases hsplit _ hm with hm | ⟨o, _, ho⟩ | ⟨t0, rid0, tk0, dl0, tid0, hx, hxe⟩
-      · obtain ⟨t0, dl, tid, h1⟩ := hts t r tk i hm
-        exact ⟨t0, dl, tid, List.mem_append.2 (.inl h1)⟩
-      · cases ho
-      · simp only [NObs.told.injEq] at hxe
-        obtain ⟨rfl, rfl, rfl, rfl⟩ := hxe
-        exact ⟨t, dl0, tid0, List.mem_append.2 (.inr (List.mem_append.2 (.inl (List.mem_map.2 ⟨_, hx, rfl⟩))))⟩
-    · intro t r tk i hm j hj
-      rcases hsplit _ hm with hm | ⟨o, _, ho⟩ | ⟨t0, rid0, tk0, dl0, tid0, _, hxe⟩
-      · obtain ⟨t', tk', h1⟩ := hord t r tk i hm j hj
-        exact ⟨t', tk', List.mem_append.2 (.inl h1)⟩
-      · cases ho
-      · simp only [NObs.told.injEq] at hxe
-        omega
-    · intro t r tk i hm
-      rcases hsplit _ hm with hm | ⟨o, _, ho⟩ | ⟨t0, rid0, tk0, dl0, tid0, _, hxe⟩
-      · exact hab t r tk i hm
-      · cases ho
-      · cases hxe
+      · split
+        · exact allGood_roundGo _ b _ (allGood_register b _ (h0 _))
+        · exact allGood_register b _ (h0 _)
+      · split
+        · exact allGood_of_reqs h rfl rfl
+        · exact allGood_of_reqs h rfl rfl
 
-theorem ninv_step {s : NState} {tr : List NObs} (op : NOp) (h : NInv s tr) (hw : NoWrap (nstep s op).1.base) :
-    NInv (nstep s op).1 (tr ++ (nstep s op).2) := by
+theorem allGood_completeAll (rids : List Nat) {s : State} (b : Bool) (o : List Obs) (h : AllGood b s) :
+    AllGood b (completeAll rids s o).1 := by
+  induction rids generalizing s o with
+  | nil => exact h
+  | cons rid rids ih => simp only [completeAll]; exact ih _ (allGood_completeOne b rid o h)
+
+theorem allGood_settleWishlist {s : State} (b : Bool) (o : List Obs) (h : AllGood b s) : AllGood b (settleWishlist s o).1 := by
+  unfold settleWishlist
+  split
+  · exact h
+  · split
+    · exact allGood_roundGo _ b o h
+    · exact h
+
+theorem allGood_tickWishlist {s : State} (b : Bool) (o : List Obs) (h : AllGood b s) : AllGood b (tickWishlist s o).1 := by
+  unfold tickWishlist
+  split
+  · exact h
+  · split
+    · exact allGood_roundGo _ b o h
+    · split
+      · exact allGood_of_reqs h rfl rfl
+      · exact h
+
+/-- a loop run drops the handle of a registered request only together with the request -/
+theorem fireCore_keeps_handle {s : State} (h : Inv s) (D F : TTask → Bool)
+    (hFD : ∀ t, F t = true → t.cancelled = false → D t = true) :
+    ∀ q ∈ s.requests.filter (fun r => (s.tasks.filter D).all (fun t => r.ticket ≠ t.ticket)),
+      (unsetDone (s.tasks.filter F) q).handle = q.handle := by
+  intro q hq
+  obtain ⟨hqm, hall⟩ := List.mem_filter.1 hq
+  rw [unsetDone_handle]
+  have : (s.tasks.filter F).any (fun x => x.rid = q.rid && q.handle == some x.id) = false := by
+    rw [List.any_eq_false]
+    intro x hx hcon
+    obtain ⟨hxm, hxf⟩ := List.mem_filter.1 hx
+    simp only [Bool.and_eq_true, decide_eq_true_eq, beq_iff_eq] at hcon
+    -- `x` is the handle of the registered `q`: un-cancelled, so it fires, so `q` does not survive
+    obtain ⟨t, ht, k1, k2, k3⟩ := h.handle_task q hqm x.id hcon.2
+    have : t = x := pairwise_id_inj h.task_nodup t ht x hxm k1
+    subst this
+    have hd := hFD t hxf k3
+    obtain ⟨r0, hr0, j1, j2, j3⟩ := h.task_live t ht k3
+    have : r0 = q := h.req_uniq r0 hr0 q hqm (by omega)
+    subst this
+    rw [List.all_eq_true] at hall
+    have := hall t (List.mem_filter.2 ⟨ht, hd⟩)
+    simp [j2] at this
+  rw [if_neg (by rw [this]; simp)]
+
+theorem unsetDone_kind (fin : List TTask) (r : Req) : (unsetDone fin r).kind = r.kind := by
+  unfold unsetDone; split <;> rfl
+
+theorem allGood_settleTimers {s : State} (b : Bool) (hi : Inv s) (h : AllGood b s) : AllGood b (settleTimers s).1 := by
+  intro r hr
+  rw [settleTimers_cfg]
+  rw [settleTimers_state] at hr
+  obtain ⟨q, hq, rfl⟩ := List.mem_map.1 hr
+  have h0 := inv_mapStart s.now hi
+  have hkeep := fireCore_keeps_handle h0 (isDue s.now) (isFinishing s.now)
+    (by intro t hf hc; unfold isFinishing at hf; unfold isDue; simp_all) q hq
+  have hg := h q (List.mem_filter.1 hq).1
+  refine ⟨?_, ?_, ?_⟩
+  · rw [unsetDone_kind, unsetDone_timeout]; exact hg.1
+  · rw [unsetDone_kind, unsetDone_timeout]; exact hg.2.1
+  · intro hb hne; rw [hkeep]; exact hg.2.2 hb (by simpa using hne)
+
+theorem allGood_tickTimers {s : State} (b : Bool) (hi : Inv s) (h : AllGood b s) : AllGood b (tickTimers s).1 := by
+  intro r hr
+  rw [tickTimers_cfg]
+  rw [tickTimers_state] at hr
+  obtain ⟨q, hq, rfl⟩ := List.mem_map.1 hr
+  have hkeep := fireCore_keeps_handle hi firesNow endsNow
+    (by intro t hf hc; unfold endsNow at hf; unfold firesNow; simp_all) q hq
+  have hg := h q (List.mem_filter.1 hq).1
+  refine ⟨?_, ?_, ?_⟩
+  · rw [unsetDone_kind, unsetDone_timeout]; exact hg.1
+  · rw [unsetDone_kind, unsetDone_timeout]; exact hg.2.1
+  · intro hb hne; rw [hkeep]; exact hg.2.2 hb (by simpa using hne)
+
+theorem allGood_settle {s : State} (b : Bool) (hi : Inv s) (h : AllGood b s) : AllGood b (settle s).1 := by
+  simp only [settle]
+  exact allGood_of_reqs (allGood_settleWishlist b _ (allGood_completeAll _ b _ (allGood_settleTimers b hi h))) rfl rfl
+
+theorem allGood_tick {s : State} (b : Bool) (hi : Inv s) (h : AllGood b s) : AllGood b (tick s).1 := by
+  simp only [tick]
+  exact allGood_tickWishlist b _ (allGood_completeAll _ b _ (allGood_tickTimers b hi h))
+
+
+theorem mem_setHandle {rs : List Req} {rid : Nat} {hd : Option Nat} {r' : Req} (h : r' ∈ setHandle rs rid hd) :
+    ∃ q ∈ rs, r' = if q.rid = rid then { q with handle := hd } else q := by
+  unfold setHandle at h
+  obtain ⟨q, hq, rfl⟩ := List.mem_map.1 h
+  exact ⟨q, hq, rfl⟩
+
+theorem mem_setTimeout {rs : List Req} {rid n : Nat} {r' : Req} (h : r' ∈ setTimeout rs rid n) :
+    ∃ q ∈ rs, r' = if q.rid = rid then { q with timeout := some n } else q := by
+  unfold setTimeout at h
+  obtain ⟨q, hq, rfl⟩ := List.mem_map.1 h
+  exact ⟨q, hq, rfl⟩
+
+theorem mem_timerCancel_requests {s : State} {rid : Nat} {hd : Option Nat} {r' : Req}
+    (h : r' ∈ (timerCancel s rid hd).requests) :
+    ∃ q ∈ s.requests, r' = q ∨ (q.rid = rid ∧ r' = { q with handle := none }) := by
+  cases hd with
+  | none => exact ⟨r', h, .inl rfl⟩
+  | some id =>
+    rw [timerCancel_some] at h
+    obtain ⟨q, hq, rfl⟩ := mem_setHandle h
+    refine ⟨q, hq, ?_⟩
+    split
+    · rename_i he; exact .inr ⟨he, rfl⟩
+    · exact .inl rfl
+
+/-- every step keeps "a Timer iff a timeout is in force"; every step but a `Timer.cancel` by the user keeps the Timers
+armed.  (`Op.search .wishlist` is not an API call: wishlist requests are made by the wishlist job only.) -/
+theorem allGood_step {s : State} (b : Bool) (op : Op) (hi : SInv s) (h : AllGood b s)
+    (hop : b = true → ∀ tk, op ≠ .timerCancel tk) (hs : op ≠ .search .wishlist) : AllGood b (step s op).1 := by
+  have same : ∀ s' : State, s'.cfg = s.cfg → s'.requests = s.requests → AllGood b s' :=
+    fun s' h1 h2 => allGood_of_reqs h h1 h2
   cases op with
-  | base op => rw [nstep_base_base] at hw; exact ninv_base op h hw
-  | resume rid => exact ninv_resume rid h
+  | search k =>
+    simp only [step]
+    split
+    · exact same _ rfl rfl
+    · exact allGood_newRequest b k _ (fun _ => rfl) (fun hk => absurd (by rw [hk]) hs) h
+  | wlInterval n => exact same _ rfl rfl
+  | serverClosing => exact same _ rfl rfl
+  | jump d => exact same _ rfl rfl
+  | gate g => exact same _ rfl rfl
+  | sendDone tk ok => simp only [step]; split <;> exact same _ rfl rfl
+  | cancelCall tk => simp only [step]; split <;> exact same _ rfl rfl
+  | settle => exact allGood_settle b hi.inv h
+  | tick => exact allGood_tick b hi.inv h
+  | reply tk =>
+    simp only [step]
+    cases hl : lookup s tk with
+    | none => exact h
+    | some r =>
+      simp only []
+      split
+      · intro r' hr'
+        obtain ⟨q, hq, rfl⟩ := List.mem_map.1 hr'
+        have := h q hq
+        split
+        · exact ⟨this.1, this.2.1, this.2.2⟩
+        · exact this
+      · exact same _ rfl rfl
+  | remove tk =>
+    simp only [step]
+    cases hl : lookup s tk with
+    | none => exact h
+    | some r =>
+      obtain ⟨hr, htk⟩ := lookup_some hl
+      have hfil : ∀ q ∈ s.requests.filter (fun x => decide (x.ticket ≠ tk)), Good s.cfg b q ∧ q.rid ≠ r.rid := by
+        intro q hq
+        obtain ⟨hqm, hne⟩ := List.mem_filter.1 hq
+        refine ⟨h q hqm, ?_⟩
+        intro he
+        have := hi.req_uniq q hqm r hr he
+        subst this
+        simp [htk] at hne
+      cases hto : r.timeout with
+      | none => simp only [hto]; exact fun q hq => (hfil q hq).1
+      | some T =>
+        simp only [hto]
+        intro r' hr'
+        have hcfg : (timerCancel { s with requests := s.requests.filter (fun x => decide (x.ticket ≠ tk)) } r.rid r.handle).cfg
+            = s.cfg := by cases r.handle <;> rfl
+        rw [hcfg]
+        obtain ⟨q, hq, h0 | ⟨h1, _⟩⟩ := mem_timerCancel_requests hr'
+        · rw [h0]; exact (hfil q hq).1
+        · exact absurd h1 (hfil q hq).2
+  | timerCancel tk =>
+    have hb : b = false := by
+      cases b with
+      | false => rfl
+      | true => exact absurd rfl (hop rfl tk)
+    subst hb
+    simp only [step]
+    cases hl : lookup s tk with
+    | none => exact h
+    | some r =>
+      cases hto : r.timeout with
+      | none => simp only [hto]; exact h
+      | some T =>
+        simp only [hto]
+        intro r' hr'
+        have hcfg : (timerCancel s r.rid r.handle).cfg = s.cfg := by cases r.handle <;> rfl
+        rw [hcfg]
+        obtain ⟨q, hq, h0 | ⟨_, h1⟩⟩ := mem_timerCancel_requests hr'
+        · rw [h0]; exact h q hq
+        · rw [h1]
+          have := h q hq
+          exact ⟨this.1, this.2.1, fun hf => by cases hf⟩
+  | timerReschedule tk n =>
+    simp only [step]
+    cases hl : lookup s tk with
+    | none => exact h
+    | some r =>
+      obtain ⟨hr, htk⟩ := lookup_some hl
+      cases hto : r.timeout with
+      | none => simp only [hto]; exact h
+      | some T =>
+        simp only [hto]
+        intro r' hr'
+        have hcfg : (timerStart { (timerCancel s r.rid r.handle) with
+            requests := setTimeout (timerCancel s r.rid r.handle).requests r.rid n } r.rid r.ticket n).cfg = s.cfg := by
+          simp only [timerStart]; cases r.handle <;> rfl
+        rw [hcfg]
+        simp only [timerStart] at hr'
+        obtain ⟨q1, hq1, rfl⟩ := mem_setHandle hr'
+        obtain ⟨q2, hq2, rfl⟩ := mem_setTimeout hq1
+        obtain ⟨q, hq, h0⟩ := mem_timerCancel_requests hq2
+        have hg := h q hq
+        by_cases he : q.rid = r.rid
+        · -- the re-armed request: it had a Timer, it has one now, with a task
+          have : q = r := hi.req_uniq q hq r hr he
+          subst this
+          have hq2r : q2.rid = q.rid ∧ q2.kind = q.kind := by
+            rcases h0 with h0 | ⟨_, h0⟩ <;> rw [h0] <;> exact ⟨rfl, rfl⟩
+          simp only [hq2r.1, if_true]
+          refine ⟨?_, ?_, ?_⟩
+          · intro hk
+            simp only [] at hk ⊢
+            rw [hq2r.2] at hk
+            have := hg.1 hk
+            rw [hto] at this
+            simp only [ne_eq, reduceCtorEq, not_false_eq_true, true_iff] at this
+            simp [this]
+          · intro _ _; simp
+          · intro _ _; simp
+        · have hq2r : q2.rid = q.rid := by
+            rcases h0 with h0 | ⟨_, h0⟩ <;> rw [h0]
+          have hq2e : q2 = q := by
+            rcases h0 with h0 | ⟨h1, _⟩
+            · exact h0
+            · exact absurd h1 he
+          subst hq2e
+          simp only [he, if_false]
+          exact hg
 
-/-- every history of the layered model keeps the ledger -/
-theorem reach_ninv (cfg : Cfg) (n : Nat) (ops : List NOp) (hw : NoWrap (nrun (ninit cfg n) ops).1.base) :
-    NInv (nrun (ninit cfg n) ops).1 (nrun (ninit cfg n) ops).2 := by
-  have := nrun_ind (P := NInv) (G := fun s => NoWrap s.base) noWrap_of_nstep
-    (fun s tr op hi hw => ninv_step op hi hw) ops (ninit cfg n) [] (ninv_init cfg n) hw
-  simpa using this
+theorem run_cfg (cfg : Cfg) (ops : List Op) : (run (init cfg) ops).1.cfg = cfg :=
+  run_ind (P := fun s _ => s.cfg = cfg) (G := fun _ => True) (fun _ _ _ => trivial)
+    (fun s _ op h _ => by rw [step_cfg]; exact h) ops (init cfg) [] rfl trivial
 
-theorem nrun_listeners (s : NState) (ops : List NOp) : (nrun s ops).1.listeners = s.listeners := by
+theorem noWrap_of_run (ops : List Op) (s : State) (h : NoWrap (run s ops).1) : NoWrap s := by
   induction ops generalizing s with
-  | nil => rfl
-  | cons op ops ih => rw [nrun_cons]; simp only [ih, nstep_listeners]
+  | nil => simpa [run_nil] using h
+  | cons op ops ih => rw [run_cons] at h; exact noWrap_of_step _ _ (ih _ h)
 
-/-! ### letting every suspended listener return -/
-
-theorem nrun_append (s : NState) (a b : List NOp) :
-    nrun s (a ++ b) = ((nrun (nrun s a).1 b).1, (nrun s a).2 ++ (nrun (nrun s a).1 b).2) := by
-  induction a generalizing s with
-  | nil => simp [nrun_nil]
-  | cons op ops ih => simp [nrun_cons, ih, List.append_assoc]
-
-/-- the schedule that lets the listeners of one running report return, one after the other, to the end -/
-def drainOne (n : Nat) (e : Emission) : List NOp := List.replicate (n - e.told + 1) (.resume e.rid)
-
-/-- … of every running report -/
-def drainOps (s : NState) : List NOp := s.reporting.flatMap (drainOne s.listeners)
-
-theorem find_bump (rid : Nat) (l : List Emission) :
-    (l.map (bump rid)).find? (fun e => decide (e.rid = rid)) = (l.find? (fun e => decide (e.rid = rid))).map (bump rid) := by
-  induction l with
-  | nil => rfl
-  | cons x xs ih =>
-    simp only [List.map_cons, List.find?_cons, bump_rid]
-    split
-    · rfl
-    · exact ih
-
-theorem filter_bump (rid : Nat) (l : List Emission) :
-    (l.map (bump rid)).filter (fun x => decide (x.rid ≠ rid)) = l.filter (fun x => decide (x.rid ≠ rid)) := by
-  induction l with
-  | nil => rfl
-  | cons x xs ih =>
-    simp only [List.map_cons, List.filter_cons, bump_rid, ih]
-    split
-    · rename_i h
-      have : bump rid x = x := by unfold bump; rw [if_neg (by simpa using h)]
-      rw [this]
-    · rfl
-
-/-- resuming an un-cancelled report `k + 1` times when `k` listeners are still to be called: they are called in
-order, then `emit` returns; nothing else changes -/
-theorem drainOne_run (s : NState) (e : Emission) (k : Nat)
-    (hf : s.reporting.find? (fun x => decide (x.rid = e.rid)) = some e) (hc : e.cancelled = false)
-    (hk : e.told + k = s.listeners) :
-    (nrun s (List.replicate (k + 1) (.resume e.rid))).1 =
-      { s with reporting := s.reporting.filter (fun x => decide (x.rid ≠ e.rid)) } := by
-  induction k generalizing s e with
-  | zero =>
-    simp only [List.replicate, nrun_cons, nrun_nil, nstep, hf, hc]
-    have : ¬ e.told < s.listeners := by omega
-    simp [this]
-  | succ k ih =>
-    rw [List.replicate_succ, nrun_cons]
-    have hlt : e.told < s.listeners := by omega
-    have hs : (nstep s (.resume e.rid)).1 = { s with reporting := s.reporting.map (bump e.rid) } := by
-      simp only [nstep, hf, hc]
-      simp [hlt]
-    rw [hs]
-    have hb : (bump e.rid e).rid = e.rid := bump_rid _ _
-    have := ih { s with reporting := s.reporting.map (bump e.rid) } (bump e.rid e)
-      (by rw [hb]; simp only []; rw [find_bump, hf]; rfl) (by simpa using hc)
-      (by rw [bump_told, if_pos rfl]; simp only []; omega)
-    rw [hb] at this
-    rw [this]
-    show ({ base := s.base, listeners := s.listeners,
-            reporting := (s.reporting.map (bump e.rid)).filter (fun x => decide (x.rid ≠ e.rid)) } : NState) = _
-    rw [filter_bump]
-
-theorem drain_run (n : Nat) (b : State) (l : List Emission)
-    (hnd : l.Pairwise (fun x y => x.rid ≠ y.rid)) (hok : ∀ e ∈ l, e.cancelled = false ∧ e.told ≤ n) :
-    (nrun { base := b, listeners := n, reporting := l } (l.flatMap (drainOne n))).1 =
-      { base := b, listeners := n, reporting := [] } := by
-  induction l with
-  | nil => rfl
-  | cons e es ih =>
-    rw [List.pairwise_cons] at hnd
-    have he := hok e (by simp)
-    have h1 := drainOne_run { base := b, listeners := n, reporting := e :: es } e (n - e.told)
-      (by simp [List.find?_cons]) he.1 (by have := he.2; show e.told + (n - e.told) = n; omega)
-    have hfil : (e :: es).filter (fun x => decide (x.rid ≠ e.rid)) = es := by
-      rw [List.filter_cons]
-      simp only [ne_eq, not_true_eq_false, decide_false, Bool.false_eq_true, if_false]
-      apply List.filter_eq_self.2
-      intro x hx
-      have := hnd.1 x hx
-      simpa using fun h => this h.symm
-    simp only [List.flatMap_cons, nrun_append]
-    unfold drainOne at h1 ⊢
-    rw [h1]
-    simp only [hfil]
-    exact ih hnd.2 (fun e' he' => hok e' (by simp [he']))
-
-/-- when every suspended listener is allowed to return, every report runs to its end -/
-theorem drain_state {s : NState} {tr : List NObs} (h : NInv s tr) :
-    (nrun s (drainOps s)).1 = { s with reporting := [] } := by
-  have := drain_run s.listeners s.base s.reporting h.rep_nodup
-    (fun e he => ⟨(h.rep_ok e he).1, (h.rep_ok e he).2.2.1⟩)
-  cases s
-  exact this
+/-- histories: "a Timer iff a timeout is in force" always (`b = false`); "armed" as long as the user cancels no Timer -/
+theorem reach_allGood (b : Bool) (ops : List Op) (s : State) (hi : SInv s) (h : AllGood b s)
+    (hw : NoWrap (run s ops).1)
+    (hop : b = true → ∀ op ∈ ops, ∀ tk, op ≠ .timerCancel tk) (hs : ∀ op ∈ ops, op ≠ .search .wishlist) :
+    AllGood b (run s ops).1 := by
+  induction ops generalizing s with
+  | nil => simpa [run_nil] using h
+  | cons op ops ih =>
+    rw [run_cons] at hw ⊢
+    have hw1 : NoWrap (step s op).1 := noWrap_of_run ops _ hw
+    exact ih _ (sinv_step op hi hw1)
+      (allGood_step b op hi h (fun hb tk => hop hb op (by simp) tk) (hs op (by simp))) hw
+      (fun hb o ho => hop hb o (by simp [ho])) (fun o ho => hs o (by simp [ho]))
 
 end AioslskVerif.Search
